@@ -8,7 +8,7 @@
                                                     d/de z(correct_pva(pva, e x)) at 0  =  - H x          *)
 From Coq Require Import Reals Lra Lia.
 From Coquelicot Require Import Coquelicot.
-From PV Require Import Base.RealTac Spec.LibSpecs Gen.Util Gen.ErrState.
+From PV Require Import Base.RealTac Spec.LibSpecs Gen.Util Gen.Transform Gen.ErrState.
 From PV Require Import Proofs.To180Proofs Proofs.C16Proofs.
 Open Scope R_scope.
 
@@ -866,3 +866,1929 @@ Ltac ray_vals :=
   | H : rotvec_m21 (0 * _) _ _ = _ |- _ => rewrite ?H; clear H
   | H : rotvec_m22 (0 * _) _ _ = _ |- _ => rewrite ?H; clear H
   end.
+
+Lemma is_derive_e_times (rho : R -> R) l :
+  ex_derive rho 0 -> rho 0 = l -> is_derive (fun e => e * rho e) 0 l.
+Proof.
+  intros Hex H0. auto_derive; [exact Hex|]. rewrite H0. ring.
+Qed.
+
+Lemma d2r_in_pi a : -180 < a < 180 -> - PI < a * (PI / 180) < PI.
+Proof. intros [H1 H2]. pose proof PI_RGT_0. split; nra. Qed.
+
+Ltac eqR := match goal with |- @eq _ ?a ?b => change (@eq R a b) end.
+
+(* abbreviations for the six trigonometric values of (roll, pitch, heading) with sin^2 = 1 - cos^2 *)
+Ltac trig_abbrev roll pitch heading :=
+  set (cr := cos (roll * (PI / 180))) in *; set (sr := sin (roll * (PI / 180))) in *;
+  set (cp := cos (pitch * (PI / 180))) in *; set (sp := sin (pitch * (PI / 180))) in *;
+  set (ch := cos (heading * (PI / 180))) in *; set (sh := sin (heading * (PI / 180))) in *;
+  assert (Hr : sr * sr = 1 - cr * cr) by (pose proof (sc1 (roll * (PI / 180))); unfold sr, cr; lra);
+  assert (Hp : sp * sp = 1 - cp * cp) by (pose proof (sc1 (pitch * (PI / 180))); unfold sp, cp; lra);
+  assert (Hh : sh * sh = 1 - ch * ch) by (pose proof (sc1 (heading * (PI / 180))); unfold sh, ch; lra).
+
+Lemma is_derive_const_minus (f : R -> R) c t l :
+  is_derive f t l -> is_derive (fun e => c - f e) t (- l).
+Proof.
+  intro H. auto_derive; [exists l; exact H|]. derive_val H. ring.
+Qed.
+
+Section Correct3D.
+Variables lat lon alt VN VE VD roll pitch heading : R.
+Variables x0 x1 x2 x3 x4 x5 x6 x7 x8 : R.
+Hypothesis Hlat : -90 < lat < 90.
+Hypothesis Halt : -1000000 <= alt.
+Hypothesis Hroll : -180 < roll < 180.
+Hypothesis Hpitch : -90 < pitch < 90.
+Hypothesis Hheading : -180 < heading < 180.
+
+Let T := Tout3 lat lon alt VN VE VD roll pitch heading.
+Let x := vec9 x0 x1 x2 x3 x4 x5 x6 x7 x8.
+Let A3 (f : R -> R -> R -> R -> R -> R -> R -> R -> R -> R -> R -> R -> R -> R -> R -> R -> R -> R -> R) :=
+  along3 f lat lon alt VN VE VD roll pitch heading x0 x1 x2 x3 x4 x5 x6 x7 x8.
+Let D3 (d : R -> R -> R -> R -> R -> R -> R -> R -> R -> R -> R -> R -> R -> R -> R -> R -> R -> R -> R) :=
+  diff_after_correct3 d lat lon alt VN VE VD roll pitch heading x0 x1 x2 x3 x4 x5 x6 x7 x8.
+
+(** *** the nine components of correct_pva along the ray: derivative at 0 *)
+
+Lemma corr3_VN : is_derive (A3 correct3d_VN) 0 (- mvec 9 T x 3).
+Proof.
+  unfold A3, along3, correct3d_VN. ray_facts x6 x7 x8. to_ray x6 x7 x8.
+  auto_derive; [ray_ex|]. ray_vals. unfold T, x. mat_entry. cbv [vec9]. ring.
+Qed.
+
+Lemma corr3_VE : is_derive (A3 correct3d_VE) 0 (- mvec 9 T x 4).
+Proof.
+  unfold A3, along3, correct3d_VE. ray_facts x6 x7 x8. to_ray x6 x7 x8.
+  auto_derive; [ray_ex|]. ray_vals. unfold T, x. mat_entry. cbv [vec9]. ring.
+Qed.
+
+Lemma corr3_VD : is_derive (A3 correct3d_VD) 0 (- mvec 9 T x 5).
+Proof.
+  unfold A3, along3, correct3d_VD. ray_facts x6 x7 x8. to_ray x6 x7 x8.
+  auto_derive; [ray_ex|]. ray_vals. unfold T, x. mat_entry. cbv [vec9]. ring.
+Qed.
+
+Lemma corr3_alt : is_derive (A3 correct3d_alt) 0 (mvec 9 T x 2).
+Proof.
+  unfold A3, along3, correct3d_alt. auto_derive; [exact I|]. unfold T, x. mat_entry. cbv [vec9]. ring.
+Qed.
+
+Lemma corr3_roll : is_derive (A3 correct3d_roll) 0 (- mvec 9 T x 6).
+Proof.
+  unfold A3, along3, correct3d_roll, euler_roll.
+  ray_facts x6 x7 x8.
+  pose proof (cos_d2r_pos pitch Hpitch) as Hcp.
+  eapply is_derive_atan2_deg.
+  - to_ray x6 x7 x8. auto_derive; [ray_ex|]. reflexivity.
+  - to_ray x6 x7 x8. auto_derive; [ray_ex|]. reflexivity.
+  - cbv beta. ray_vals. autounfold with correct3d_db.
+    destruct (polar_offcut _ (d2r_in_pi roll Hroll)) as [Hc|Hs]; [left|right]; nra.
+  - cbv beta. ray_vals. autounfold with correct3d_db. unfold T, x. mat_entry. cbv [vec9].
+    trig_abbrev roll pitch heading. pose proof PI_neq0 as Hpi.
+    match goal with |- _ = _ / ?D * _ => replace D with (cp * cp) by (ring [Hr]) end.
+    field_simplify_eq; [ring [Hr Hp Hh] | split; [assumption | lra]].
+Qed.
+
+Lemma corr3_heading : is_derive (A3 correct3d_heading) 0 (- mvec 9 T x 8).
+Proof.
+  unfold A3, along3, correct3d_heading, euler_heading.
+  ray_facts x6 x7 x8.
+  pose proof (cos_d2r_pos pitch Hpitch) as Hcp.
+  eapply is_derive_atan2_deg.
+  - to_ray x6 x7 x8. auto_derive; [ray_ex|]. reflexivity.
+  - to_ray x6 x7 x8. auto_derive; [ray_ex|]. reflexivity.
+  - cbv beta. ray_vals. autounfold with correct3d_db.
+    destruct (polar_offcut _ (d2r_in_pi heading Hheading)) as [Hc|Hs]; [left|right]; nra.
+  - cbv beta. ray_vals. autounfold with correct3d_db. unfold T, x. mat_entry. cbv [vec9].
+    trig_abbrev roll pitch heading. pose proof PI_neq0 as Hpi.
+    match goal with |- _ = _ / ?D * _ => replace D with (cp * cp) by (ring [Hh]) end.
+    field_simplify_eq; [ring [Hr Hp Hh] | split; [assumption | lra]].
+Qed.
+
+Lemma corr3_pitch : is_derive (A3 correct3d_pitch) 0 (- mvec 9 T x 7).
+Proof.
+  unfold A3, along3, correct3d_pitch, euler_pitch.
+  ray_facts x6 x7 x8.
+  pose proof (cos_d2r_pos pitch Hpitch) as Hcp.
+  eapply is_derive_atan2_deg.
+  - to_ray x6 x7 x8. auto_derive; [ray_ex|]. reflexivity.
+  - to_ray x6 x7 x8.
+    auto_derive; [ray_ex; ray_vals; autounfold with correct3d_db; trig_abbrev roll pitch heading;
+                  match goal with |- 0 < ?E => replace E with (cp * cp) by (ring [Hr]) end; nra
+                 | reflexivity].
+  - cbv beta. ray_vals. autounfold with correct3d_db. left. apply sqrt_lt_R0.
+    trig_abbrev roll pitch heading.
+    match goal with |- 0 < ?E => replace E with (cp * cp) by (ring [Hr]) end; nra.
+  - cbv beta. ray_vals. autounfold with correct3d_db. unfold T, x. mat_entry. cbv [vec9].
+    trig_abbrev roll pitch heading. pose proof PI_neq0 as Hpi.
+    repeat match goal with |- context [sqrt ?E] =>
+      replace (sqrt E) with cp by
+        (symmetry; replace E with (cp * cp) by (ring [Hr]); apply sqrt_square; lra) end.
+    match goal with |- _ = _ / ?D * _ => replace D with 1 by (ring [Hp]) end.
+    field_simplify_eq; [ring [Hr Hp Hh] | split; [assumption | lra]].
+Qed.
+
+(** latitude / longitude are affine in x0 / x1, so the derivative along the ray is the increment itself *)
+Lemma corr3_lat : is_derive (A3 correct3d_lat) 0
+  (correct3d_lat lat lon alt VN VE VD roll pitch heading x0 x1 x2 x3 x4 x5 x6 x7 x8 - lat).
+Proof.
+  unfold A3, along3, correct3d_lat. auto_derive; [exact I|]. unfold Rdiv. ring.
+Qed.
+
+Lemma corr3_lon : is_derive (A3 correct3d_lon) 0
+  (correct3d_lon lat lon alt VN VE VD roll pitch heading x0 x1 x2 x3 x4 x5 x6 x7 x8 - lon).
+Proof.
+  unfold A3, along3, correct3d_lon. auto_derive; [exact I|]. unfold Rdiv. ring.
+Qed.
+
+(** *** correct_pva(pva, 0) = pva  (attitude: for angles in the principal range) *)
+Lemma corr3_at0 :
+  A3 correct3d_lat 0 = lat /\ A3 correct3d_lon 0 = lon /\ A3 correct3d_alt 0 = alt /\
+  A3 correct3d_VN 0 = VN /\ A3 correct3d_VE 0 = VE /\ A3 correct3d_VD 0 = VD /\
+  A3 correct3d_roll 0 = roll /\ A3 correct3d_pitch 0 = pitch /\ A3 correct3d_heading 0 = heading.
+Proof.
+  unfold A3, along3.
+  pose proof (cos_d2r_pos pitch Hpitch) as Hcp. pose proof PI_neq0 as Hpi.
+  splits.
+  - unfold correct3d_lat, Rdiv. ring.
+  - unfold correct3d_lon, Rdiv. ring.
+  - unfold correct3d_alt. ring.
+  - unfold correct3d_VN. ray_facts x6 x7 x8. ray_vals. ring.
+  - unfold correct3d_VE. ray_facts x6 x7 x8. ray_vals. ring.
+  - unfold correct3d_VD. ray_facts x6 x7 x8. ray_vals. ring.
+  - unfold correct3d_roll, euler_roll. ray_facts x6 x7 x8. ray_vals. autounfold with correct3d_db.
+    match goal with |- atan2 ?a ?b * _ = _ =>
+      replace a with (cos (pitch * (PI / 180)) * sin (roll * (PI / 180))) by ring;
+      replace b with (cos (pitch * (PI / 180)) * cos (roll * (PI / 180))) by ring end.
+    rewrite atan2_polar; [field; exact Hpi | exact Hcp | apply d2r_in_pi; exact Hroll].
+  - unfold correct3d_pitch, euler_pitch. ray_facts x6 x7 x8. ray_vals. autounfold with correct3d_db.
+    trig_abbrev roll pitch heading.
+    match goal with |- context [sqrt ?E] =>
+      replace (sqrt E) with cp by
+        (symmetry; replace E with (cp * cp) by (ring [Hr]); apply sqrt_square; lra) end.
+    match goal with |- atan2 ?a ?b * _ = _ =>
+      replace a with (1 * sp) by ring; replace b with (1 * cp) by ring end.
+    unfold sp, cp. rewrite atan2_polar; [field; exact Hpi | lra |].
+    apply d2r_in_pi. lra.
+  - unfold correct3d_heading, euler_heading. ray_facts x6 x7 x8. ray_vals. autounfold with correct3d_db.
+    match goal with |- atan2 ?a ?b * _ = _ =>
+      replace a with (cos (pitch * (PI / 180)) * sin (heading * (PI / 180))) by ring;
+      replace b with (cos (pitch * (PI / 180)) * cos (heading * (PI / 180))) by ring end.
+    rewrite atan2_polar; [field; exact Hpi | exact Hcp | apply d2r_in_pi; exact Hheading].
+Qed.
+
+(** *** compute_state_difference(pva, correct_pva(pva, e x)): derivative at 0 is T_out x *)
+
+Lemma diff3_north : is_derive (D3 state_diff_north) 0 (mvec 9 T x 0).
+Proof.
+  unfold D3, diff_after_correct3, along3, state_diff_north, correct3d_lat, correct3d_alt.
+  pose proof (rn_pos (lat * (PI/180)) alt Halt) as Hrn.
+  match goal with |- is_derive (fun e => (lat - (lat + - (e * x0) / ?K * (180 / PI))) * _) 0 _ =>
+    set (k := K) in * end.
+  match goal with |- is_derive (fun e => (lat - (lat + - (e * x0) / k * (180 / PI))) * @?Q e) 0 _ =>
+    apply (is_derive_ext (fun e => e * (x0 * / k * (180 / PI) * Q e)));
+    [ intro e; cbv beta; unfold Rdiv; eqR; ring | apply is_derive_e_times ]
+  end.
+  - autounfold with state_diff_db. auto_derive.
+    splits; try exact I; try (apply Rgt_not_eq); try (exact (W_pos' _)); try (exact (sqrtW_pos _)).
+  - cbv beta. autounfold with state_diff_db.
+    replace (lat + - (0 * x0) / k * (180 / PI)) with lat by (unfold Rdiv; ring).
+    try replace (alt - - (0 * x2)) with alt by ring.
+    replace (1 / 2 * (lat + lat)) with lat by field.
+    replace (1 / 2 * (alt + alt)) with alt by field.
+    subst k. autounfold with correct3d_db. unfold T, x. mat_entry. cbv [vec9].
+    match type of Hrn with 0 < ?r + alt => set (rn := r) in * end.
+    pose proof PI_neq0. field. split; [assumption | lra].
+Qed.
+
+Lemma diff3_east : is_derive (D3 state_diff_east) 0 (mvec 9 T x 1).
+Proof.
+  unfold D3, diff_after_correct3, along3, state_diff_east, correct3d_lat, correct3d_lon, correct3d_alt.
+  pose proof (re_pos (lat * (PI/180)) alt Halt) as Hre.
+  pose proof (cos_d2r_pos lat Hlat) as Hcos.
+  assert (Hs : sqrt (1 - sin (lat * (PI/180)) * sin (lat * (PI/180))) = cos (lat * (PI/180)))
+    by (apply sqrt_1msin2; lra).
+  match goal with |- is_derive (fun e => (lon - (lon + - (e * x1) / ?K * (180 / PI))) * _) 0 _ =>
+    set (k := K) in * end.
+  match goal with |- is_derive (fun e => (lon - (lon + - (e * x1) / k * (180 / PI))) * @?Q e) 0 _ =>
+    apply (is_derive_ext (fun e => e * (x1 * / k * (180 / PI) * Q e)));
+    [ intro e; cbv beta; unfold Rdiv; eqR; ring | apply is_derive_e_times ]
+  end.
+  - autounfold with state_diff_db. auto_derive.
+    match goal with |- context [lat + - (0 * x0) * / ?K0 * (180 / PI)] =>
+      replace (lat + - (0 * x0) * / K0 * (180 / PI)) with lat by (unfold Rdiv; ring) end.
+    replace (1 / 2 * (lat + lat)) with lat by field.
+    splits; try exact I; try (apply Rgt_not_eq); try (exact (W_pos' _)); try (exact (sqrtW_pos _)).
+    pose proof (sc1 (lat * (PI / 180))). nra.
+  - cbv beta. autounfold with state_diff_db.
+    match goal with |- context [lat + - (0 * x0) / ?K0 * (180 / PI)] =>
+      replace (lat + - (0 * x0) / K0 * (180 / PI)) with lat by (unfold Rdiv; ring) end.
+    try replace (alt - - (0 * x2)) with alt by ring.
+    replace (1 / 2 * (lat + lat)) with lat by field.
+    replace (1 / 2 * (alt + alt)) with alt by field.
+    subst k. autounfold with correct3d_db. unfold T, x. mat_entry. cbv [vec9].
+    rewrite Hs.
+    match type of Hre with 0 < ?r + alt => set (re := r) in * end.
+    pose proof PI_neq0. field. splits; try assumption; lra.
+Qed.
+
+Lemma diff3_down : is_derive (D3 state_diff_down) 0 (mvec 9 T x 2).
+Proof.
+  unfold D3, diff_after_correct3, state_diff_down.
+  pose proof corr3_alt as H. unfold A3 in H.
+  auto_derive; [eexists; exact H|]. derive_val H. ring.
+Qed.
+
+Lemma diff3_VN : is_derive (D3 state_diff_VN) 0 (mvec 9 T x 3).
+Proof.
+  unfold D3, diff_after_correct3, state_diff_VN.
+  rewrite <- (Ropp_involutive (mvec 9 T x 3)). apply is_derive_const_minus. exact corr3_VN.
+Qed.
+
+Lemma diff3_VE : is_derive (D3 state_diff_VE) 0 (mvec 9 T x 4).
+Proof.
+  unfold D3, diff_after_correct3, state_diff_VE.
+  rewrite <- (Ropp_involutive (mvec 9 T x 4)). apply is_derive_const_minus. exact corr3_VE.
+Qed.
+
+Lemma diff3_VD : is_derive (D3 state_diff_VD) 0 (mvec 9 T x 5).
+Proof.
+  unfold D3, diff_after_correct3, state_diff_VD.
+  rewrite <- (Ropp_involutive (mvec 9 T x 5)). apply is_derive_const_minus. exact corr3_VD.
+Qed.
+
+Lemma diff3_roll : is_derive (D3 state_diff_roll) 0 (mvec 9 T x 6).
+Proof.
+  unfold D3, diff_after_correct3, state_diff_roll.
+  destruct corr3_at0 as [_ [_ [_ [_ [_ [_ [Hr0 [Hp0 Hh0]]]]]]]]. unfold A3 in *.
+  apply (is_derive_wrap180 (fun e => roll - _ e)).
+  - rewrite <- (Ropp_involutive (mvec 9 T x 6)). apply is_derive_const_minus. exact corr3_roll.
+  - rewrite Hr0. ring.
+Qed.
+
+Lemma diff3_pitch : is_derive (D3 state_diff_pitch) 0 (mvec 9 T x 7).
+Proof.
+  unfold D3, diff_after_correct3, state_diff_pitch.
+  destruct corr3_at0 as [_ [_ [_ [_ [_ [_ [Hr0 [Hp0 Hh0]]]]]]]]. unfold A3 in *.
+  apply (is_derive_wrap180 (fun e => pitch - _ e)).
+  - rewrite <- (Ropp_involutive (mvec 9 T x 7)). apply is_derive_const_minus. exact corr3_pitch.
+  - rewrite Hp0. ring.
+Qed.
+
+Lemma diff3_heading : is_derive (D3 state_diff_heading) 0 (mvec 9 T x 8).
+Proof.
+  unfold D3, diff_after_correct3, state_diff_heading.
+  destruct corr3_at0 as [_ [_ [_ [_ [_ [_ [Hr0 [Hp0 Hh0]]]]]]]]. unfold A3 in *.
+  apply (is_derive_wrap180 (fun e => heading - _ e)).
+  - rewrite <- (Ropp_involutive (mvec 9 T x 8)). apply is_derive_const_minus. exact corr3_heading.
+  - rewrite Hh0. ring.
+Qed.
+End Correct3D.
+
+(** the same development for the no-altitude mode (7 states; PHI = x4 x5 x6) *)
+Section Correct2D.
+Variables lat lon alt VN VE VD roll pitch heading : R.
+Variables x0 x1 x2 x3 x4 x5 x6 : R.
+Hypothesis Hlat : -90 < lat < 90.
+Hypothesis Halt : -1000000 <= alt.
+Hypothesis Hroll : -180 < roll < 180.
+Hypothesis Hpitch : -90 < pitch < 90.
+Hypothesis Hheading : -180 < heading < 180.
+
+Let T := Tout2 lat lon alt VN VE VD roll pitch heading.
+Let x := vec7 x0 x1 x2 x3 x4 x5 x6.
+Let A2 (f : R -> R -> R -> R -> R -> R -> R -> R -> R -> R -> R -> R -> R -> R -> R -> R -> R) :=
+  along2 f lat lon alt VN VE VD roll pitch heading x0 x1 x2 x3 x4 x5 x6.
+Let D2 (d : R -> R -> R -> R -> R -> R -> R -> R -> R -> R -> R -> R -> R -> R -> R -> R -> R -> R -> R) :=
+  diff_after_correct2 d lat lon alt VN VE VD roll pitch heading x0 x1 x2 x3 x4 x5 x6.
+
+(** *** the nine components of correct_pva along the ray: derivative at 0 *)
+
+Lemma corr2_VN : is_derive (A2 correct2d_VN) 0 (- mvec 7 T x 3).
+Proof.
+  unfold A2, along2, correct2d_VN. ray_facts x4 x5 x6. to_ray x4 x5 x6.
+  auto_derive; [ray_ex|]. ray_vals. unfold T, x. mat_entry. cbv [vec7]. ring.
+Qed.
+
+Lemma corr2_VE : is_derive (A2 correct2d_VE) 0 (- mvec 7 T x 4).
+Proof.
+  unfold A2, along2, correct2d_VE. ray_facts x4 x5 x6. to_ray x4 x5 x6.
+  auto_derive; [ray_ex|]. ray_vals. unfold T, x. mat_entry. cbv [vec7]. ring.
+Qed.
+
+Lemma corr2_VD : is_derive (A2 correct2d_VD) 0 (- mvec 7 T x 5).
+Proof.
+  unfold A2, along2, correct2d_VD. ray_facts x4 x5 x6. to_ray x4 x5 x6.
+  auto_derive; [ray_ex|]. ray_vals. unfold T, x. mat_entry. cbv [vec7]. ring.
+Qed.
+
+Lemma corr2_alt : is_derive (A2 correct2d_alt) 0 (mvec 7 T x 2).
+Proof.
+  unfold A2, along2, correct2d_alt. auto_derive; [exact I|]. unfold T, x. mat_entry. cbv [vec7]. ring.
+Qed.
+
+Lemma corr2_roll : is_derive (A2 correct2d_roll) 0 (- mvec 7 T x 6).
+Proof.
+  unfold A2, along2, correct2d_roll, euler_roll.
+  ray_facts x4 x5 x6.
+  pose proof (cos_d2r_pos pitch Hpitch) as Hcp.
+  eapply is_derive_atan2_deg.
+  - to_ray x4 x5 x6. auto_derive; [ray_ex|]. reflexivity.
+  - to_ray x4 x5 x6. auto_derive; [ray_ex|]. reflexivity.
+  - cbv beta. ray_vals. autounfold with correct2d_db.
+    destruct (polar_offcut _ (d2r_in_pi roll Hroll)) as [Hc|Hs]; [left|right]; nra.
+  - cbv beta. ray_vals. autounfold with correct2d_db. unfold T, x. mat_entry. cbv [vec7].
+    trig_abbrev roll pitch heading. pose proof PI_neq0 as Hpi.
+    match goal with |- _ = _ / ?D * _ => replace D with (cp * cp) by (ring [Hr]) end.
+    field_simplify_eq; [ring [Hr Hp Hh] | split; [assumption | lra]].
+Qed.
+
+Lemma corr2_heading : is_derive (A2 correct2d_heading) 0 (- mvec 7 T x 8).
+Proof.
+  unfold A2, along2, correct2d_heading, euler_heading.
+  ray_facts x4 x5 x6.
+  pose proof (cos_d2r_pos pitch Hpitch) as Hcp.
+  eapply is_derive_atan2_deg.
+  - to_ray x4 x5 x6. auto_derive; [ray_ex|]. reflexivity.
+  - to_ray x4 x5 x6. auto_derive; [ray_ex|]. reflexivity.
+  - cbv beta. ray_vals. autounfold with correct2d_db.
+    destruct (polar_offcut _ (d2r_in_pi heading Hheading)) as [Hc|Hs]; [left|right]; nra.
+  - cbv beta. ray_vals. autounfold with correct2d_db. unfold T, x. mat_entry. cbv [vec7].
+    trig_abbrev roll pitch heading. pose proof PI_neq0 as Hpi.
+    match goal with |- _ = _ / ?D * _ => replace D with (cp * cp) by (ring [Hh]) end.
+    field_simplify_eq; [ring [Hr Hp Hh] | split; [assumption | lra]].
+Qed.
+
+Lemma corr2_pitch : is_derive (A2 correct2d_pitch) 0 (- mvec 7 T x 7).
+Proof.
+  unfold A2, along2, correct2d_pitch, euler_pitch.
+  ray_facts x4 x5 x6.
+  pose proof (cos_d2r_pos pitch Hpitch) as Hcp.
+  eapply is_derive_atan2_deg.
+  - to_ray x4 x5 x6. auto_derive; [ray_ex|]. reflexivity.
+  - to_ray x4 x5 x6.
+    auto_derive; [ray_ex; ray_vals; autounfold with correct2d_db; trig_abbrev roll pitch heading;
+                  match goal with |- 0 < ?E => replace E with (cp * cp) by (ring [Hr]) end; nra
+                 | reflexivity].
+  - cbv beta. ray_vals. autounfold with correct2d_db. left. apply sqrt_lt_R0.
+    trig_abbrev roll pitch heading.
+    match goal with |- 0 < ?E => replace E with (cp * cp) by (ring [Hr]) end; nra.
+  - cbv beta. ray_vals. autounfold with correct2d_db. unfold T, x. mat_entry. cbv [vec7].
+    trig_abbrev roll pitch heading. pose proof PI_neq0 as Hpi.
+    repeat match goal with |- context [sqrt ?E] =>
+      replace (sqrt E) with cp by
+        (symmetry; replace E with (cp * cp) by (ring [Hr]); apply sqrt_square; lra) end.
+    match goal with |- _ = _ / ?D * _ => replace D with 1 by (ring [Hp]) end.
+    field_simplify_eq; [ring [Hr Hp Hh] | split; [assumption | lra]].
+Qed.
+
+(** latitude / longitude are affine in x0 / x1, so the derivative along the ray is the increment itself *)
+Lemma corr2_lat : is_derive (A2 correct2d_lat) 0
+  (correct2d_lat lat lon alt VN VE VD roll pitch heading x0 x1 x2 x3 x4 x5 x6 - lat).
+Proof.
+  unfold A2, along2, correct2d_lat. auto_derive; [exact I|]. unfold Rdiv. ring.
+Qed.
+
+Lemma corr2_lon : is_derive (A2 correct2d_lon) 0
+  (correct2d_lon lat lon alt VN VE VD roll pitch heading x0 x1 x2 x3 x4 x5 x6 - lon).
+Proof.
+  unfold A2, along2, correct2d_lon. auto_derive; [exact I|]. unfold Rdiv. ring.
+Qed.
+
+(** *** correct_pva(pva, 0) = pva  (attitude: for angles in the principal range) *)
+Lemma corr2_at0 :
+  A2 correct2d_lat 0 = lat /\ A2 correct2d_lon 0 = lon /\ A2 correct2d_alt 0 = alt /\
+  A2 correct2d_VN 0 = VN /\ A2 correct2d_VE 0 = VE /\ A2 correct2d_VD 0 = VD /\
+  A2 correct2d_roll 0 = roll /\ A2 correct2d_pitch 0 = pitch /\ A2 correct2d_heading 0 = heading.
+Proof.
+  unfold A2, along2.
+  pose proof (cos_d2r_pos pitch Hpitch) as Hcp. pose proof PI_neq0 as Hpi.
+  splits.
+  - unfold correct2d_lat, Rdiv. ring.
+  - unfold correct2d_lon, Rdiv. ring.
+  - unfold correct2d_alt. ring.
+  - unfold correct2d_VN. ray_facts x4 x5 x6. ray_vals. ring.
+  - unfold correct2d_VE. ray_facts x4 x5 x6. ray_vals. ring.
+  - unfold correct2d_VD. ray_facts x4 x5 x6. ray_vals. ring.
+  - unfold correct2d_roll, euler_roll. ray_facts x4 x5 x6. ray_vals. autounfold with correct2d_db.
+    match goal with |- atan2 ?a ?b * _ = _ =>
+      replace a with (cos (pitch * (PI / 180)) * sin (roll * (PI / 180))) by ring;
+      replace b with (cos (pitch * (PI / 180)) * cos (roll * (PI / 180))) by ring end.
+    rewrite atan2_polar; [field; exact Hpi | exact Hcp | apply d2r_in_pi; exact Hroll].
+  - unfold correct2d_pitch, euler_pitch. ray_facts x4 x5 x6. ray_vals. autounfold with correct2d_db.
+    trig_abbrev roll pitch heading.
+    match goal with |- context [sqrt ?E] =>
+      replace (sqrt E) with cp by
+        (symmetry; replace E with (cp * cp) by (ring [Hr]); apply sqrt_square; lra) end.
+    match goal with |- atan2 ?a ?b * _ = _ =>
+      replace a with (1 * sp) by ring; replace b with (1 * cp) by ring end.
+    unfold sp, cp. rewrite atan2_polar; [field; exact Hpi | lra |].
+    apply d2r_in_pi. lra.
+  - unfold correct2d_heading, euler_heading. ray_facts x4 x5 x6. ray_vals. autounfold with correct2d_db.
+    match goal with |- atan2 ?a ?b * _ = _ =>
+      replace a with (cos (pitch * (PI / 180)) * sin (heading * (PI / 180))) by ring;
+      replace b with (cos (pitch * (PI / 180)) * cos (heading * (PI / 180))) by ring end.
+    rewrite atan2_polar; [field; exact Hpi | exact Hcp | apply d2r_in_pi; exact Hheading].
+Qed.
+
+(** *** compute_state_difference(pva, correct_pva(pva, e x)): derivative at 0 is T_out x *)
+
+Lemma diff2_north : is_derive (D2 state_diff_north) 0 (mvec 7 T x 0).
+Proof.
+  unfold D2, diff_after_correct2, along2, state_diff_north, correct2d_lat, correct2d_alt.
+  pose proof (rn_pos (lat * (PI/180)) alt Halt) as Hrn.
+  match goal with |- is_derive (fun e => (lat - (lat + - (e * x0) / ?K * (180 / PI))) * _) 0 _ =>
+    set (k := K) in * end.
+  match goal with |- is_derive (fun e => (lat - (lat + - (e * x0) / k * (180 / PI))) * @?Q e) 0 _ =>
+    apply (is_derive_ext (fun e => e * (x0 * / k * (180 / PI) * Q e)));
+    [ intro e; cbv beta; unfold Rdiv; eqR; ring | apply is_derive_e_times ]
+  end.
+  - autounfold with state_diff_db. auto_derive.
+    splits; try exact I; try (apply Rgt_not_eq); try (exact (W_pos' _)); try (exact (sqrtW_pos _)).
+  - cbv beta. autounfold with state_diff_db.
+    replace (lat + - (0 * x0) / k * (180 / PI)) with lat by (unfold Rdiv; ring).
+    try replace (alt - - (0 * x2)) with alt by ring.
+    replace (1 / 2 * (lat + lat)) with lat by field.
+    replace (1 / 2 * (alt + alt)) with alt by field.
+    subst k. autounfold with correct2d_db. unfold T, x. mat_entry. cbv [vec7].
+    match type of Hrn with 0 < ?r + alt => set (rn := r) in * end.
+    pose proof PI_neq0. field. split; [assumption | lra].
+Qed.
+
+Lemma diff2_east : is_derive (D2 state_diff_east) 0 (mvec 7 T x 1).
+Proof.
+  unfold D2, diff_after_correct2, along2, state_diff_east, correct2d_lat, correct2d_lon, correct2d_alt.
+  pose proof (re_pos (lat * (PI/180)) alt Halt) as Hre.
+  pose proof (cos_d2r_pos lat Hlat) as Hcos.
+  assert (Hs : sqrt (1 - sin (lat * (PI/180)) * sin (lat * (PI/180))) = cos (lat * (PI/180)))
+    by (apply sqrt_1msin2; lra).
+  match goal with |- is_derive (fun e => (lon - (lon + - (e * x1) / ?K * (180 / PI))) * _) 0 _ =>
+    set (k := K) in * end.
+  match goal with |- is_derive (fun e => (lon - (lon + - (e * x1) / k * (180 / PI))) * @?Q e) 0 _ =>
+    apply (is_derive_ext (fun e => e * (x1 * / k * (180 / PI) * Q e)));
+    [ intro e; cbv beta; unfold Rdiv; eqR; ring | apply is_derive_e_times ]
+  end.
+  - autounfold with state_diff_db. auto_derive.
+    match goal with |- context [lat + - (0 * x0) * / ?K0 * (180 / PI)] =>
+      replace (lat + - (0 * x0) * / K0 * (180 / PI)) with lat by (unfold Rdiv; ring) end.
+    replace (1 / 2 * (lat + lat)) with lat by field.
+    splits; try exact I; try (apply Rgt_not_eq); try (exact (W_pos' _)); try (exact (sqrtW_pos _)).
+    pose proof (sc1 (lat * (PI / 180))). nra.
+  - cbv beta. autounfold with state_diff_db.
+    match goal with |- context [lat + - (0 * x0) / ?K0 * (180 / PI)] =>
+      replace (lat + - (0 * x0) / K0 * (180 / PI)) with lat by (unfold Rdiv; ring) end.
+    try replace (alt - - (0 * x2)) with alt by ring.
+    replace (1 / 2 * (lat + lat)) with lat by field.
+    replace (1 / 2 * (alt + alt)) with alt by field.
+    subst k. autounfold with correct2d_db. unfold T, x. mat_entry. cbv [vec7].
+    rewrite Hs.
+    match type of Hre with 0 < ?r + alt => set (re := r) in * end.
+    pose proof PI_neq0. field. splits; try assumption; lra.
+Qed.
+
+Lemma diff2_down : is_derive (D2 state_diff_down) 0 (mvec 7 T x 2).
+Proof.
+  unfold D2, diff_after_correct2, state_diff_down.
+  pose proof corr2_alt as H. unfold A2 in H.
+  auto_derive; [eexists; exact H|]. derive_val H. ring.
+Qed.
+
+Lemma diff2_VN : is_derive (D2 state_diff_VN) 0 (mvec 7 T x 3).
+Proof.
+  unfold D2, diff_after_correct2, state_diff_VN.
+  rewrite <- (Ropp_involutive (mvec 7 T x 3)). apply is_derive_const_minus. exact corr2_VN.
+Qed.
+
+Lemma diff2_VE : is_derive (D2 state_diff_VE) 0 (mvec 7 T x 4).
+Proof.
+  unfold D2, diff_after_correct2, state_diff_VE.
+  rewrite <- (Ropp_involutive (mvec 7 T x 4)). apply is_derive_const_minus. exact corr2_VE.
+Qed.
+
+Lemma diff2_VD : is_derive (D2 state_diff_VD) 0 (mvec 7 T x 5).
+Proof.
+  unfold D2, diff_after_correct2, state_diff_VD.
+  rewrite <- (Ropp_involutive (mvec 7 T x 5)). apply is_derive_const_minus. exact corr2_VD.
+Qed.
+
+Lemma diff2_roll : is_derive (D2 state_diff_roll) 0 (mvec 7 T x 6).
+Proof.
+  unfold D2, diff_after_correct2, state_diff_roll.
+  destruct corr2_at0 as [_ [_ [_ [_ [_ [_ [Hr0 [Hp0 Hh0]]]]]]]]. unfold A2 in *.
+  apply (is_derive_wrap180 (fun e => roll - _ e)).
+  - rewrite <- (Ropp_involutive (mvec 7 T x 6)). apply is_derive_const_minus. exact corr2_roll.
+  - rewrite Hr0. ring.
+Qed.
+
+Lemma diff2_pitch : is_derive (D2 state_diff_pitch) 0 (mvec 7 T x 7).
+Proof.
+  unfold D2, diff_after_correct2, state_diff_pitch.
+  destruct corr2_at0 as [_ [_ [_ [_ [_ [_ [Hr0 [Hp0 Hh0]]]]]]]]. unfold A2 in *.
+  apply (is_derive_wrap180 (fun e => pitch - _ e)).
+  - rewrite <- (Ropp_involutive (mvec 7 T x 7)). apply is_derive_const_minus. exact corr2_pitch.
+  - rewrite Hp0. ring.
+Qed.
+
+Lemma diff2_heading : is_derive (D2 state_diff_heading) 0 (mvec 7 T x 8).
+Proof.
+  unfold D2, diff_after_correct2, state_diff_heading.
+  destruct corr2_at0 as [_ [_ [_ [_ [_ [_ [Hr0 [Hp0 Hh0]]]]]]]]. unfold A2 in *.
+  apply (is_derive_wrap180 (fun e => heading - _ e)).
+  - rewrite <- (Ropp_involutive (mvec 7 T x 8)). apply is_derive_const_minus. exact corr2_heading.
+  - rewrite Hh0. ring.
+Qed.
+End Correct2D.
+
+(** ** C05 (b): the combined statements *)
+
+Lemma correct_is_linearised_by_T_3d lat lon alt VN VE VD roll pitch heading x0 x1 x2 x3 x4 x5 x6 x7 x8 :
+  -90 < lat < 90 -> -1000000 <= alt -> -180 < roll < 180 -> -90 < pitch < 90 -> -180 < heading < 180 ->
+  let D := fun d => diff_after_correct3 d lat lon alt VN VE VD roll pitch heading x0 x1 x2 x3 x4 x5 x6 x7 x8 in
+  let Tx := mvec 9 (Tout3 lat lon alt VN VE VD roll pitch heading) (vec9 x0 x1 x2 x3 x4 x5 x6 x7 x8) in
+  is_derive (D state_diff_north) 0 (Tx 0%nat) /\ is_derive (D state_diff_east) 0 (Tx 1%nat) /\
+  is_derive (D state_diff_down) 0 (Tx 2%nat) /\ is_derive (D state_diff_VN) 0 (Tx 3%nat) /\
+  is_derive (D state_diff_VE) 0 (Tx 4%nat) /\ is_derive (D state_diff_VD) 0 (Tx 5%nat) /\
+  is_derive (D state_diff_roll) 0 (Tx 6%nat) /\ is_derive (D state_diff_pitch) 0 (Tx 7%nat) /\
+  is_derive (D state_diff_heading) 0 (Tx 8%nat).
+Proof.
+  intros Hlat Halt Hroll Hpitch Hheading. cbv zeta.
+  splits; [apply diff3_north | apply diff3_east | apply diff3_down | apply diff3_VN | apply diff3_VE
+          | apply diff3_VD | apply diff3_roll | apply diff3_pitch | apply diff3_heading]; assumption.
+Qed.
+
+Lemma correct_is_linearised_by_T_2d lat lon alt VN VE VD roll pitch heading x0 x1 x2 x3 x4 x5 x6 :
+  -90 < lat < 90 -> -1000000 <= alt -> -180 < roll < 180 -> -90 < pitch < 90 -> -180 < heading < 180 ->
+  let D := fun d => diff_after_correct2 d lat lon alt VN VE VD roll pitch heading x0 x1 x2 x3 x4 x5 x6 in
+  let Tx := mvec 7 (Tout2 lat lon alt VN VE VD roll pitch heading) (vec7 x0 x1 x2 x3 x4 x5 x6) in
+  is_derive (D state_diff_north) 0 (Tx 0%nat) /\ is_derive (D state_diff_east) 0 (Tx 1%nat) /\
+  is_derive (D state_diff_down) 0 (Tx 2%nat) /\ is_derive (D state_diff_VN) 0 (Tx 3%nat) /\
+  is_derive (D state_diff_VE) 0 (Tx 4%nat) /\ is_derive (D state_diff_VD) 0 (Tx 5%nat) /\
+  is_derive (D state_diff_roll) 0 (Tx 6%nat) /\ is_derive (D state_diff_pitch) 0 (Tx 7%nat) /\
+  is_derive (D state_diff_heading) 0 (Tx 8%nat).
+Proof.
+  intros Hlat Halt Hroll Hpitch Hheading. cbv zeta.
+  splits; [apply diff2_north | apply diff2_east | apply diff2_down | apply diff2_VN | apply diff2_VE
+          | apply diff2_VD | apply diff2_roll | apply diff2_pitch | apply diff2_heading]; assumption.
+Qed.
+
+(** correct_pva with a zero vector returns the state itself (principal-range attitude) *)
+Lemma correct_zero_is_identity lat lon alt VN VE VD roll pitch heading :
+  -180 < roll < 180 -> -90 < pitch < 90 -> -180 < heading < 180 ->
+  (correct3d_lat lat lon alt VN VE VD roll pitch heading 0 0 0 0 0 0 0 0 0 = lat /\
+   correct3d_lon lat lon alt VN VE VD roll pitch heading 0 0 0 0 0 0 0 0 0 = lon /\
+   correct3d_alt lat lon alt VN VE VD roll pitch heading 0 0 0 0 0 0 0 0 0 = alt /\
+   correct3d_VN lat lon alt VN VE VD roll pitch heading 0 0 0 0 0 0 0 0 0 = VN /\
+   correct3d_VE lat lon alt VN VE VD roll pitch heading 0 0 0 0 0 0 0 0 0 = VE /\
+   correct3d_VD lat lon alt VN VE VD roll pitch heading 0 0 0 0 0 0 0 0 0 = VD /\
+   correct3d_roll lat lon alt VN VE VD roll pitch heading 0 0 0 0 0 0 0 0 0 = roll /\
+   correct3d_pitch lat lon alt VN VE VD roll pitch heading 0 0 0 0 0 0 0 0 0 = pitch /\
+   correct3d_heading lat lon alt VN VE VD roll pitch heading 0 0 0 0 0 0 0 0 0 = heading) /\
+  (correct2d_lat lat lon alt VN VE VD roll pitch heading 0 0 0 0 0 0 0 = lat /\
+   correct2d_lon lat lon alt VN VE VD roll pitch heading 0 0 0 0 0 0 0 = lon /\
+   correct2d_alt lat lon alt VN VE VD roll pitch heading 0 0 0 0 0 0 0 = alt /\
+   correct2d_VN lat lon alt VN VE VD roll pitch heading 0 0 0 0 0 0 0 = VN /\
+   correct2d_VE lat lon alt VN VE VD roll pitch heading 0 0 0 0 0 0 0 = VE /\
+   correct2d_VD lat lon alt VN VE VD roll pitch heading 0 0 0 0 0 0 0 = VD /\
+   correct2d_roll lat lon alt VN VE VD roll pitch heading 0 0 0 0 0 0 0 = roll /\
+   correct2d_pitch lat lon alt VN VE VD roll pitch heading 0 0 0 0 0 0 0 = pitch /\
+   correct2d_heading lat lon alt VN VE VD roll pitch heading 0 0 0 0 0 0 0 = heading).
+Proof.
+  intros Hroll Hpitch Hheading.
+  pose proof (corr3_at0 lat lon alt VN VE VD roll pitch heading 0 0 0 0 0 0 0 0 0 Hroll Hpitch Hheading) as H3.
+  pose proof (corr2_at0 lat lon alt VN VE VD roll pitch heading 0 0 0 0 0 0 0 Hroll Hpitch Hheading) as H2.
+  unfold along3 in H3. unfold along2 in H2. rewrite !Rmult_0_l in H3, H2. split; assumption.
+Qed.
+
+(** * Part D: measurement models (C06) *)
+
+(** Assembly of the GENERATED z / H / R entries of the three Measurement classes (index bookkeeping only). *)
+(** a function of a pva evaluated at correct_pva(pva, e * x) *)
+Definition on_corrected3d (z : R -> R -> R -> R -> R -> R -> R -> R -> R -> R)
+  (lat lon alt VN VE VD roll pitch heading x0 x1 x2 x3 x4 x5 x6 x7 x8 e : R) : R :=
+  z (along3 correct3d_lat lat lon alt VN VE VD roll pitch heading x0 x1 x2 x3 x4 x5 x6 x7 x8 e)
+    (along3 correct3d_lon lat lon alt VN VE VD roll pitch heading x0 x1 x2 x3 x4 x5 x6 x7 x8 e)
+    (along3 correct3d_alt lat lon alt VN VE VD roll pitch heading x0 x1 x2 x3 x4 x5 x6 x7 x8 e)
+    (along3 correct3d_VN lat lon alt VN VE VD roll pitch heading x0 x1 x2 x3 x4 x5 x6 x7 x8 e)
+    (along3 correct3d_VE lat lon alt VN VE VD roll pitch heading x0 x1 x2 x3 x4 x5 x6 x7 x8 e)
+    (along3 correct3d_VD lat lon alt VN VE VD roll pitch heading x0 x1 x2 x3 x4 x5 x6 x7 x8 e)
+    (along3 correct3d_roll lat lon alt VN VE VD roll pitch heading x0 x1 x2 x3 x4 x5 x6 x7 x8 e)
+    (along3 correct3d_pitch lat lon alt VN VE VD roll pitch heading x0 x1 x2 x3 x4 x5 x6 x7 x8 e)
+    (along3 correct3d_heading lat lon alt VN VE VD roll pitch heading x0 x1 x2 x3 x4 x5 x6 x7 x8 e).
+Definition on_corrected2d (z : R -> R -> R -> R -> R -> R -> R -> R -> R -> R)
+  (lat lon alt VN VE VD roll pitch heading x0 x1 x2 x3 x4 x5 x6 e : R) : R :=
+  z (along2 correct2d_lat lat lon alt VN VE VD roll pitch heading x0 x1 x2 x3 x4 x5 x6 e)
+    (along2 correct2d_lon lat lon alt VN VE VD roll pitch heading x0 x1 x2 x3 x4 x5 x6 e)
+    (along2 correct2d_alt lat lon alt VN VE VD roll pitch heading x0 x1 x2 x3 x4 x5 x6 e)
+    (along2 correct2d_VN lat lon alt VN VE VD roll pitch heading x0 x1 x2 x3 x4 x5 x6 e)
+    (along2 correct2d_VE lat lon alt VN VE VD roll pitch heading x0 x1 x2 x3 x4 x5 x6 e)
+    (along2 correct2d_VD lat lon alt VN VE VD roll pitch heading x0 x1 x2 x3 x4 x5 x6 e)
+    (along2 correct2d_roll lat lon alt VN VE VD roll pitch heading x0 x1 x2 x3 x4 x5 x6 e)
+    (along2 correct2d_pitch lat lon alt VN VE VD roll pitch heading x0 x1 x2 x3 x4 x5 x6 e)
+    (along2 correct2d_heading lat lon alt VN VE VD roll pitch heading x0 x1 x2 x3 x4 x5 x6 e).
+
+
+Definition Hm_pos3d (lat lon alt VN VE VD roll pitch heading mlat mlon malt sd : R) (i j : nat) : R :=
+  match i, j with
+  | 0, 0 => pos3d_H00 lat lon alt VN VE VD roll pitch heading mlat mlon malt sd | 0, 1 => pos3d_H01 lat lon alt VN VE VD roll pitch heading mlat mlon malt sd | 0, 2 => pos3d_H02 lat lon alt VN VE VD roll pitch heading mlat mlon malt sd | 0, 3 => pos3d_H03 lat lon alt VN VE VD roll pitch heading mlat mlon malt sd | 0, 4 => pos3d_H04 lat lon alt VN VE VD roll pitch heading mlat mlon malt sd | 0, 5 => pos3d_H05 lat lon alt VN VE VD roll pitch heading mlat mlon malt sd | 0, 6 => pos3d_H06 lat lon alt VN VE VD roll pitch heading mlat mlon malt sd | 0, 7 => pos3d_H07 lat lon alt VN VE VD roll pitch heading mlat mlon malt sd | 0, 8 => pos3d_H08 lat lon alt VN VE VD roll pitch heading mlat mlon malt sd
+  | 1, 0 => pos3d_H10 lat lon alt VN VE VD roll pitch heading mlat mlon malt sd | 1, 1 => pos3d_H11 lat lon alt VN VE VD roll pitch heading mlat mlon malt sd | 1, 2 => pos3d_H12 lat lon alt VN VE VD roll pitch heading mlat mlon malt sd | 1, 3 => pos3d_H13 lat lon alt VN VE VD roll pitch heading mlat mlon malt sd | 1, 4 => pos3d_H14 lat lon alt VN VE VD roll pitch heading mlat mlon malt sd | 1, 5 => pos3d_H15 lat lon alt VN VE VD roll pitch heading mlat mlon malt sd | 1, 6 => pos3d_H16 lat lon alt VN VE VD roll pitch heading mlat mlon malt sd | 1, 7 => pos3d_H17 lat lon alt VN VE VD roll pitch heading mlat mlon malt sd | 1, 8 => pos3d_H18 lat lon alt VN VE VD roll pitch heading mlat mlon malt sd
+  | 2, 0 => pos3d_H20 lat lon alt VN VE VD roll pitch heading mlat mlon malt sd | 2, 1 => pos3d_H21 lat lon alt VN VE VD roll pitch heading mlat mlon malt sd | 2, 2 => pos3d_H22 lat lon alt VN VE VD roll pitch heading mlat mlon malt sd | 2, 3 => pos3d_H23 lat lon alt VN VE VD roll pitch heading mlat mlon malt sd | 2, 4 => pos3d_H24 lat lon alt VN VE VD roll pitch heading mlat mlon malt sd | 2, 5 => pos3d_H25 lat lon alt VN VE VD roll pitch heading mlat mlon malt sd | 2, 6 => pos3d_H26 lat lon alt VN VE VD roll pitch heading mlat mlon malt sd | 2, 7 => pos3d_H27 lat lon alt VN VE VD roll pitch heading mlat mlon malt sd | 2, 8 => pos3d_H28 lat lon alt VN VE VD roll pitch heading mlat mlon malt sd
+  | _, _ => 0%R
+  end%nat.
+
+Definition Rm_pos3d (lat lon alt VN VE VD roll pitch heading mlat mlon malt sd : R) (i j : nat) : R :=
+  match i, j with
+  | 0, 0 => pos3d_R00 lat lon alt VN VE VD roll pitch heading mlat mlon malt sd | 0, 1 => pos3d_R01 lat lon alt VN VE VD roll pitch heading mlat mlon malt sd | 0, 2 => pos3d_R02 lat lon alt VN VE VD roll pitch heading mlat mlon malt sd
+  | 1, 0 => pos3d_R10 lat lon alt VN VE VD roll pitch heading mlat mlon malt sd | 1, 1 => pos3d_R11 lat lon alt VN VE VD roll pitch heading mlat mlon malt sd | 1, 2 => pos3d_R12 lat lon alt VN VE VD roll pitch heading mlat mlon malt sd
+  | 2, 0 => pos3d_R20 lat lon alt VN VE VD roll pitch heading mlat mlon malt sd | 2, 1 => pos3d_R21 lat lon alt VN VE VD roll pitch heading mlat mlon malt sd | 2, 2 => pos3d_R22 lat lon alt VN VE VD roll pitch heading mlat mlon malt sd
+  | _, _ => 0%R
+  end%nat.
+
+Definition Zc_pos3d (lat lon alt VN VE VD roll pitch heading mlat mlon malt sd x0 x1 x2 x3 x4 x5 x6 x7 x8 : R) (k : nat) (e : R) : R :=
+  match k with
+  | 0 => on_corrected3d (fun a1 a2 a3 a4 a5 a6 a7 a8 a9 => pos3d_z0 a1 a2 a3 a4 a5 a6 a7 a8 a9 mlat mlon malt sd) lat lon alt VN VE VD roll pitch heading x0 x1 x2 x3 x4 x5 x6 x7 x8 e
+  | 1 => on_corrected3d (fun a1 a2 a3 a4 a5 a6 a7 a8 a9 => pos3d_z1 a1 a2 a3 a4 a5 a6 a7 a8 a9 mlat mlon malt sd) lat lon alt VN VE VD roll pitch heading x0 x1 x2 x3 x4 x5 x6 x7 x8 e
+  | 2 => on_corrected3d (fun a1 a2 a3 a4 a5 a6 a7 a8 a9 => pos3d_z2 a1 a2 a3 a4 a5 a6 a7 a8 a9 mlat mlon malt sd) lat lon alt VN VE VD roll pitch heading x0 x1 x2 x3 x4 x5 x6 x7 x8 e
+  | _ => 0%R
+  end%nat.
+
+Definition Hm_pos3d_l (lat lon alt VN VE VD roll pitch heading mlat mlon malt l0 l1 l2 sd : R) (i j : nat) : R :=
+  match i, j with
+  | 0, 0 => pos3d_l_H00 lat lon alt VN VE VD roll pitch heading mlat mlon malt l0 l1 l2 sd | 0, 1 => pos3d_l_H01 lat lon alt VN VE VD roll pitch heading mlat mlon malt l0 l1 l2 sd | 0, 2 => pos3d_l_H02 lat lon alt VN VE VD roll pitch heading mlat mlon malt l0 l1 l2 sd | 0, 3 => pos3d_l_H03 lat lon alt VN VE VD roll pitch heading mlat mlon malt l0 l1 l2 sd | 0, 4 => pos3d_l_H04 lat lon alt VN VE VD roll pitch heading mlat mlon malt l0 l1 l2 sd | 0, 5 => pos3d_l_H05 lat lon alt VN VE VD roll pitch heading mlat mlon malt l0 l1 l2 sd | 0, 6 => pos3d_l_H06 lat lon alt VN VE VD roll pitch heading mlat mlon malt l0 l1 l2 sd | 0, 7 => pos3d_l_H07 lat lon alt VN VE VD roll pitch heading mlat mlon malt l0 l1 l2 sd | 0, 8 => pos3d_l_H08 lat lon alt VN VE VD roll pitch heading mlat mlon malt l0 l1 l2 sd
+  | 1, 0 => pos3d_l_H10 lat lon alt VN VE VD roll pitch heading mlat mlon malt l0 l1 l2 sd | 1, 1 => pos3d_l_H11 lat lon alt VN VE VD roll pitch heading mlat mlon malt l0 l1 l2 sd | 1, 2 => pos3d_l_H12 lat lon alt VN VE VD roll pitch heading mlat mlon malt l0 l1 l2 sd | 1, 3 => pos3d_l_H13 lat lon alt VN VE VD roll pitch heading mlat mlon malt l0 l1 l2 sd | 1, 4 => pos3d_l_H14 lat lon alt VN VE VD roll pitch heading mlat mlon malt l0 l1 l2 sd | 1, 5 => pos3d_l_H15 lat lon alt VN VE VD roll pitch heading mlat mlon malt l0 l1 l2 sd | 1, 6 => pos3d_l_H16 lat lon alt VN VE VD roll pitch heading mlat mlon malt l0 l1 l2 sd | 1, 7 => pos3d_l_H17 lat lon alt VN VE VD roll pitch heading mlat mlon malt l0 l1 l2 sd | 1, 8 => pos3d_l_H18 lat lon alt VN VE VD roll pitch heading mlat mlon malt l0 l1 l2 sd
+  | 2, 0 => pos3d_l_H20 lat lon alt VN VE VD roll pitch heading mlat mlon malt l0 l1 l2 sd | 2, 1 => pos3d_l_H21 lat lon alt VN VE VD roll pitch heading mlat mlon malt l0 l1 l2 sd | 2, 2 => pos3d_l_H22 lat lon alt VN VE VD roll pitch heading mlat mlon malt l0 l1 l2 sd | 2, 3 => pos3d_l_H23 lat lon alt VN VE VD roll pitch heading mlat mlon malt l0 l1 l2 sd | 2, 4 => pos3d_l_H24 lat lon alt VN VE VD roll pitch heading mlat mlon malt l0 l1 l2 sd | 2, 5 => pos3d_l_H25 lat lon alt VN VE VD roll pitch heading mlat mlon malt l0 l1 l2 sd | 2, 6 => pos3d_l_H26 lat lon alt VN VE VD roll pitch heading mlat mlon malt l0 l1 l2 sd | 2, 7 => pos3d_l_H27 lat lon alt VN VE VD roll pitch heading mlat mlon malt l0 l1 l2 sd | 2, 8 => pos3d_l_H28 lat lon alt VN VE VD roll pitch heading mlat mlon malt l0 l1 l2 sd
+  | _, _ => 0%R
+  end%nat.
+
+Definition Rm_pos3d_l (lat lon alt VN VE VD roll pitch heading mlat mlon malt l0 l1 l2 sd : R) (i j : nat) : R :=
+  match i, j with
+  | 0, 0 => pos3d_l_R00 lat lon alt VN VE VD roll pitch heading mlat mlon malt l0 l1 l2 sd | 0, 1 => pos3d_l_R01 lat lon alt VN VE VD roll pitch heading mlat mlon malt l0 l1 l2 sd | 0, 2 => pos3d_l_R02 lat lon alt VN VE VD roll pitch heading mlat mlon malt l0 l1 l2 sd
+  | 1, 0 => pos3d_l_R10 lat lon alt VN VE VD roll pitch heading mlat mlon malt l0 l1 l2 sd | 1, 1 => pos3d_l_R11 lat lon alt VN VE VD roll pitch heading mlat mlon malt l0 l1 l2 sd | 1, 2 => pos3d_l_R12 lat lon alt VN VE VD roll pitch heading mlat mlon malt l0 l1 l2 sd
+  | 2, 0 => pos3d_l_R20 lat lon alt VN VE VD roll pitch heading mlat mlon malt l0 l1 l2 sd | 2, 1 => pos3d_l_R21 lat lon alt VN VE VD roll pitch heading mlat mlon malt l0 l1 l2 sd | 2, 2 => pos3d_l_R22 lat lon alt VN VE VD roll pitch heading mlat mlon malt l0 l1 l2 sd
+  | _, _ => 0%R
+  end%nat.
+
+Definition Zc_pos3d_l (lat lon alt VN VE VD roll pitch heading mlat mlon malt l0 l1 l2 sd x0 x1 x2 x3 x4 x5 x6 x7 x8 : R) (k : nat) (e : R) : R :=
+  match k with
+  | 0 => on_corrected3d (fun a1 a2 a3 a4 a5 a6 a7 a8 a9 => pos3d_l_z0 a1 a2 a3 a4 a5 a6 a7 a8 a9 mlat mlon malt l0 l1 l2 sd) lat lon alt VN VE VD roll pitch heading x0 x1 x2 x3 x4 x5 x6 x7 x8 e
+  | 1 => on_corrected3d (fun a1 a2 a3 a4 a5 a6 a7 a8 a9 => pos3d_l_z1 a1 a2 a3 a4 a5 a6 a7 a8 a9 mlat mlon malt l0 l1 l2 sd) lat lon alt VN VE VD roll pitch heading x0 x1 x2 x3 x4 x5 x6 x7 x8 e
+  | 2 => on_corrected3d (fun a1 a2 a3 a4 a5 a6 a7 a8 a9 => pos3d_l_z2 a1 a2 a3 a4 a5 a6 a7 a8 a9 mlat mlon malt l0 l1 l2 sd) lat lon alt VN VE VD roll pitch heading x0 x1 x2 x3 x4 x5 x6 x7 x8 e
+  | _ => 0%R
+  end%nat.
+
+Definition Hm_ned3d (lat lon alt VN VE VD roll pitch heading mVN mVE mVD sd : R) (i j : nat) : R :=
+  match i, j with
+  | 0, 0 => ned3d_H00 lat lon alt VN VE VD roll pitch heading mVN mVE mVD sd | 0, 1 => ned3d_H01 lat lon alt VN VE VD roll pitch heading mVN mVE mVD sd | 0, 2 => ned3d_H02 lat lon alt VN VE VD roll pitch heading mVN mVE mVD sd | 0, 3 => ned3d_H03 lat lon alt VN VE VD roll pitch heading mVN mVE mVD sd | 0, 4 => ned3d_H04 lat lon alt VN VE VD roll pitch heading mVN mVE mVD sd | 0, 5 => ned3d_H05 lat lon alt VN VE VD roll pitch heading mVN mVE mVD sd | 0, 6 => ned3d_H06 lat lon alt VN VE VD roll pitch heading mVN mVE mVD sd | 0, 7 => ned3d_H07 lat lon alt VN VE VD roll pitch heading mVN mVE mVD sd | 0, 8 => ned3d_H08 lat lon alt VN VE VD roll pitch heading mVN mVE mVD sd
+  | 1, 0 => ned3d_H10 lat lon alt VN VE VD roll pitch heading mVN mVE mVD sd | 1, 1 => ned3d_H11 lat lon alt VN VE VD roll pitch heading mVN mVE mVD sd | 1, 2 => ned3d_H12 lat lon alt VN VE VD roll pitch heading mVN mVE mVD sd | 1, 3 => ned3d_H13 lat lon alt VN VE VD roll pitch heading mVN mVE mVD sd | 1, 4 => ned3d_H14 lat lon alt VN VE VD roll pitch heading mVN mVE mVD sd | 1, 5 => ned3d_H15 lat lon alt VN VE VD roll pitch heading mVN mVE mVD sd | 1, 6 => ned3d_H16 lat lon alt VN VE VD roll pitch heading mVN mVE mVD sd | 1, 7 => ned3d_H17 lat lon alt VN VE VD roll pitch heading mVN mVE mVD sd | 1, 8 => ned3d_H18 lat lon alt VN VE VD roll pitch heading mVN mVE mVD sd
+  | 2, 0 => ned3d_H20 lat lon alt VN VE VD roll pitch heading mVN mVE mVD sd | 2, 1 => ned3d_H21 lat lon alt VN VE VD roll pitch heading mVN mVE mVD sd | 2, 2 => ned3d_H22 lat lon alt VN VE VD roll pitch heading mVN mVE mVD sd | 2, 3 => ned3d_H23 lat lon alt VN VE VD roll pitch heading mVN mVE mVD sd | 2, 4 => ned3d_H24 lat lon alt VN VE VD roll pitch heading mVN mVE mVD sd | 2, 5 => ned3d_H25 lat lon alt VN VE VD roll pitch heading mVN mVE mVD sd | 2, 6 => ned3d_H26 lat lon alt VN VE VD roll pitch heading mVN mVE mVD sd | 2, 7 => ned3d_H27 lat lon alt VN VE VD roll pitch heading mVN mVE mVD sd | 2, 8 => ned3d_H28 lat lon alt VN VE VD roll pitch heading mVN mVE mVD sd
+  | _, _ => 0%R
+  end%nat.
+
+Definition Rm_ned3d (lat lon alt VN VE VD roll pitch heading mVN mVE mVD sd : R) (i j : nat) : R :=
+  match i, j with
+  | 0, 0 => ned3d_R00 lat lon alt VN VE VD roll pitch heading mVN mVE mVD sd | 0, 1 => ned3d_R01 lat lon alt VN VE VD roll pitch heading mVN mVE mVD sd | 0, 2 => ned3d_R02 lat lon alt VN VE VD roll pitch heading mVN mVE mVD sd
+  | 1, 0 => ned3d_R10 lat lon alt VN VE VD roll pitch heading mVN mVE mVD sd | 1, 1 => ned3d_R11 lat lon alt VN VE VD roll pitch heading mVN mVE mVD sd | 1, 2 => ned3d_R12 lat lon alt VN VE VD roll pitch heading mVN mVE mVD sd
+  | 2, 0 => ned3d_R20 lat lon alt VN VE VD roll pitch heading mVN mVE mVD sd | 2, 1 => ned3d_R21 lat lon alt VN VE VD roll pitch heading mVN mVE mVD sd | 2, 2 => ned3d_R22 lat lon alt VN VE VD roll pitch heading mVN mVE mVD sd
+  | _, _ => 0%R
+  end%nat.
+
+Definition Zc_ned3d (lat lon alt VN VE VD roll pitch heading mVN mVE mVD sd x0 x1 x2 x3 x4 x5 x6 x7 x8 : R) (k : nat) (e : R) : R :=
+  match k with
+  | 0 => on_corrected3d (fun a1 a2 a3 a4 a5 a6 a7 a8 a9 => ned3d_z0 a1 a2 a3 a4 a5 a6 a7 a8 a9 mVN mVE mVD sd) lat lon alt VN VE VD roll pitch heading x0 x1 x2 x3 x4 x5 x6 x7 x8 e
+  | 1 => on_corrected3d (fun a1 a2 a3 a4 a5 a6 a7 a8 a9 => ned3d_z1 a1 a2 a3 a4 a5 a6 a7 a8 a9 mVN mVE mVD sd) lat lon alt VN VE VD roll pitch heading x0 x1 x2 x3 x4 x5 x6 x7 x8 e
+  | 2 => on_corrected3d (fun a1 a2 a3 a4 a5 a6 a7 a8 a9 => ned3d_z2 a1 a2 a3 a4 a5 a6 a7 a8 a9 mVN mVE mVD sd) lat lon alt VN VE VD roll pitch heading x0 x1 x2 x3 x4 x5 x6 x7 x8 e
+  | _ => 0%R
+  end%nat.
+
+Definition Hm_ned3d_rate (lat lon alt VN VE VD roll pitch heading rate_x rate_y rate_z mVN mVE mVD sd : R) (i j : nat) : R :=
+  match i, j with
+  | 0, 0 => ned3d_rate_H00 lat lon alt VN VE VD roll pitch heading rate_x rate_y rate_z mVN mVE mVD sd | 0, 1 => ned3d_rate_H01 lat lon alt VN VE VD roll pitch heading rate_x rate_y rate_z mVN mVE mVD sd | 0, 2 => ned3d_rate_H02 lat lon alt VN VE VD roll pitch heading rate_x rate_y rate_z mVN mVE mVD sd | 0, 3 => ned3d_rate_H03 lat lon alt VN VE VD roll pitch heading rate_x rate_y rate_z mVN mVE mVD sd | 0, 4 => ned3d_rate_H04 lat lon alt VN VE VD roll pitch heading rate_x rate_y rate_z mVN mVE mVD sd | 0, 5 => ned3d_rate_H05 lat lon alt VN VE VD roll pitch heading rate_x rate_y rate_z mVN mVE mVD sd | 0, 6 => ned3d_rate_H06 lat lon alt VN VE VD roll pitch heading rate_x rate_y rate_z mVN mVE mVD sd | 0, 7 => ned3d_rate_H07 lat lon alt VN VE VD roll pitch heading rate_x rate_y rate_z mVN mVE mVD sd | 0, 8 => ned3d_rate_H08 lat lon alt VN VE VD roll pitch heading rate_x rate_y rate_z mVN mVE mVD sd
+  | 1, 0 => ned3d_rate_H10 lat lon alt VN VE VD roll pitch heading rate_x rate_y rate_z mVN mVE mVD sd | 1, 1 => ned3d_rate_H11 lat lon alt VN VE VD roll pitch heading rate_x rate_y rate_z mVN mVE mVD sd | 1, 2 => ned3d_rate_H12 lat lon alt VN VE VD roll pitch heading rate_x rate_y rate_z mVN mVE mVD sd | 1, 3 => ned3d_rate_H13 lat lon alt VN VE VD roll pitch heading rate_x rate_y rate_z mVN mVE mVD sd | 1, 4 => ned3d_rate_H14 lat lon alt VN VE VD roll pitch heading rate_x rate_y rate_z mVN mVE mVD sd | 1, 5 => ned3d_rate_H15 lat lon alt VN VE VD roll pitch heading rate_x rate_y rate_z mVN mVE mVD sd | 1, 6 => ned3d_rate_H16 lat lon alt VN VE VD roll pitch heading rate_x rate_y rate_z mVN mVE mVD sd | 1, 7 => ned3d_rate_H17 lat lon alt VN VE VD roll pitch heading rate_x rate_y rate_z mVN mVE mVD sd | 1, 8 => ned3d_rate_H18 lat lon alt VN VE VD roll pitch heading rate_x rate_y rate_z mVN mVE mVD sd
+  | 2, 0 => ned3d_rate_H20 lat lon alt VN VE VD roll pitch heading rate_x rate_y rate_z mVN mVE mVD sd | 2, 1 => ned3d_rate_H21 lat lon alt VN VE VD roll pitch heading rate_x rate_y rate_z mVN mVE mVD sd | 2, 2 => ned3d_rate_H22 lat lon alt VN VE VD roll pitch heading rate_x rate_y rate_z mVN mVE mVD sd | 2, 3 => ned3d_rate_H23 lat lon alt VN VE VD roll pitch heading rate_x rate_y rate_z mVN mVE mVD sd | 2, 4 => ned3d_rate_H24 lat lon alt VN VE VD roll pitch heading rate_x rate_y rate_z mVN mVE mVD sd | 2, 5 => ned3d_rate_H25 lat lon alt VN VE VD roll pitch heading rate_x rate_y rate_z mVN mVE mVD sd | 2, 6 => ned3d_rate_H26 lat lon alt VN VE VD roll pitch heading rate_x rate_y rate_z mVN mVE mVD sd | 2, 7 => ned3d_rate_H27 lat lon alt VN VE VD roll pitch heading rate_x rate_y rate_z mVN mVE mVD sd | 2, 8 => ned3d_rate_H28 lat lon alt VN VE VD roll pitch heading rate_x rate_y rate_z mVN mVE mVD sd
+  | _, _ => 0%R
+  end%nat.
+
+Definition Rm_ned3d_rate (lat lon alt VN VE VD roll pitch heading rate_x rate_y rate_z mVN mVE mVD sd : R) (i j : nat) : R :=
+  match i, j with
+  | 0, 0 => ned3d_rate_R00 lat lon alt VN VE VD roll pitch heading rate_x rate_y rate_z mVN mVE mVD sd | 0, 1 => ned3d_rate_R01 lat lon alt VN VE VD roll pitch heading rate_x rate_y rate_z mVN mVE mVD sd | 0, 2 => ned3d_rate_R02 lat lon alt VN VE VD roll pitch heading rate_x rate_y rate_z mVN mVE mVD sd
+  | 1, 0 => ned3d_rate_R10 lat lon alt VN VE VD roll pitch heading rate_x rate_y rate_z mVN mVE mVD sd | 1, 1 => ned3d_rate_R11 lat lon alt VN VE VD roll pitch heading rate_x rate_y rate_z mVN mVE mVD sd | 1, 2 => ned3d_rate_R12 lat lon alt VN VE VD roll pitch heading rate_x rate_y rate_z mVN mVE mVD sd
+  | 2, 0 => ned3d_rate_R20 lat lon alt VN VE VD roll pitch heading rate_x rate_y rate_z mVN mVE mVD sd | 2, 1 => ned3d_rate_R21 lat lon alt VN VE VD roll pitch heading rate_x rate_y rate_z mVN mVE mVD sd | 2, 2 => ned3d_rate_R22 lat lon alt VN VE VD roll pitch heading rate_x rate_y rate_z mVN mVE mVD sd
+  | _, _ => 0%R
+  end%nat.
+
+Definition Zc_ned3d_rate (lat lon alt VN VE VD roll pitch heading rate_x rate_y rate_z mVN mVE mVD sd x0 x1 x2 x3 x4 x5 x6 x7 x8 : R) (k : nat) (e : R) : R :=
+  match k with
+  | 0 => on_corrected3d (fun a1 a2 a3 a4 a5 a6 a7 a8 a9 => ned3d_rate_z0 a1 a2 a3 a4 a5 a6 a7 a8 a9 rate_x rate_y rate_z mVN mVE mVD sd) lat lon alt VN VE VD roll pitch heading x0 x1 x2 x3 x4 x5 x6 x7 x8 e
+  | 1 => on_corrected3d (fun a1 a2 a3 a4 a5 a6 a7 a8 a9 => ned3d_rate_z1 a1 a2 a3 a4 a5 a6 a7 a8 a9 rate_x rate_y rate_z mVN mVE mVD sd) lat lon alt VN VE VD roll pitch heading x0 x1 x2 x3 x4 x5 x6 x7 x8 e
+  | 2 => on_corrected3d (fun a1 a2 a3 a4 a5 a6 a7 a8 a9 => ned3d_rate_z2 a1 a2 a3 a4 a5 a6 a7 a8 a9 rate_x rate_y rate_z mVN mVE mVD sd) lat lon alt VN VE VD roll pitch heading x0 x1 x2 x3 x4 x5 x6 x7 x8 e
+  | _ => 0%R
+  end%nat.
+
+Definition Hm_ned3d_l (lat lon alt VN VE VD roll pitch heading rate_x rate_y rate_z mVN mVE mVD l0 l1 l2 sd : R) (i j : nat) : R :=
+  match i, j with
+  | 0, 0 => ned3d_l_H00 lat lon alt VN VE VD roll pitch heading rate_x rate_y rate_z mVN mVE mVD l0 l1 l2 sd | 0, 1 => ned3d_l_H01 lat lon alt VN VE VD roll pitch heading rate_x rate_y rate_z mVN mVE mVD l0 l1 l2 sd | 0, 2 => ned3d_l_H02 lat lon alt VN VE VD roll pitch heading rate_x rate_y rate_z mVN mVE mVD l0 l1 l2 sd | 0, 3 => ned3d_l_H03 lat lon alt VN VE VD roll pitch heading rate_x rate_y rate_z mVN mVE mVD l0 l1 l2 sd | 0, 4 => ned3d_l_H04 lat lon alt VN VE VD roll pitch heading rate_x rate_y rate_z mVN mVE mVD l0 l1 l2 sd | 0, 5 => ned3d_l_H05 lat lon alt VN VE VD roll pitch heading rate_x rate_y rate_z mVN mVE mVD l0 l1 l2 sd | 0, 6 => ned3d_l_H06 lat lon alt VN VE VD roll pitch heading rate_x rate_y rate_z mVN mVE mVD l0 l1 l2 sd | 0, 7 => ned3d_l_H07 lat lon alt VN VE VD roll pitch heading rate_x rate_y rate_z mVN mVE mVD l0 l1 l2 sd | 0, 8 => ned3d_l_H08 lat lon alt VN VE VD roll pitch heading rate_x rate_y rate_z mVN mVE mVD l0 l1 l2 sd
+  | 1, 0 => ned3d_l_H10 lat lon alt VN VE VD roll pitch heading rate_x rate_y rate_z mVN mVE mVD l0 l1 l2 sd | 1, 1 => ned3d_l_H11 lat lon alt VN VE VD roll pitch heading rate_x rate_y rate_z mVN mVE mVD l0 l1 l2 sd | 1, 2 => ned3d_l_H12 lat lon alt VN VE VD roll pitch heading rate_x rate_y rate_z mVN mVE mVD l0 l1 l2 sd | 1, 3 => ned3d_l_H13 lat lon alt VN VE VD roll pitch heading rate_x rate_y rate_z mVN mVE mVD l0 l1 l2 sd | 1, 4 => ned3d_l_H14 lat lon alt VN VE VD roll pitch heading rate_x rate_y rate_z mVN mVE mVD l0 l1 l2 sd | 1, 5 => ned3d_l_H15 lat lon alt VN VE VD roll pitch heading rate_x rate_y rate_z mVN mVE mVD l0 l1 l2 sd | 1, 6 => ned3d_l_H16 lat lon alt VN VE VD roll pitch heading rate_x rate_y rate_z mVN mVE mVD l0 l1 l2 sd | 1, 7 => ned3d_l_H17 lat lon alt VN VE VD roll pitch heading rate_x rate_y rate_z mVN mVE mVD l0 l1 l2 sd | 1, 8 => ned3d_l_H18 lat lon alt VN VE VD roll pitch heading rate_x rate_y rate_z mVN mVE mVD l0 l1 l2 sd
+  | 2, 0 => ned3d_l_H20 lat lon alt VN VE VD roll pitch heading rate_x rate_y rate_z mVN mVE mVD l0 l1 l2 sd | 2, 1 => ned3d_l_H21 lat lon alt VN VE VD roll pitch heading rate_x rate_y rate_z mVN mVE mVD l0 l1 l2 sd | 2, 2 => ned3d_l_H22 lat lon alt VN VE VD roll pitch heading rate_x rate_y rate_z mVN mVE mVD l0 l1 l2 sd | 2, 3 => ned3d_l_H23 lat lon alt VN VE VD roll pitch heading rate_x rate_y rate_z mVN mVE mVD l0 l1 l2 sd | 2, 4 => ned3d_l_H24 lat lon alt VN VE VD roll pitch heading rate_x rate_y rate_z mVN mVE mVD l0 l1 l2 sd | 2, 5 => ned3d_l_H25 lat lon alt VN VE VD roll pitch heading rate_x rate_y rate_z mVN mVE mVD l0 l1 l2 sd | 2, 6 => ned3d_l_H26 lat lon alt VN VE VD roll pitch heading rate_x rate_y rate_z mVN mVE mVD l0 l1 l2 sd | 2, 7 => ned3d_l_H27 lat lon alt VN VE VD roll pitch heading rate_x rate_y rate_z mVN mVE mVD l0 l1 l2 sd | 2, 8 => ned3d_l_H28 lat lon alt VN VE VD roll pitch heading rate_x rate_y rate_z mVN mVE mVD l0 l1 l2 sd
+  | _, _ => 0%R
+  end%nat.
+
+Definition Rm_ned3d_l (lat lon alt VN VE VD roll pitch heading rate_x rate_y rate_z mVN mVE mVD l0 l1 l2 sd : R) (i j : nat) : R :=
+  match i, j with
+  | 0, 0 => ned3d_l_R00 lat lon alt VN VE VD roll pitch heading rate_x rate_y rate_z mVN mVE mVD l0 l1 l2 sd | 0, 1 => ned3d_l_R01 lat lon alt VN VE VD roll pitch heading rate_x rate_y rate_z mVN mVE mVD l0 l1 l2 sd | 0, 2 => ned3d_l_R02 lat lon alt VN VE VD roll pitch heading rate_x rate_y rate_z mVN mVE mVD l0 l1 l2 sd
+  | 1, 0 => ned3d_l_R10 lat lon alt VN VE VD roll pitch heading rate_x rate_y rate_z mVN mVE mVD l0 l1 l2 sd | 1, 1 => ned3d_l_R11 lat lon alt VN VE VD roll pitch heading rate_x rate_y rate_z mVN mVE mVD l0 l1 l2 sd | 1, 2 => ned3d_l_R12 lat lon alt VN VE VD roll pitch heading rate_x rate_y rate_z mVN mVE mVD l0 l1 l2 sd
+  | 2, 0 => ned3d_l_R20 lat lon alt VN VE VD roll pitch heading rate_x rate_y rate_z mVN mVE mVD l0 l1 l2 sd | 2, 1 => ned3d_l_R21 lat lon alt VN VE VD roll pitch heading rate_x rate_y rate_z mVN mVE mVD l0 l1 l2 sd | 2, 2 => ned3d_l_R22 lat lon alt VN VE VD roll pitch heading rate_x rate_y rate_z mVN mVE mVD l0 l1 l2 sd
+  | _, _ => 0%R
+  end%nat.
+
+Definition Zc_ned3d_l (lat lon alt VN VE VD roll pitch heading rate_x rate_y rate_z mVN mVE mVD l0 l1 l2 sd x0 x1 x2 x3 x4 x5 x6 x7 x8 : R) (k : nat) (e : R) : R :=
+  match k with
+  | 0 => on_corrected3d (fun a1 a2 a3 a4 a5 a6 a7 a8 a9 => ned3d_l_z0 a1 a2 a3 a4 a5 a6 a7 a8 a9 rate_x rate_y rate_z mVN mVE mVD l0 l1 l2 sd) lat lon alt VN VE VD roll pitch heading x0 x1 x2 x3 x4 x5 x6 x7 x8 e
+  | 1 => on_corrected3d (fun a1 a2 a3 a4 a5 a6 a7 a8 a9 => ned3d_l_z1 a1 a2 a3 a4 a5 a6 a7 a8 a9 rate_x rate_y rate_z mVN mVE mVD l0 l1 l2 sd) lat lon alt VN VE VD roll pitch heading x0 x1 x2 x3 x4 x5 x6 x7 x8 e
+  | 2 => on_corrected3d (fun a1 a2 a3 a4 a5 a6 a7 a8 a9 => ned3d_l_z2 a1 a2 a3 a4 a5 a6 a7 a8 a9 rate_x rate_y rate_z mVN mVE mVD l0 l1 l2 sd) lat lon alt VN VE VD roll pitch heading x0 x1 x2 x3 x4 x5 x6 x7 x8 e
+  | _ => 0%R
+  end%nat.
+
+Definition Hm_ned3d_l_norate (lat lon alt VN VE VD roll pitch heading mVN mVE mVD l0 l1 l2 sd : R) (i j : nat) : R :=
+  match i, j with
+  | 0, 0 => ned3d_l_norate_H00 lat lon alt VN VE VD roll pitch heading mVN mVE mVD l0 l1 l2 sd | 0, 1 => ned3d_l_norate_H01 lat lon alt VN VE VD roll pitch heading mVN mVE mVD l0 l1 l2 sd | 0, 2 => ned3d_l_norate_H02 lat lon alt VN VE VD roll pitch heading mVN mVE mVD l0 l1 l2 sd | 0, 3 => ned3d_l_norate_H03 lat lon alt VN VE VD roll pitch heading mVN mVE mVD l0 l1 l2 sd | 0, 4 => ned3d_l_norate_H04 lat lon alt VN VE VD roll pitch heading mVN mVE mVD l0 l1 l2 sd | 0, 5 => ned3d_l_norate_H05 lat lon alt VN VE VD roll pitch heading mVN mVE mVD l0 l1 l2 sd | 0, 6 => ned3d_l_norate_H06 lat lon alt VN VE VD roll pitch heading mVN mVE mVD l0 l1 l2 sd | 0, 7 => ned3d_l_norate_H07 lat lon alt VN VE VD roll pitch heading mVN mVE mVD l0 l1 l2 sd | 0, 8 => ned3d_l_norate_H08 lat lon alt VN VE VD roll pitch heading mVN mVE mVD l0 l1 l2 sd
+  | 1, 0 => ned3d_l_norate_H10 lat lon alt VN VE VD roll pitch heading mVN mVE mVD l0 l1 l2 sd | 1, 1 => ned3d_l_norate_H11 lat lon alt VN VE VD roll pitch heading mVN mVE mVD l0 l1 l2 sd | 1, 2 => ned3d_l_norate_H12 lat lon alt VN VE VD roll pitch heading mVN mVE mVD l0 l1 l2 sd | 1, 3 => ned3d_l_norate_H13 lat lon alt VN VE VD roll pitch heading mVN mVE mVD l0 l1 l2 sd | 1, 4 => ned3d_l_norate_H14 lat lon alt VN VE VD roll pitch heading mVN mVE mVD l0 l1 l2 sd | 1, 5 => ned3d_l_norate_H15 lat lon alt VN VE VD roll pitch heading mVN mVE mVD l0 l1 l2 sd | 1, 6 => ned3d_l_norate_H16 lat lon alt VN VE VD roll pitch heading mVN mVE mVD l0 l1 l2 sd | 1, 7 => ned3d_l_norate_H17 lat lon alt VN VE VD roll pitch heading mVN mVE mVD l0 l1 l2 sd | 1, 8 => ned3d_l_norate_H18 lat lon alt VN VE VD roll pitch heading mVN mVE mVD l0 l1 l2 sd
+  | 2, 0 => ned3d_l_norate_H20 lat lon alt VN VE VD roll pitch heading mVN mVE mVD l0 l1 l2 sd | 2, 1 => ned3d_l_norate_H21 lat lon alt VN VE VD roll pitch heading mVN mVE mVD l0 l1 l2 sd | 2, 2 => ned3d_l_norate_H22 lat lon alt VN VE VD roll pitch heading mVN mVE mVD l0 l1 l2 sd | 2, 3 => ned3d_l_norate_H23 lat lon alt VN VE VD roll pitch heading mVN mVE mVD l0 l1 l2 sd | 2, 4 => ned3d_l_norate_H24 lat lon alt VN VE VD roll pitch heading mVN mVE mVD l0 l1 l2 sd | 2, 5 => ned3d_l_norate_H25 lat lon alt VN VE VD roll pitch heading mVN mVE mVD l0 l1 l2 sd | 2, 6 => ned3d_l_norate_H26 lat lon alt VN VE VD roll pitch heading mVN mVE mVD l0 l1 l2 sd | 2, 7 => ned3d_l_norate_H27 lat lon alt VN VE VD roll pitch heading mVN mVE mVD l0 l1 l2 sd | 2, 8 => ned3d_l_norate_H28 lat lon alt VN VE VD roll pitch heading mVN mVE mVD l0 l1 l2 sd
+  | _, _ => 0%R
+  end%nat.
+
+Definition Rm_ned3d_l_norate (lat lon alt VN VE VD roll pitch heading mVN mVE mVD l0 l1 l2 sd : R) (i j : nat) : R :=
+  match i, j with
+  | 0, 0 => ned3d_l_norate_R00 lat lon alt VN VE VD roll pitch heading mVN mVE mVD l0 l1 l2 sd | 0, 1 => ned3d_l_norate_R01 lat lon alt VN VE VD roll pitch heading mVN mVE mVD l0 l1 l2 sd | 0, 2 => ned3d_l_norate_R02 lat lon alt VN VE VD roll pitch heading mVN mVE mVD l0 l1 l2 sd
+  | 1, 0 => ned3d_l_norate_R10 lat lon alt VN VE VD roll pitch heading mVN mVE mVD l0 l1 l2 sd | 1, 1 => ned3d_l_norate_R11 lat lon alt VN VE VD roll pitch heading mVN mVE mVD l0 l1 l2 sd | 1, 2 => ned3d_l_norate_R12 lat lon alt VN VE VD roll pitch heading mVN mVE mVD l0 l1 l2 sd
+  | 2, 0 => ned3d_l_norate_R20 lat lon alt VN VE VD roll pitch heading mVN mVE mVD l0 l1 l2 sd | 2, 1 => ned3d_l_norate_R21 lat lon alt VN VE VD roll pitch heading mVN mVE mVD l0 l1 l2 sd | 2, 2 => ned3d_l_norate_R22 lat lon alt VN VE VD roll pitch heading mVN mVE mVD l0 l1 l2 sd
+  | _, _ => 0%R
+  end%nat.
+
+Definition Zc_ned3d_l_norate (lat lon alt VN VE VD roll pitch heading mVN mVE mVD l0 l1 l2 sd x0 x1 x2 x3 x4 x5 x6 x7 x8 : R) (k : nat) (e : R) : R :=
+  match k with
+  | 0 => on_corrected3d (fun a1 a2 a3 a4 a5 a6 a7 a8 a9 => ned3d_l_norate_z0 a1 a2 a3 a4 a5 a6 a7 a8 a9 mVN mVE mVD l0 l1 l2 sd) lat lon alt VN VE VD roll pitch heading x0 x1 x2 x3 x4 x5 x6 x7 x8 e
+  | 1 => on_corrected3d (fun a1 a2 a3 a4 a5 a6 a7 a8 a9 => ned3d_l_norate_z1 a1 a2 a3 a4 a5 a6 a7 a8 a9 mVN mVE mVD l0 l1 l2 sd) lat lon alt VN VE VD roll pitch heading x0 x1 x2 x3 x4 x5 x6 x7 x8 e
+  | 2 => on_corrected3d (fun a1 a2 a3 a4 a5 a6 a7 a8 a9 => ned3d_l_norate_z2 a1 a2 a3 a4 a5 a6 a7 a8 a9 mVN mVE mVD l0 l1 l2 sd) lat lon alt VN VE VD roll pitch heading x0 x1 x2 x3 x4 x5 x6 x7 x8 e
+  | _ => 0%R
+  end%nat.
+
+Definition Hm_body3d (lat lon alt VN VE VD roll pitch heading mVX mVY mVZ sd : R) (i j : nat) : R :=
+  match i, j with
+  | 0, 0 => body3d_H00 lat lon alt VN VE VD roll pitch heading mVX mVY mVZ sd | 0, 1 => body3d_H01 lat lon alt VN VE VD roll pitch heading mVX mVY mVZ sd | 0, 2 => body3d_H02 lat lon alt VN VE VD roll pitch heading mVX mVY mVZ sd | 0, 3 => body3d_H03 lat lon alt VN VE VD roll pitch heading mVX mVY mVZ sd | 0, 4 => body3d_H04 lat lon alt VN VE VD roll pitch heading mVX mVY mVZ sd | 0, 5 => body3d_H05 lat lon alt VN VE VD roll pitch heading mVX mVY mVZ sd | 0, 6 => body3d_H06 lat lon alt VN VE VD roll pitch heading mVX mVY mVZ sd | 0, 7 => body3d_H07 lat lon alt VN VE VD roll pitch heading mVX mVY mVZ sd | 0, 8 => body3d_H08 lat lon alt VN VE VD roll pitch heading mVX mVY mVZ sd
+  | 1, 0 => body3d_H10 lat lon alt VN VE VD roll pitch heading mVX mVY mVZ sd | 1, 1 => body3d_H11 lat lon alt VN VE VD roll pitch heading mVX mVY mVZ sd | 1, 2 => body3d_H12 lat lon alt VN VE VD roll pitch heading mVX mVY mVZ sd | 1, 3 => body3d_H13 lat lon alt VN VE VD roll pitch heading mVX mVY mVZ sd | 1, 4 => body3d_H14 lat lon alt VN VE VD roll pitch heading mVX mVY mVZ sd | 1, 5 => body3d_H15 lat lon alt VN VE VD roll pitch heading mVX mVY mVZ sd | 1, 6 => body3d_H16 lat lon alt VN VE VD roll pitch heading mVX mVY mVZ sd | 1, 7 => body3d_H17 lat lon alt VN VE VD roll pitch heading mVX mVY mVZ sd | 1, 8 => body3d_H18 lat lon alt VN VE VD roll pitch heading mVX mVY mVZ sd
+  | 2, 0 => body3d_H20 lat lon alt VN VE VD roll pitch heading mVX mVY mVZ sd | 2, 1 => body3d_H21 lat lon alt VN VE VD roll pitch heading mVX mVY mVZ sd | 2, 2 => body3d_H22 lat lon alt VN VE VD roll pitch heading mVX mVY mVZ sd | 2, 3 => body3d_H23 lat lon alt VN VE VD roll pitch heading mVX mVY mVZ sd | 2, 4 => body3d_H24 lat lon alt VN VE VD roll pitch heading mVX mVY mVZ sd | 2, 5 => body3d_H25 lat lon alt VN VE VD roll pitch heading mVX mVY mVZ sd | 2, 6 => body3d_H26 lat lon alt VN VE VD roll pitch heading mVX mVY mVZ sd | 2, 7 => body3d_H27 lat lon alt VN VE VD roll pitch heading mVX mVY mVZ sd | 2, 8 => body3d_H28 lat lon alt VN VE VD roll pitch heading mVX mVY mVZ sd
+  | _, _ => 0%R
+  end%nat.
+
+Definition Rm_body3d (lat lon alt VN VE VD roll pitch heading mVX mVY mVZ sd : R) (i j : nat) : R :=
+  match i, j with
+  | 0, 0 => body3d_R00 lat lon alt VN VE VD roll pitch heading mVX mVY mVZ sd | 0, 1 => body3d_R01 lat lon alt VN VE VD roll pitch heading mVX mVY mVZ sd | 0, 2 => body3d_R02 lat lon alt VN VE VD roll pitch heading mVX mVY mVZ sd
+  | 1, 0 => body3d_R10 lat lon alt VN VE VD roll pitch heading mVX mVY mVZ sd | 1, 1 => body3d_R11 lat lon alt VN VE VD roll pitch heading mVX mVY mVZ sd | 1, 2 => body3d_R12 lat lon alt VN VE VD roll pitch heading mVX mVY mVZ sd
+  | 2, 0 => body3d_R20 lat lon alt VN VE VD roll pitch heading mVX mVY mVZ sd | 2, 1 => body3d_R21 lat lon alt VN VE VD roll pitch heading mVX mVY mVZ sd | 2, 2 => body3d_R22 lat lon alt VN VE VD roll pitch heading mVX mVY mVZ sd
+  | _, _ => 0%R
+  end%nat.
+
+Definition Zc_body3d (lat lon alt VN VE VD roll pitch heading mVX mVY mVZ sd x0 x1 x2 x3 x4 x5 x6 x7 x8 : R) (k : nat) (e : R) : R :=
+  match k with
+  | 0 => on_corrected3d (fun a1 a2 a3 a4 a5 a6 a7 a8 a9 => body3d_z0 a1 a2 a3 a4 a5 a6 a7 a8 a9 mVX mVY mVZ sd) lat lon alt VN VE VD roll pitch heading x0 x1 x2 x3 x4 x5 x6 x7 x8 e
+  | 1 => on_corrected3d (fun a1 a2 a3 a4 a5 a6 a7 a8 a9 => body3d_z1 a1 a2 a3 a4 a5 a6 a7 a8 a9 mVX mVY mVZ sd) lat lon alt VN VE VD roll pitch heading x0 x1 x2 x3 x4 x5 x6 x7 x8 e
+  | 2 => on_corrected3d (fun a1 a2 a3 a4 a5 a6 a7 a8 a9 => body3d_z2 a1 a2 a3 a4 a5 a6 a7 a8 a9 mVX mVY mVZ sd) lat lon alt VN VE VD roll pitch heading x0 x1 x2 x3 x4 x5 x6 x7 x8 e
+  | _ => 0%R
+  end%nat.
+
+Definition Hm_body3d_rate (lat lon alt VN VE VD roll pitch heading rate_x rate_y rate_z mVX mVY mVZ sd : R) (i j : nat) : R :=
+  match i, j with
+  | 0, 0 => body3d_rate_H00 lat lon alt VN VE VD roll pitch heading rate_x rate_y rate_z mVX mVY mVZ sd | 0, 1 => body3d_rate_H01 lat lon alt VN VE VD roll pitch heading rate_x rate_y rate_z mVX mVY mVZ sd | 0, 2 => body3d_rate_H02 lat lon alt VN VE VD roll pitch heading rate_x rate_y rate_z mVX mVY mVZ sd | 0, 3 => body3d_rate_H03 lat lon alt VN VE VD roll pitch heading rate_x rate_y rate_z mVX mVY mVZ sd | 0, 4 => body3d_rate_H04 lat lon alt VN VE VD roll pitch heading rate_x rate_y rate_z mVX mVY mVZ sd | 0, 5 => body3d_rate_H05 lat lon alt VN VE VD roll pitch heading rate_x rate_y rate_z mVX mVY mVZ sd | 0, 6 => body3d_rate_H06 lat lon alt VN VE VD roll pitch heading rate_x rate_y rate_z mVX mVY mVZ sd | 0, 7 => body3d_rate_H07 lat lon alt VN VE VD roll pitch heading rate_x rate_y rate_z mVX mVY mVZ sd | 0, 8 => body3d_rate_H08 lat lon alt VN VE VD roll pitch heading rate_x rate_y rate_z mVX mVY mVZ sd
+  | 1, 0 => body3d_rate_H10 lat lon alt VN VE VD roll pitch heading rate_x rate_y rate_z mVX mVY mVZ sd | 1, 1 => body3d_rate_H11 lat lon alt VN VE VD roll pitch heading rate_x rate_y rate_z mVX mVY mVZ sd | 1, 2 => body3d_rate_H12 lat lon alt VN VE VD roll pitch heading rate_x rate_y rate_z mVX mVY mVZ sd | 1, 3 => body3d_rate_H13 lat lon alt VN VE VD roll pitch heading rate_x rate_y rate_z mVX mVY mVZ sd | 1, 4 => body3d_rate_H14 lat lon alt VN VE VD roll pitch heading rate_x rate_y rate_z mVX mVY mVZ sd | 1, 5 => body3d_rate_H15 lat lon alt VN VE VD roll pitch heading rate_x rate_y rate_z mVX mVY mVZ sd | 1, 6 => body3d_rate_H16 lat lon alt VN VE VD roll pitch heading rate_x rate_y rate_z mVX mVY mVZ sd | 1, 7 => body3d_rate_H17 lat lon alt VN VE VD roll pitch heading rate_x rate_y rate_z mVX mVY mVZ sd | 1, 8 => body3d_rate_H18 lat lon alt VN VE VD roll pitch heading rate_x rate_y rate_z mVX mVY mVZ sd
+  | 2, 0 => body3d_rate_H20 lat lon alt VN VE VD roll pitch heading rate_x rate_y rate_z mVX mVY mVZ sd | 2, 1 => body3d_rate_H21 lat lon alt VN VE VD roll pitch heading rate_x rate_y rate_z mVX mVY mVZ sd | 2, 2 => body3d_rate_H22 lat lon alt VN VE VD roll pitch heading rate_x rate_y rate_z mVX mVY mVZ sd | 2, 3 => body3d_rate_H23 lat lon alt VN VE VD roll pitch heading rate_x rate_y rate_z mVX mVY mVZ sd | 2, 4 => body3d_rate_H24 lat lon alt VN VE VD roll pitch heading rate_x rate_y rate_z mVX mVY mVZ sd | 2, 5 => body3d_rate_H25 lat lon alt VN VE VD roll pitch heading rate_x rate_y rate_z mVX mVY mVZ sd | 2, 6 => body3d_rate_H26 lat lon alt VN VE VD roll pitch heading rate_x rate_y rate_z mVX mVY mVZ sd | 2, 7 => body3d_rate_H27 lat lon alt VN VE VD roll pitch heading rate_x rate_y rate_z mVX mVY mVZ sd | 2, 8 => body3d_rate_H28 lat lon alt VN VE VD roll pitch heading rate_x rate_y rate_z mVX mVY mVZ sd
+  | _, _ => 0%R
+  end%nat.
+
+Definition Rm_body3d_rate (lat lon alt VN VE VD roll pitch heading rate_x rate_y rate_z mVX mVY mVZ sd : R) (i j : nat) : R :=
+  match i, j with
+  | 0, 0 => body3d_rate_R00 lat lon alt VN VE VD roll pitch heading rate_x rate_y rate_z mVX mVY mVZ sd | 0, 1 => body3d_rate_R01 lat lon alt VN VE VD roll pitch heading rate_x rate_y rate_z mVX mVY mVZ sd | 0, 2 => body3d_rate_R02 lat lon alt VN VE VD roll pitch heading rate_x rate_y rate_z mVX mVY mVZ sd
+  | 1, 0 => body3d_rate_R10 lat lon alt VN VE VD roll pitch heading rate_x rate_y rate_z mVX mVY mVZ sd | 1, 1 => body3d_rate_R11 lat lon alt VN VE VD roll pitch heading rate_x rate_y rate_z mVX mVY mVZ sd | 1, 2 => body3d_rate_R12 lat lon alt VN VE VD roll pitch heading rate_x rate_y rate_z mVX mVY mVZ sd
+  | 2, 0 => body3d_rate_R20 lat lon alt VN VE VD roll pitch heading rate_x rate_y rate_z mVX mVY mVZ sd | 2, 1 => body3d_rate_R21 lat lon alt VN VE VD roll pitch heading rate_x rate_y rate_z mVX mVY mVZ sd | 2, 2 => body3d_rate_R22 lat lon alt VN VE VD roll pitch heading rate_x rate_y rate_z mVX mVY mVZ sd
+  | _, _ => 0%R
+  end%nat.
+
+Definition Zc_body3d_rate (lat lon alt VN VE VD roll pitch heading rate_x rate_y rate_z mVX mVY mVZ sd x0 x1 x2 x3 x4 x5 x6 x7 x8 : R) (k : nat) (e : R) : R :=
+  match k with
+  | 0 => on_corrected3d (fun a1 a2 a3 a4 a5 a6 a7 a8 a9 => body3d_rate_z0 a1 a2 a3 a4 a5 a6 a7 a8 a9 rate_x rate_y rate_z mVX mVY mVZ sd) lat lon alt VN VE VD roll pitch heading x0 x1 x2 x3 x4 x5 x6 x7 x8 e
+  | 1 => on_corrected3d (fun a1 a2 a3 a4 a5 a6 a7 a8 a9 => body3d_rate_z1 a1 a2 a3 a4 a5 a6 a7 a8 a9 rate_x rate_y rate_z mVX mVY mVZ sd) lat lon alt VN VE VD roll pitch heading x0 x1 x2 x3 x4 x5 x6 x7 x8 e
+  | 2 => on_corrected3d (fun a1 a2 a3 a4 a5 a6 a7 a8 a9 => body3d_rate_z2 a1 a2 a3 a4 a5 a6 a7 a8 a9 rate_x rate_y rate_z mVX mVY mVZ sd) lat lon alt VN VE VD roll pitch heading x0 x1 x2 x3 x4 x5 x6 x7 x8 e
+  | _ => 0%R
+  end%nat.
+
+Definition Hm_pos2d (lat lon alt VN VE VD roll pitch heading mlat mlon malt sd : R) (i j : nat) : R :=
+  match i, j with
+  | 0, 0 => pos2d_H00 lat lon alt VN VE VD roll pitch heading mlat mlon malt sd | 0, 1 => pos2d_H01 lat lon alt VN VE VD roll pitch heading mlat mlon malt sd | 0, 2 => pos2d_H02 lat lon alt VN VE VD roll pitch heading mlat mlon malt sd | 0, 3 => pos2d_H03 lat lon alt VN VE VD roll pitch heading mlat mlon malt sd | 0, 4 => pos2d_H04 lat lon alt VN VE VD roll pitch heading mlat mlon malt sd | 0, 5 => pos2d_H05 lat lon alt VN VE VD roll pitch heading mlat mlon malt sd | 0, 6 => pos2d_H06 lat lon alt VN VE VD roll pitch heading mlat mlon malt sd
+  | 1, 0 => pos2d_H10 lat lon alt VN VE VD roll pitch heading mlat mlon malt sd | 1, 1 => pos2d_H11 lat lon alt VN VE VD roll pitch heading mlat mlon malt sd | 1, 2 => pos2d_H12 lat lon alt VN VE VD roll pitch heading mlat mlon malt sd | 1, 3 => pos2d_H13 lat lon alt VN VE VD roll pitch heading mlat mlon malt sd | 1, 4 => pos2d_H14 lat lon alt VN VE VD roll pitch heading mlat mlon malt sd | 1, 5 => pos2d_H15 lat lon alt VN VE VD roll pitch heading mlat mlon malt sd | 1, 6 => pos2d_H16 lat lon alt VN VE VD roll pitch heading mlat mlon malt sd
+  | _, _ => 0%R
+  end%nat.
+
+Definition Rm_pos2d (lat lon alt VN VE VD roll pitch heading mlat mlon malt sd : R) (i j : nat) : R :=
+  match i, j with
+  | 0, 0 => pos2d_R00 lat lon alt VN VE VD roll pitch heading mlat mlon malt sd | 0, 1 => pos2d_R01 lat lon alt VN VE VD roll pitch heading mlat mlon malt sd
+  | 1, 0 => pos2d_R10 lat lon alt VN VE VD roll pitch heading mlat mlon malt sd | 1, 1 => pos2d_R11 lat lon alt VN VE VD roll pitch heading mlat mlon malt sd
+  | _, _ => 0%R
+  end%nat.
+
+Definition Zc_pos2d (lat lon alt VN VE VD roll pitch heading mlat mlon malt sd x0 x1 x2 x3 x4 x5 x6 : R) (k : nat) (e : R) : R :=
+  match k with
+  | 0 => on_corrected2d (fun a1 a2 a3 a4 a5 a6 a7 a8 a9 => pos2d_z0 a1 a2 a3 a4 a5 a6 a7 a8 a9 mlat mlon malt sd) lat lon alt VN VE VD roll pitch heading x0 x1 x2 x3 x4 x5 x6 e
+  | 1 => on_corrected2d (fun a1 a2 a3 a4 a5 a6 a7 a8 a9 => pos2d_z1 a1 a2 a3 a4 a5 a6 a7 a8 a9 mlat mlon malt sd) lat lon alt VN VE VD roll pitch heading x0 x1 x2 x3 x4 x5 x6 e
+  | _ => 0%R
+  end%nat.
+
+Definition Hm_pos2d_l (lat lon alt VN VE VD roll pitch heading mlat mlon malt l0 l1 l2 sd : R) (i j : nat) : R :=
+  match i, j with
+  | 0, 0 => pos2d_l_H00 lat lon alt VN VE VD roll pitch heading mlat mlon malt l0 l1 l2 sd | 0, 1 => pos2d_l_H01 lat lon alt VN VE VD roll pitch heading mlat mlon malt l0 l1 l2 sd | 0, 2 => pos2d_l_H02 lat lon alt VN VE VD roll pitch heading mlat mlon malt l0 l1 l2 sd | 0, 3 => pos2d_l_H03 lat lon alt VN VE VD roll pitch heading mlat mlon malt l0 l1 l2 sd | 0, 4 => pos2d_l_H04 lat lon alt VN VE VD roll pitch heading mlat mlon malt l0 l1 l2 sd | 0, 5 => pos2d_l_H05 lat lon alt VN VE VD roll pitch heading mlat mlon malt l0 l1 l2 sd | 0, 6 => pos2d_l_H06 lat lon alt VN VE VD roll pitch heading mlat mlon malt l0 l1 l2 sd
+  | 1, 0 => pos2d_l_H10 lat lon alt VN VE VD roll pitch heading mlat mlon malt l0 l1 l2 sd | 1, 1 => pos2d_l_H11 lat lon alt VN VE VD roll pitch heading mlat mlon malt l0 l1 l2 sd | 1, 2 => pos2d_l_H12 lat lon alt VN VE VD roll pitch heading mlat mlon malt l0 l1 l2 sd | 1, 3 => pos2d_l_H13 lat lon alt VN VE VD roll pitch heading mlat mlon malt l0 l1 l2 sd | 1, 4 => pos2d_l_H14 lat lon alt VN VE VD roll pitch heading mlat mlon malt l0 l1 l2 sd | 1, 5 => pos2d_l_H15 lat lon alt VN VE VD roll pitch heading mlat mlon malt l0 l1 l2 sd | 1, 6 => pos2d_l_H16 lat lon alt VN VE VD roll pitch heading mlat mlon malt l0 l1 l2 sd
+  | _, _ => 0%R
+  end%nat.
+
+Definition Rm_pos2d_l (lat lon alt VN VE VD roll pitch heading mlat mlon malt l0 l1 l2 sd : R) (i j : nat) : R :=
+  match i, j with
+  | 0, 0 => pos2d_l_R00 lat lon alt VN VE VD roll pitch heading mlat mlon malt l0 l1 l2 sd | 0, 1 => pos2d_l_R01 lat lon alt VN VE VD roll pitch heading mlat mlon malt l0 l1 l2 sd
+  | 1, 0 => pos2d_l_R10 lat lon alt VN VE VD roll pitch heading mlat mlon malt l0 l1 l2 sd | 1, 1 => pos2d_l_R11 lat lon alt VN VE VD roll pitch heading mlat mlon malt l0 l1 l2 sd
+  | _, _ => 0%R
+  end%nat.
+
+Definition Zc_pos2d_l (lat lon alt VN VE VD roll pitch heading mlat mlon malt l0 l1 l2 sd x0 x1 x2 x3 x4 x5 x6 : R) (k : nat) (e : R) : R :=
+  match k with
+  | 0 => on_corrected2d (fun a1 a2 a3 a4 a5 a6 a7 a8 a9 => pos2d_l_z0 a1 a2 a3 a4 a5 a6 a7 a8 a9 mlat mlon malt l0 l1 l2 sd) lat lon alt VN VE VD roll pitch heading x0 x1 x2 x3 x4 x5 x6 e
+  | 1 => on_corrected2d (fun a1 a2 a3 a4 a5 a6 a7 a8 a9 => pos2d_l_z1 a1 a2 a3 a4 a5 a6 a7 a8 a9 mlat mlon malt l0 l1 l2 sd) lat lon alt VN VE VD roll pitch heading x0 x1 x2 x3 x4 x5 x6 e
+  | _ => 0%R
+  end%nat.
+
+Definition Hm_ned2d (lat lon alt VN VE VD roll pitch heading mVN mVE mVD sd : R) (i j : nat) : R :=
+  match i, j with
+  | 0, 0 => ned2d_H00 lat lon alt VN VE VD roll pitch heading mVN mVE mVD sd | 0, 1 => ned2d_H01 lat lon alt VN VE VD roll pitch heading mVN mVE mVD sd | 0, 2 => ned2d_H02 lat lon alt VN VE VD roll pitch heading mVN mVE mVD sd | 0, 3 => ned2d_H03 lat lon alt VN VE VD roll pitch heading mVN mVE mVD sd | 0, 4 => ned2d_H04 lat lon alt VN VE VD roll pitch heading mVN mVE mVD sd | 0, 5 => ned2d_H05 lat lon alt VN VE VD roll pitch heading mVN mVE mVD sd | 0, 6 => ned2d_H06 lat lon alt VN VE VD roll pitch heading mVN mVE mVD sd
+  | 1, 0 => ned2d_H10 lat lon alt VN VE VD roll pitch heading mVN mVE mVD sd | 1, 1 => ned2d_H11 lat lon alt VN VE VD roll pitch heading mVN mVE mVD sd | 1, 2 => ned2d_H12 lat lon alt VN VE VD roll pitch heading mVN mVE mVD sd | 1, 3 => ned2d_H13 lat lon alt VN VE VD roll pitch heading mVN mVE mVD sd | 1, 4 => ned2d_H14 lat lon alt VN VE VD roll pitch heading mVN mVE mVD sd | 1, 5 => ned2d_H15 lat lon alt VN VE VD roll pitch heading mVN mVE mVD sd | 1, 6 => ned2d_H16 lat lon alt VN VE VD roll pitch heading mVN mVE mVD sd
+  | _, _ => 0%R
+  end%nat.
+
+Definition Rm_ned2d (lat lon alt VN VE VD roll pitch heading mVN mVE mVD sd : R) (i j : nat) : R :=
+  match i, j with
+  | 0, 0 => ned2d_R00 lat lon alt VN VE VD roll pitch heading mVN mVE mVD sd | 0, 1 => ned2d_R01 lat lon alt VN VE VD roll pitch heading mVN mVE mVD sd
+  | 1, 0 => ned2d_R10 lat lon alt VN VE VD roll pitch heading mVN mVE mVD sd | 1, 1 => ned2d_R11 lat lon alt VN VE VD roll pitch heading mVN mVE mVD sd
+  | _, _ => 0%R
+  end%nat.
+
+Definition Zc_ned2d (lat lon alt VN VE VD roll pitch heading mVN mVE mVD sd x0 x1 x2 x3 x4 x5 x6 : R) (k : nat) (e : R) : R :=
+  match k with
+  | 0 => on_corrected2d (fun a1 a2 a3 a4 a5 a6 a7 a8 a9 => ned2d_z0 a1 a2 a3 a4 a5 a6 a7 a8 a9 mVN mVE mVD sd) lat lon alt VN VE VD roll pitch heading x0 x1 x2 x3 x4 x5 x6 e
+  | 1 => on_corrected2d (fun a1 a2 a3 a4 a5 a6 a7 a8 a9 => ned2d_z1 a1 a2 a3 a4 a5 a6 a7 a8 a9 mVN mVE mVD sd) lat lon alt VN VE VD roll pitch heading x0 x1 x2 x3 x4 x5 x6 e
+  | _ => 0%R
+  end%nat.
+
+Definition Hm_ned2d_rate (lat lon alt VN VE VD roll pitch heading rate_x rate_y rate_z mVN mVE mVD sd : R) (i j : nat) : R :=
+  match i, j with
+  | 0, 0 => ned2d_rate_H00 lat lon alt VN VE VD roll pitch heading rate_x rate_y rate_z mVN mVE mVD sd | 0, 1 => ned2d_rate_H01 lat lon alt VN VE VD roll pitch heading rate_x rate_y rate_z mVN mVE mVD sd | 0, 2 => ned2d_rate_H02 lat lon alt VN VE VD roll pitch heading rate_x rate_y rate_z mVN mVE mVD sd | 0, 3 => ned2d_rate_H03 lat lon alt VN VE VD roll pitch heading rate_x rate_y rate_z mVN mVE mVD sd | 0, 4 => ned2d_rate_H04 lat lon alt VN VE VD roll pitch heading rate_x rate_y rate_z mVN mVE mVD sd | 0, 5 => ned2d_rate_H05 lat lon alt VN VE VD roll pitch heading rate_x rate_y rate_z mVN mVE mVD sd | 0, 6 => ned2d_rate_H06 lat lon alt VN VE VD roll pitch heading rate_x rate_y rate_z mVN mVE mVD sd
+  | 1, 0 => ned2d_rate_H10 lat lon alt VN VE VD roll pitch heading rate_x rate_y rate_z mVN mVE mVD sd | 1, 1 => ned2d_rate_H11 lat lon alt VN VE VD roll pitch heading rate_x rate_y rate_z mVN mVE mVD sd | 1, 2 => ned2d_rate_H12 lat lon alt VN VE VD roll pitch heading rate_x rate_y rate_z mVN mVE mVD sd | 1, 3 => ned2d_rate_H13 lat lon alt VN VE VD roll pitch heading rate_x rate_y rate_z mVN mVE mVD sd | 1, 4 => ned2d_rate_H14 lat lon alt VN VE VD roll pitch heading rate_x rate_y rate_z mVN mVE mVD sd | 1, 5 => ned2d_rate_H15 lat lon alt VN VE VD roll pitch heading rate_x rate_y rate_z mVN mVE mVD sd | 1, 6 => ned2d_rate_H16 lat lon alt VN VE VD roll pitch heading rate_x rate_y rate_z mVN mVE mVD sd
+  | _, _ => 0%R
+  end%nat.
+
+Definition Rm_ned2d_rate (lat lon alt VN VE VD roll pitch heading rate_x rate_y rate_z mVN mVE mVD sd : R) (i j : nat) : R :=
+  match i, j with
+  | 0, 0 => ned2d_rate_R00 lat lon alt VN VE VD roll pitch heading rate_x rate_y rate_z mVN mVE mVD sd | 0, 1 => ned2d_rate_R01 lat lon alt VN VE VD roll pitch heading rate_x rate_y rate_z mVN mVE mVD sd
+  | 1, 0 => ned2d_rate_R10 lat lon alt VN VE VD roll pitch heading rate_x rate_y rate_z mVN mVE mVD sd | 1, 1 => ned2d_rate_R11 lat lon alt VN VE VD roll pitch heading rate_x rate_y rate_z mVN mVE mVD sd
+  | _, _ => 0%R
+  end%nat.
+
+Definition Zc_ned2d_rate (lat lon alt VN VE VD roll pitch heading rate_x rate_y rate_z mVN mVE mVD sd x0 x1 x2 x3 x4 x5 x6 : R) (k : nat) (e : R) : R :=
+  match k with
+  | 0 => on_corrected2d (fun a1 a2 a3 a4 a5 a6 a7 a8 a9 => ned2d_rate_z0 a1 a2 a3 a4 a5 a6 a7 a8 a9 rate_x rate_y rate_z mVN mVE mVD sd) lat lon alt VN VE VD roll pitch heading x0 x1 x2 x3 x4 x5 x6 e
+  | 1 => on_corrected2d (fun a1 a2 a3 a4 a5 a6 a7 a8 a9 => ned2d_rate_z1 a1 a2 a3 a4 a5 a6 a7 a8 a9 rate_x rate_y rate_z mVN mVE mVD sd) lat lon alt VN VE VD roll pitch heading x0 x1 x2 x3 x4 x5 x6 e
+  | _ => 0%R
+  end%nat.
+
+Definition Hm_ned2d_l (lat lon alt VN VE VD roll pitch heading rate_x rate_y rate_z mVN mVE mVD l0 l1 l2 sd : R) (i j : nat) : R :=
+  match i, j with
+  | 0, 0 => ned2d_l_H00 lat lon alt VN VE VD roll pitch heading rate_x rate_y rate_z mVN mVE mVD l0 l1 l2 sd | 0, 1 => ned2d_l_H01 lat lon alt VN VE VD roll pitch heading rate_x rate_y rate_z mVN mVE mVD l0 l1 l2 sd | 0, 2 => ned2d_l_H02 lat lon alt VN VE VD roll pitch heading rate_x rate_y rate_z mVN mVE mVD l0 l1 l2 sd | 0, 3 => ned2d_l_H03 lat lon alt VN VE VD roll pitch heading rate_x rate_y rate_z mVN mVE mVD l0 l1 l2 sd | 0, 4 => ned2d_l_H04 lat lon alt VN VE VD roll pitch heading rate_x rate_y rate_z mVN mVE mVD l0 l1 l2 sd | 0, 5 => ned2d_l_H05 lat lon alt VN VE VD roll pitch heading rate_x rate_y rate_z mVN mVE mVD l0 l1 l2 sd | 0, 6 => ned2d_l_H06 lat lon alt VN VE VD roll pitch heading rate_x rate_y rate_z mVN mVE mVD l0 l1 l2 sd
+  | 1, 0 => ned2d_l_H10 lat lon alt VN VE VD roll pitch heading rate_x rate_y rate_z mVN mVE mVD l0 l1 l2 sd | 1, 1 => ned2d_l_H11 lat lon alt VN VE VD roll pitch heading rate_x rate_y rate_z mVN mVE mVD l0 l1 l2 sd | 1, 2 => ned2d_l_H12 lat lon alt VN VE VD roll pitch heading rate_x rate_y rate_z mVN mVE mVD l0 l1 l2 sd | 1, 3 => ned2d_l_H13 lat lon alt VN VE VD roll pitch heading rate_x rate_y rate_z mVN mVE mVD l0 l1 l2 sd | 1, 4 => ned2d_l_H14 lat lon alt VN VE VD roll pitch heading rate_x rate_y rate_z mVN mVE mVD l0 l1 l2 sd | 1, 5 => ned2d_l_H15 lat lon alt VN VE VD roll pitch heading rate_x rate_y rate_z mVN mVE mVD l0 l1 l2 sd | 1, 6 => ned2d_l_H16 lat lon alt VN VE VD roll pitch heading rate_x rate_y rate_z mVN mVE mVD l0 l1 l2 sd
+  | _, _ => 0%R
+  end%nat.
+
+Definition Rm_ned2d_l (lat lon alt VN VE VD roll pitch heading rate_x rate_y rate_z mVN mVE mVD l0 l1 l2 sd : R) (i j : nat) : R :=
+  match i, j with
+  | 0, 0 => ned2d_l_R00 lat lon alt VN VE VD roll pitch heading rate_x rate_y rate_z mVN mVE mVD l0 l1 l2 sd | 0, 1 => ned2d_l_R01 lat lon alt VN VE VD roll pitch heading rate_x rate_y rate_z mVN mVE mVD l0 l1 l2 sd
+  | 1, 0 => ned2d_l_R10 lat lon alt VN VE VD roll pitch heading rate_x rate_y rate_z mVN mVE mVD l0 l1 l2 sd | 1, 1 => ned2d_l_R11 lat lon alt VN VE VD roll pitch heading rate_x rate_y rate_z mVN mVE mVD l0 l1 l2 sd
+  | _, _ => 0%R
+  end%nat.
+
+Definition Zc_ned2d_l (lat lon alt VN VE VD roll pitch heading rate_x rate_y rate_z mVN mVE mVD l0 l1 l2 sd x0 x1 x2 x3 x4 x5 x6 : R) (k : nat) (e : R) : R :=
+  match k with
+  | 0 => on_corrected2d (fun a1 a2 a3 a4 a5 a6 a7 a8 a9 => ned2d_l_z0 a1 a2 a3 a4 a5 a6 a7 a8 a9 rate_x rate_y rate_z mVN mVE mVD l0 l1 l2 sd) lat lon alt VN VE VD roll pitch heading x0 x1 x2 x3 x4 x5 x6 e
+  | 1 => on_corrected2d (fun a1 a2 a3 a4 a5 a6 a7 a8 a9 => ned2d_l_z1 a1 a2 a3 a4 a5 a6 a7 a8 a9 rate_x rate_y rate_z mVN mVE mVD l0 l1 l2 sd) lat lon alt VN VE VD roll pitch heading x0 x1 x2 x3 x4 x5 x6 e
+  | _ => 0%R
+  end%nat.
+
+Definition Hm_ned2d_l_norate (lat lon alt VN VE VD roll pitch heading mVN mVE mVD l0 l1 l2 sd : R) (i j : nat) : R :=
+  match i, j with
+  | 0, 0 => ned2d_l_norate_H00 lat lon alt VN VE VD roll pitch heading mVN mVE mVD l0 l1 l2 sd | 0, 1 => ned2d_l_norate_H01 lat lon alt VN VE VD roll pitch heading mVN mVE mVD l0 l1 l2 sd | 0, 2 => ned2d_l_norate_H02 lat lon alt VN VE VD roll pitch heading mVN mVE mVD l0 l1 l2 sd | 0, 3 => ned2d_l_norate_H03 lat lon alt VN VE VD roll pitch heading mVN mVE mVD l0 l1 l2 sd | 0, 4 => ned2d_l_norate_H04 lat lon alt VN VE VD roll pitch heading mVN mVE mVD l0 l1 l2 sd | 0, 5 => ned2d_l_norate_H05 lat lon alt VN VE VD roll pitch heading mVN mVE mVD l0 l1 l2 sd | 0, 6 => ned2d_l_norate_H06 lat lon alt VN VE VD roll pitch heading mVN mVE mVD l0 l1 l2 sd
+  | 1, 0 => ned2d_l_norate_H10 lat lon alt VN VE VD roll pitch heading mVN mVE mVD l0 l1 l2 sd | 1, 1 => ned2d_l_norate_H11 lat lon alt VN VE VD roll pitch heading mVN mVE mVD l0 l1 l2 sd | 1, 2 => ned2d_l_norate_H12 lat lon alt VN VE VD roll pitch heading mVN mVE mVD l0 l1 l2 sd | 1, 3 => ned2d_l_norate_H13 lat lon alt VN VE VD roll pitch heading mVN mVE mVD l0 l1 l2 sd | 1, 4 => ned2d_l_norate_H14 lat lon alt VN VE VD roll pitch heading mVN mVE mVD l0 l1 l2 sd | 1, 5 => ned2d_l_norate_H15 lat lon alt VN VE VD roll pitch heading mVN mVE mVD l0 l1 l2 sd | 1, 6 => ned2d_l_norate_H16 lat lon alt VN VE VD roll pitch heading mVN mVE mVD l0 l1 l2 sd
+  | _, _ => 0%R
+  end%nat.
+
+Definition Rm_ned2d_l_norate (lat lon alt VN VE VD roll pitch heading mVN mVE mVD l0 l1 l2 sd : R) (i j : nat) : R :=
+  match i, j with
+  | 0, 0 => ned2d_l_norate_R00 lat lon alt VN VE VD roll pitch heading mVN mVE mVD l0 l1 l2 sd | 0, 1 => ned2d_l_norate_R01 lat lon alt VN VE VD roll pitch heading mVN mVE mVD l0 l1 l2 sd
+  | 1, 0 => ned2d_l_norate_R10 lat lon alt VN VE VD roll pitch heading mVN mVE mVD l0 l1 l2 sd | 1, 1 => ned2d_l_norate_R11 lat lon alt VN VE VD roll pitch heading mVN mVE mVD l0 l1 l2 sd
+  | _, _ => 0%R
+  end%nat.
+
+Definition Zc_ned2d_l_norate (lat lon alt VN VE VD roll pitch heading mVN mVE mVD l0 l1 l2 sd x0 x1 x2 x3 x4 x5 x6 : R) (k : nat) (e : R) : R :=
+  match k with
+  | 0 => on_corrected2d (fun a1 a2 a3 a4 a5 a6 a7 a8 a9 => ned2d_l_norate_z0 a1 a2 a3 a4 a5 a6 a7 a8 a9 mVN mVE mVD l0 l1 l2 sd) lat lon alt VN VE VD roll pitch heading x0 x1 x2 x3 x4 x5 x6 e
+  | 1 => on_corrected2d (fun a1 a2 a3 a4 a5 a6 a7 a8 a9 => ned2d_l_norate_z1 a1 a2 a3 a4 a5 a6 a7 a8 a9 mVN mVE mVD l0 l1 l2 sd) lat lon alt VN VE VD roll pitch heading x0 x1 x2 x3 x4 x5 x6 e
+  | _ => 0%R
+  end%nat.
+
+Definition Hm_body2d (lat lon alt VN VE VD roll pitch heading mVX mVY mVZ sd : R) (i j : nat) : R :=
+  match i, j with
+  | 0, 0 => body2d_H00 lat lon alt VN VE VD roll pitch heading mVX mVY mVZ sd | 0, 1 => body2d_H01 lat lon alt VN VE VD roll pitch heading mVX mVY mVZ sd | 0, 2 => body2d_H02 lat lon alt VN VE VD roll pitch heading mVX mVY mVZ sd | 0, 3 => body2d_H03 lat lon alt VN VE VD roll pitch heading mVX mVY mVZ sd | 0, 4 => body2d_H04 lat lon alt VN VE VD roll pitch heading mVX mVY mVZ sd | 0, 5 => body2d_H05 lat lon alt VN VE VD roll pitch heading mVX mVY mVZ sd | 0, 6 => body2d_H06 lat lon alt VN VE VD roll pitch heading mVX mVY mVZ sd
+  | 1, 0 => body2d_H10 lat lon alt VN VE VD roll pitch heading mVX mVY mVZ sd | 1, 1 => body2d_H11 lat lon alt VN VE VD roll pitch heading mVX mVY mVZ sd | 1, 2 => body2d_H12 lat lon alt VN VE VD roll pitch heading mVX mVY mVZ sd | 1, 3 => body2d_H13 lat lon alt VN VE VD roll pitch heading mVX mVY mVZ sd | 1, 4 => body2d_H14 lat lon alt VN VE VD roll pitch heading mVX mVY mVZ sd | 1, 5 => body2d_H15 lat lon alt VN VE VD roll pitch heading mVX mVY mVZ sd | 1, 6 => body2d_H16 lat lon alt VN VE VD roll pitch heading mVX mVY mVZ sd
+  | 2, 0 => body2d_H20 lat lon alt VN VE VD roll pitch heading mVX mVY mVZ sd | 2, 1 => body2d_H21 lat lon alt VN VE VD roll pitch heading mVX mVY mVZ sd | 2, 2 => body2d_H22 lat lon alt VN VE VD roll pitch heading mVX mVY mVZ sd | 2, 3 => body2d_H23 lat lon alt VN VE VD roll pitch heading mVX mVY mVZ sd | 2, 4 => body2d_H24 lat lon alt VN VE VD roll pitch heading mVX mVY mVZ sd | 2, 5 => body2d_H25 lat lon alt VN VE VD roll pitch heading mVX mVY mVZ sd | 2, 6 => body2d_H26 lat lon alt VN VE VD roll pitch heading mVX mVY mVZ sd
+  | _, _ => 0%R
+  end%nat.
+
+Definition Rm_body2d (lat lon alt VN VE VD roll pitch heading mVX mVY mVZ sd : R) (i j : nat) : R :=
+  match i, j with
+  | 0, 0 => body2d_R00 lat lon alt VN VE VD roll pitch heading mVX mVY mVZ sd | 0, 1 => body2d_R01 lat lon alt VN VE VD roll pitch heading mVX mVY mVZ sd | 0, 2 => body2d_R02 lat lon alt VN VE VD roll pitch heading mVX mVY mVZ sd
+  | 1, 0 => body2d_R10 lat lon alt VN VE VD roll pitch heading mVX mVY mVZ sd | 1, 1 => body2d_R11 lat lon alt VN VE VD roll pitch heading mVX mVY mVZ sd | 1, 2 => body2d_R12 lat lon alt VN VE VD roll pitch heading mVX mVY mVZ sd
+  | 2, 0 => body2d_R20 lat lon alt VN VE VD roll pitch heading mVX mVY mVZ sd | 2, 1 => body2d_R21 lat lon alt VN VE VD roll pitch heading mVX mVY mVZ sd | 2, 2 => body2d_R22 lat lon alt VN VE VD roll pitch heading mVX mVY mVZ sd
+  | _, _ => 0%R
+  end%nat.
+
+Definition Zc_body2d (lat lon alt VN VE VD roll pitch heading mVX mVY mVZ sd x0 x1 x2 x3 x4 x5 x6 : R) (k : nat) (e : R) : R :=
+  match k with
+  | 0 => on_corrected2d (fun a1 a2 a3 a4 a5 a6 a7 a8 a9 => body2d_z0 a1 a2 a3 a4 a5 a6 a7 a8 a9 mVX mVY mVZ sd) lat lon alt VN VE VD roll pitch heading x0 x1 x2 x3 x4 x5 x6 e
+  | 1 => on_corrected2d (fun a1 a2 a3 a4 a5 a6 a7 a8 a9 => body2d_z1 a1 a2 a3 a4 a5 a6 a7 a8 a9 mVX mVY mVZ sd) lat lon alt VN VE VD roll pitch heading x0 x1 x2 x3 x4 x5 x6 e
+  | 2 => on_corrected2d (fun a1 a2 a3 a4 a5 a6 a7 a8 a9 => body2d_z2 a1 a2 a3 a4 a5 a6 a7 a8 a9 mVX mVY mVZ sd) lat lon alt VN VE VD roll pitch heading x0 x1 x2 x3 x4 x5 x6 e
+  | _ => 0%R
+  end%nat.
+
+Definition Hm_body2d_rate (lat lon alt VN VE VD roll pitch heading rate_x rate_y rate_z mVX mVY mVZ sd : R) (i j : nat) : R :=
+  match i, j with
+  | 0, 0 => body2d_rate_H00 lat lon alt VN VE VD roll pitch heading rate_x rate_y rate_z mVX mVY mVZ sd | 0, 1 => body2d_rate_H01 lat lon alt VN VE VD roll pitch heading rate_x rate_y rate_z mVX mVY mVZ sd | 0, 2 => body2d_rate_H02 lat lon alt VN VE VD roll pitch heading rate_x rate_y rate_z mVX mVY mVZ sd | 0, 3 => body2d_rate_H03 lat lon alt VN VE VD roll pitch heading rate_x rate_y rate_z mVX mVY mVZ sd | 0, 4 => body2d_rate_H04 lat lon alt VN VE VD roll pitch heading rate_x rate_y rate_z mVX mVY mVZ sd | 0, 5 => body2d_rate_H05 lat lon alt VN VE VD roll pitch heading rate_x rate_y rate_z mVX mVY mVZ sd | 0, 6 => body2d_rate_H06 lat lon alt VN VE VD roll pitch heading rate_x rate_y rate_z mVX mVY mVZ sd
+  | 1, 0 => body2d_rate_H10 lat lon alt VN VE VD roll pitch heading rate_x rate_y rate_z mVX mVY mVZ sd | 1, 1 => body2d_rate_H11 lat lon alt VN VE VD roll pitch heading rate_x rate_y rate_z mVX mVY mVZ sd | 1, 2 => body2d_rate_H12 lat lon alt VN VE VD roll pitch heading rate_x rate_y rate_z mVX mVY mVZ sd | 1, 3 => body2d_rate_H13 lat lon alt VN VE VD roll pitch heading rate_x rate_y rate_z mVX mVY mVZ sd | 1, 4 => body2d_rate_H14 lat lon alt VN VE VD roll pitch heading rate_x rate_y rate_z mVX mVY mVZ sd | 1, 5 => body2d_rate_H15 lat lon alt VN VE VD roll pitch heading rate_x rate_y rate_z mVX mVY mVZ sd | 1, 6 => body2d_rate_H16 lat lon alt VN VE VD roll pitch heading rate_x rate_y rate_z mVX mVY mVZ sd
+  | 2, 0 => body2d_rate_H20 lat lon alt VN VE VD roll pitch heading rate_x rate_y rate_z mVX mVY mVZ sd | 2, 1 => body2d_rate_H21 lat lon alt VN VE VD roll pitch heading rate_x rate_y rate_z mVX mVY mVZ sd | 2, 2 => body2d_rate_H22 lat lon alt VN VE VD roll pitch heading rate_x rate_y rate_z mVX mVY mVZ sd | 2, 3 => body2d_rate_H23 lat lon alt VN VE VD roll pitch heading rate_x rate_y rate_z mVX mVY mVZ sd | 2, 4 => body2d_rate_H24 lat lon alt VN VE VD roll pitch heading rate_x rate_y rate_z mVX mVY mVZ sd | 2, 5 => body2d_rate_H25 lat lon alt VN VE VD roll pitch heading rate_x rate_y rate_z mVX mVY mVZ sd | 2, 6 => body2d_rate_H26 lat lon alt VN VE VD roll pitch heading rate_x rate_y rate_z mVX mVY mVZ sd
+  | _, _ => 0%R
+  end%nat.
+
+Definition Rm_body2d_rate (lat lon alt VN VE VD roll pitch heading rate_x rate_y rate_z mVX mVY mVZ sd : R) (i j : nat) : R :=
+  match i, j with
+  | 0, 0 => body2d_rate_R00 lat lon alt VN VE VD roll pitch heading rate_x rate_y rate_z mVX mVY mVZ sd | 0, 1 => body2d_rate_R01 lat lon alt VN VE VD roll pitch heading rate_x rate_y rate_z mVX mVY mVZ sd | 0, 2 => body2d_rate_R02 lat lon alt VN VE VD roll pitch heading rate_x rate_y rate_z mVX mVY mVZ sd
+  | 1, 0 => body2d_rate_R10 lat lon alt VN VE VD roll pitch heading rate_x rate_y rate_z mVX mVY mVZ sd | 1, 1 => body2d_rate_R11 lat lon alt VN VE VD roll pitch heading rate_x rate_y rate_z mVX mVY mVZ sd | 1, 2 => body2d_rate_R12 lat lon alt VN VE VD roll pitch heading rate_x rate_y rate_z mVX mVY mVZ sd
+  | 2, 0 => body2d_rate_R20 lat lon alt VN VE VD roll pitch heading rate_x rate_y rate_z mVX mVY mVZ sd | 2, 1 => body2d_rate_R21 lat lon alt VN VE VD roll pitch heading rate_x rate_y rate_z mVX mVY mVZ sd | 2, 2 => body2d_rate_R22 lat lon alt VN VE VD roll pitch heading rate_x rate_y rate_z mVX mVY mVZ sd
+  | _, _ => 0%R
+  end%nat.
+
+Definition Zc_body2d_rate (lat lon alt VN VE VD roll pitch heading rate_x rate_y rate_z mVX mVY mVZ sd x0 x1 x2 x3 x4 x5 x6 : R) (k : nat) (e : R) : R :=
+  match k with
+  | 0 => on_corrected2d (fun a1 a2 a3 a4 a5 a6 a7 a8 a9 => body2d_rate_z0 a1 a2 a3 a4 a5 a6 a7 a8 a9 rate_x rate_y rate_z mVX mVY mVZ sd) lat lon alt VN VE VD roll pitch heading x0 x1 x2 x3 x4 x5 x6 e
+  | 1 => on_corrected2d (fun a1 a2 a3 a4 a5 a6 a7 a8 a9 => body2d_rate_z1 a1 a2 a3 a4 a5 a6 a7 a8 a9 rate_x rate_y rate_z mVX mVY mVZ sd) lat lon alt VN VE VD roll pitch heading x0 x1 x2 x3 x4 x5 x6 e
+  | 2 => on_corrected2d (fun a1 a2 a3 a4 a5 a6 a7 a8 a9 => body2d_rate_z2 a1 a2 a3 a4 a5 a6 a7 a8 a9 rate_x rate_y rate_z mVX mVY mVZ sd) lat lon alt VN VE VD roll pitch heading x0 x1 x2 x3 x4 x5 x6 e
+  | _ => 0%R
+  end%nat.
+
+Create HintDb errstate_meas.
+#[global] Hint Unfold pos3d_H00 pos3d_H01 pos3d_H02 pos3d_H03 pos3d_H04 pos3d_H05 pos3d_H06 pos3d_H07 pos3d_H08 pos3d_H10 pos3d_H11 pos3d_H12 pos3d_H13 pos3d_H14 pos3d_H15 pos3d_H16 pos3d_H17 pos3d_H18 pos3d_H20 pos3d_H21 pos3d_H22 pos3d_H23 pos3d_H24 pos3d_H25 pos3d_H26 pos3d_H27 pos3d_H28 pos3d_R00 pos3d_R01 pos3d_R02 pos3d_R10 pos3d_R11 pos3d_R12 pos3d_R20 pos3d_R21 pos3d_R22 pos3d_z0 pos3d_z1 pos3d_z2 : errstate_meas.
+#[global] Hint Unfold pos3d_l_H00 pos3d_l_H01 pos3d_l_H02 pos3d_l_H03 pos3d_l_H04 pos3d_l_H05 pos3d_l_H06 pos3d_l_H07 pos3d_l_H08 pos3d_l_H10 pos3d_l_H11 pos3d_l_H12 pos3d_l_H13 pos3d_l_H14 pos3d_l_H15 pos3d_l_H16 pos3d_l_H17 pos3d_l_H18 pos3d_l_H20 pos3d_l_H21 pos3d_l_H22 pos3d_l_H23 pos3d_l_H24 pos3d_l_H25 pos3d_l_H26 pos3d_l_H27 pos3d_l_H28 pos3d_l_R00 pos3d_l_R01 pos3d_l_R02 pos3d_l_R10 pos3d_l_R11 pos3d_l_R12 pos3d_l_R20 pos3d_l_R21 pos3d_l_R22 pos3d_l_z0 pos3d_l_z1 pos3d_l_z2 : errstate_meas.
+#[global] Hint Unfold ned3d_H00 ned3d_H01 ned3d_H02 ned3d_H03 ned3d_H04 ned3d_H05 ned3d_H06 ned3d_H07 ned3d_H08 ned3d_H10 ned3d_H11 ned3d_H12 ned3d_H13 ned3d_H14 ned3d_H15 ned3d_H16 ned3d_H17 ned3d_H18 ned3d_H20 ned3d_H21 ned3d_H22 ned3d_H23 ned3d_H24 ned3d_H25 ned3d_H26 ned3d_H27 ned3d_H28 ned3d_R00 ned3d_R01 ned3d_R02 ned3d_R10 ned3d_R11 ned3d_R12 ned3d_R20 ned3d_R21 ned3d_R22 ned3d_z0 ned3d_z1 ned3d_z2 : errstate_meas.
+#[global] Hint Unfold ned3d_rate_H00 ned3d_rate_H01 ned3d_rate_H02 ned3d_rate_H03 ned3d_rate_H04 ned3d_rate_H05 ned3d_rate_H06 ned3d_rate_H07 ned3d_rate_H08 ned3d_rate_H10 ned3d_rate_H11 ned3d_rate_H12 ned3d_rate_H13 ned3d_rate_H14 ned3d_rate_H15 ned3d_rate_H16 ned3d_rate_H17 ned3d_rate_H18 ned3d_rate_H20 ned3d_rate_H21 ned3d_rate_H22 ned3d_rate_H23 ned3d_rate_H24 ned3d_rate_H25 ned3d_rate_H26 ned3d_rate_H27 ned3d_rate_H28 ned3d_rate_R00 ned3d_rate_R01 ned3d_rate_R02 ned3d_rate_R10 ned3d_rate_R11 ned3d_rate_R12 ned3d_rate_R20 ned3d_rate_R21 ned3d_rate_R22 ned3d_rate_z0 ned3d_rate_z1 ned3d_rate_z2 : errstate_meas.
+#[global] Hint Unfold ned3d_l_H00 ned3d_l_H01 ned3d_l_H02 ned3d_l_H03 ned3d_l_H04 ned3d_l_H05 ned3d_l_H06 ned3d_l_H07 ned3d_l_H08 ned3d_l_H10 ned3d_l_H11 ned3d_l_H12 ned3d_l_H13 ned3d_l_H14 ned3d_l_H15 ned3d_l_H16 ned3d_l_H17 ned3d_l_H18 ned3d_l_H20 ned3d_l_H21 ned3d_l_H22 ned3d_l_H23 ned3d_l_H24 ned3d_l_H25 ned3d_l_H26 ned3d_l_H27 ned3d_l_H28 ned3d_l_R00 ned3d_l_R01 ned3d_l_R02 ned3d_l_R10 ned3d_l_R11 ned3d_l_R12 ned3d_l_R20 ned3d_l_R21 ned3d_l_R22 ned3d_l_z0 ned3d_l_z1 ned3d_l_z2 : errstate_meas.
+#[global] Hint Unfold ned3d_l_norate_H00 ned3d_l_norate_H01 ned3d_l_norate_H02 ned3d_l_norate_H03 ned3d_l_norate_H04 ned3d_l_norate_H05 ned3d_l_norate_H06 ned3d_l_norate_H07 ned3d_l_norate_H08 ned3d_l_norate_H10 ned3d_l_norate_H11 ned3d_l_norate_H12 ned3d_l_norate_H13 ned3d_l_norate_H14 ned3d_l_norate_H15 ned3d_l_norate_H16 ned3d_l_norate_H17 ned3d_l_norate_H18 ned3d_l_norate_H20 ned3d_l_norate_H21 ned3d_l_norate_H22 ned3d_l_norate_H23 ned3d_l_norate_H24 ned3d_l_norate_H25 ned3d_l_norate_H26 ned3d_l_norate_H27 ned3d_l_norate_H28 ned3d_l_norate_R00 ned3d_l_norate_R01 ned3d_l_norate_R02 ned3d_l_norate_R10 ned3d_l_norate_R11 ned3d_l_norate_R12 ned3d_l_norate_R20 ned3d_l_norate_R21 ned3d_l_norate_R22 ned3d_l_norate_z0 ned3d_l_norate_z1 ned3d_l_norate_z2 : errstate_meas.
+#[global] Hint Unfold body3d_H00 body3d_H01 body3d_H02 body3d_H03 body3d_H04 body3d_H05 body3d_H06 body3d_H07 body3d_H08 body3d_H10 body3d_H11 body3d_H12 body3d_H13 body3d_H14 body3d_H15 body3d_H16 body3d_H17 body3d_H18 body3d_H20 body3d_H21 body3d_H22 body3d_H23 body3d_H24 body3d_H25 body3d_H26 body3d_H27 body3d_H28 body3d_R00 body3d_R01 body3d_R02 body3d_R10 body3d_R11 body3d_R12 body3d_R20 body3d_R21 body3d_R22 body3d_z0 body3d_z1 body3d_z2 : errstate_meas.
+#[global] Hint Unfold body3d_rate_H00 body3d_rate_H01 body3d_rate_H02 body3d_rate_H03 body3d_rate_H04 body3d_rate_H05 body3d_rate_H06 body3d_rate_H07 body3d_rate_H08 body3d_rate_H10 body3d_rate_H11 body3d_rate_H12 body3d_rate_H13 body3d_rate_H14 body3d_rate_H15 body3d_rate_H16 body3d_rate_H17 body3d_rate_H18 body3d_rate_H20 body3d_rate_H21 body3d_rate_H22 body3d_rate_H23 body3d_rate_H24 body3d_rate_H25 body3d_rate_H26 body3d_rate_H27 body3d_rate_H28 body3d_rate_R00 body3d_rate_R01 body3d_rate_R02 body3d_rate_R10 body3d_rate_R11 body3d_rate_R12 body3d_rate_R20 body3d_rate_R21 body3d_rate_R22 body3d_rate_z0 body3d_rate_z1 body3d_rate_z2 : errstate_meas.
+#[global] Hint Unfold pos2d_H00 pos2d_H01 pos2d_H02 pos2d_H03 pos2d_H04 pos2d_H05 pos2d_H06 pos2d_H10 pos2d_H11 pos2d_H12 pos2d_H13 pos2d_H14 pos2d_H15 pos2d_H16 pos2d_R00 pos2d_R01 pos2d_R10 pos2d_R11 pos2d_z0 pos2d_z1 : errstate_meas.
+#[global] Hint Unfold pos2d_l_H00 pos2d_l_H01 pos2d_l_H02 pos2d_l_H03 pos2d_l_H04 pos2d_l_H05 pos2d_l_H06 pos2d_l_H10 pos2d_l_H11 pos2d_l_H12 pos2d_l_H13 pos2d_l_H14 pos2d_l_H15 pos2d_l_H16 pos2d_l_R00 pos2d_l_R01 pos2d_l_R10 pos2d_l_R11 pos2d_l_z0 pos2d_l_z1 : errstate_meas.
+#[global] Hint Unfold ned2d_H00 ned2d_H01 ned2d_H02 ned2d_H03 ned2d_H04 ned2d_H05 ned2d_H06 ned2d_H10 ned2d_H11 ned2d_H12 ned2d_H13 ned2d_H14 ned2d_H15 ned2d_H16 ned2d_R00 ned2d_R01 ned2d_R10 ned2d_R11 ned2d_z0 ned2d_z1 : errstate_meas.
+#[global] Hint Unfold ned2d_rate_H00 ned2d_rate_H01 ned2d_rate_H02 ned2d_rate_H03 ned2d_rate_H04 ned2d_rate_H05 ned2d_rate_H06 ned2d_rate_H10 ned2d_rate_H11 ned2d_rate_H12 ned2d_rate_H13 ned2d_rate_H14 ned2d_rate_H15 ned2d_rate_H16 ned2d_rate_R00 ned2d_rate_R01 ned2d_rate_R10 ned2d_rate_R11 ned2d_rate_z0 ned2d_rate_z1 : errstate_meas.
+#[global] Hint Unfold ned2d_l_H00 ned2d_l_H01 ned2d_l_H02 ned2d_l_H03 ned2d_l_H04 ned2d_l_H05 ned2d_l_H06 ned2d_l_H10 ned2d_l_H11 ned2d_l_H12 ned2d_l_H13 ned2d_l_H14 ned2d_l_H15 ned2d_l_H16 ned2d_l_R00 ned2d_l_R01 ned2d_l_R10 ned2d_l_R11 ned2d_l_z0 ned2d_l_z1 : errstate_meas.
+#[global] Hint Unfold ned2d_l_norate_H00 ned2d_l_norate_H01 ned2d_l_norate_H02 ned2d_l_norate_H03 ned2d_l_norate_H04 ned2d_l_norate_H05 ned2d_l_norate_H06 ned2d_l_norate_H10 ned2d_l_norate_H11 ned2d_l_norate_H12 ned2d_l_norate_H13 ned2d_l_norate_H14 ned2d_l_norate_H15 ned2d_l_norate_H16 ned2d_l_norate_R00 ned2d_l_norate_R01 ned2d_l_norate_R10 ned2d_l_norate_R11 ned2d_l_norate_z0 ned2d_l_norate_z1 : errstate_meas.
+#[global] Hint Unfold body2d_H00 body2d_H01 body2d_H02 body2d_H03 body2d_H04 body2d_H05 body2d_H06 body2d_H10 body2d_H11 body2d_H12 body2d_H13 body2d_H14 body2d_H15 body2d_H16 body2d_H20 body2d_H21 body2d_H22 body2d_H23 body2d_H24 body2d_H25 body2d_H26 body2d_R00 body2d_R01 body2d_R02 body2d_R10 body2d_R11 body2d_R12 body2d_R20 body2d_R21 body2d_R22 body2d_z0 body2d_z1 body2d_z2 : errstate_meas.
+#[global] Hint Unfold body2d_rate_H00 body2d_rate_H01 body2d_rate_H02 body2d_rate_H03 body2d_rate_H04 body2d_rate_H05 body2d_rate_H06 body2d_rate_H10 body2d_rate_H11 body2d_rate_H12 body2d_rate_H13 body2d_rate_H14 body2d_rate_H15 body2d_rate_H16 body2d_rate_H20 body2d_rate_H21 body2d_rate_H22 body2d_rate_H23 body2d_rate_H24 body2d_rate_H25 body2d_rate_H26 body2d_rate_R00 body2d_rate_R01 body2d_rate_R02 body2d_rate_R10 body2d_rate_R11 body2d_rate_R12 body2d_rate_R20 body2d_rate_R21 body2d_rate_R22 body2d_rate_z0 body2d_rate_z1 body2d_rate_z2 : errstate_meas.
+
+(** ** D.1  H is the Jacobian of the residual under the library's own correction: velocity classes
+    d/de z(correct_pva(pva, e x)) at 0 = - H x, for every measured value, lever arm, body rate. *)
+Section Meas3D.
+Variables lat lon alt VN VE VD roll pitch heading : R.
+Variables x0 x1 x2 x3 x4 x5 x6 x7 x8 : R.
+Variables rate_x rate_y rate_z l0 l1 l2 sd mlat mlon malt mVN mVE mVD mVX mVY mVZ : R.
+Hypothesis Hroll : -180 < roll < 180.
+Hypothesis Hpitch : -90 < pitch < 90.
+Hypothesis Hheading : -180 < heading < 180.
+
+Ltac corr_facts :=
+  pose proof (corr3_VN lat lon alt VN VE VD roll pitch heading x0 x1 x2 x3 x4 x5 x6 x7 x8) as FVN;
+  pose proof (corr3_VE lat lon alt VN VE VD roll pitch heading x0 x1 x2 x3 x4 x5 x6 x7 x8) as FVE;
+  pose proof (corr3_VD lat lon alt VN VE VD roll pitch heading x0 x1 x2 x3 x4 x5 x6 x7 x8) as FVD;
+  pose proof (corr3_roll lat lon alt VN VE VD roll pitch heading x0 x1 x2 x3 x4 x5 x6 x7 x8 Hroll Hpitch) as Froll;
+  pose proof (corr3_pitch lat lon alt VN VE VD roll pitch heading x0 x1 x2 x3 x4 x5 x6 x7 x8 Hpitch) as Fpitch;
+  pose proof (corr3_heading lat lon alt VN VE VD roll pitch heading x0 x1 x2 x3 x4 x5 x6 x7 x8 Hpitch Hheading) as Fheading;
+  destruct (corr3_at0 lat lon alt VN VE VD roll pitch heading x0 x1 x2 x3 x4 x5 x6 x7 x8 Hroll Hpitch Hheading)
+    as [Vlat [Vlon [Valt [VVN [VVE [VVD [Vroll [Vpitch Vheading]]]]]]]];
+  cbv beta in *;
+  pose proof (cos_d2r_pos pitch Hpitch) as Hcp; pose proof PI_neq0 as Hpi.
+
+Lemma H_is_jacobian_ned3d : forall k, (k < 3)%nat ->
+  is_derive (Zc_ned3d lat lon alt VN VE VD roll pitch heading mVN mVE mVD sd x0 x1 x2 x3 x4 x5 x6 x7 x8 k) 0
+    (- mvec 9 (Hm_ned3d lat lon alt VN VE VD roll pitch heading mVN mVE mVD sd) (vec9 x0 x1 x2 x3 x4 x5 x6 x7 x8) k).
+Proof.
+  intros k Hk. corr_facts.
+  idx k; cbv [Zc_ned3d on_corrected3d]; autounfold with errstate_meas; autounfold with ned3d_db;
+  (auto_derive; [splits; try exact I; eexists; eassumption|]);
+  try derive_val FVN; try derive_val FVE; try derive_val FVD;
+  try derive_val Froll; try derive_val Fpitch; try derive_val Fheading;
+  rewrite ?VVN, ?VVE, ?VVD, ?Vroll, ?Vpitch, ?Vheading;
+  cbv [mvec sumN Tout3 Hm_ned3d vec9];
+  autounfold with errstate_mat errstate_meas; autounfold with to_output3d_db ned3d_db;
+  trig_abbrev roll pitch heading;
+  first [ ring [Hr Hp Hh] | field_simplify_eq; [ring [Hr Hp Hh] | try split; try assumption; lra] ].
+Qed.
+
+Lemma H_is_jacobian_ned3d_rate : forall k, (k < 3)%nat ->
+  is_derive (Zc_ned3d_rate lat lon alt VN VE VD roll pitch heading rate_x rate_y rate_z mVN mVE mVD sd x0 x1 x2 x3 x4 x5 x6 x7 x8 k) 0
+    (- mvec 9 (Hm_ned3d_rate lat lon alt VN VE VD roll pitch heading rate_x rate_y rate_z mVN mVE mVD sd) (vec9 x0 x1 x2 x3 x4 x5 x6 x7 x8) k).
+Proof.
+  intros k Hk. corr_facts.
+  idx k; cbv [Zc_ned3d_rate on_corrected3d]; autounfold with errstate_meas; autounfold with ned3d_rate_db;
+  (auto_derive; [splits; try exact I; eexists; eassumption|]);
+  try derive_val FVN; try derive_val FVE; try derive_val FVD;
+  try derive_val Froll; try derive_val Fpitch; try derive_val Fheading;
+  rewrite ?VVN, ?VVE, ?VVD, ?Vroll, ?Vpitch, ?Vheading;
+  cbv [mvec sumN Tout3 Hm_ned3d_rate vec9];
+  autounfold with errstate_mat errstate_meas; autounfold with to_output3d_db ned3d_rate_db;
+  trig_abbrev roll pitch heading;
+  first [ ring [Hr Hp Hh] | field_simplify_eq; [ring [Hr Hp Hh] | try split; try assumption; lra] ].
+Qed.
+
+Lemma H_is_jacobian_ned3d_l : forall k, (k < 3)%nat ->
+  is_derive (Zc_ned3d_l lat lon alt VN VE VD roll pitch heading rate_x rate_y rate_z mVN mVE mVD l0 l1 l2 sd x0 x1 x2 x3 x4 x5 x6 x7 x8 k) 0
+    (- mvec 9 (Hm_ned3d_l lat lon alt VN VE VD roll pitch heading rate_x rate_y rate_z mVN mVE mVD l0 l1 l2 sd) (vec9 x0 x1 x2 x3 x4 x5 x6 x7 x8) k).
+Proof.
+  intros k Hk. corr_facts.
+  idx k; cbv [Zc_ned3d_l on_corrected3d]; autounfold with errstate_meas; autounfold with ned3d_l_db;
+  (auto_derive; [splits; try exact I; eexists; eassumption|]);
+  try derive_val FVN; try derive_val FVE; try derive_val FVD;
+  try derive_val Froll; try derive_val Fpitch; try derive_val Fheading;
+  rewrite ?VVN, ?VVE, ?VVD, ?Vroll, ?Vpitch, ?Vheading;
+  cbv [mvec sumN Tout3 Hm_ned3d_l vec9];
+  autounfold with errstate_mat errstate_meas; autounfold with to_output3d_db ned3d_l_db;
+  trig_abbrev roll pitch heading;
+  first [ ring [Hr Hp Hh] | field_simplify_eq; [ring [Hr Hp Hh] | try split; try assumption; lra] ].
+Qed.
+
+Lemma H_is_jacobian_ned3d_l_norate : forall k, (k < 3)%nat ->
+  is_derive (Zc_ned3d_l_norate lat lon alt VN VE VD roll pitch heading mVN mVE mVD l0 l1 l2 sd x0 x1 x2 x3 x4 x5 x6 x7 x8 k) 0
+    (- mvec 9 (Hm_ned3d_l_norate lat lon alt VN VE VD roll pitch heading mVN mVE mVD l0 l1 l2 sd) (vec9 x0 x1 x2 x3 x4 x5 x6 x7 x8) k).
+Proof.
+  intros k Hk. corr_facts.
+  idx k; cbv [Zc_ned3d_l_norate on_corrected3d]; autounfold with errstate_meas; autounfold with ned3d_l_norate_db;
+  (auto_derive; [splits; try exact I; eexists; eassumption|]);
+  try derive_val FVN; try derive_val FVE; try derive_val FVD;
+  try derive_val Froll; try derive_val Fpitch; try derive_val Fheading;
+  rewrite ?VVN, ?VVE, ?VVD, ?Vroll, ?Vpitch, ?Vheading;
+  cbv [mvec sumN Tout3 Hm_ned3d_l_norate vec9];
+  autounfold with errstate_mat errstate_meas; autounfold with to_output3d_db ned3d_l_norate_db;
+  trig_abbrev roll pitch heading;
+  first [ ring [Hr Hp Hh] | field_simplify_eq; [ring [Hr Hp Hh] | try split; try assumption; lra] ].
+Qed.
+
+Lemma H_is_jacobian_body3d : forall k, (k < 3)%nat ->
+  is_derive (Zc_body3d lat lon alt VN VE VD roll pitch heading mVX mVY mVZ sd x0 x1 x2 x3 x4 x5 x6 x7 x8 k) 0
+    (- mvec 9 (Hm_body3d lat lon alt VN VE VD roll pitch heading mVX mVY mVZ sd) (vec9 x0 x1 x2 x3 x4 x5 x6 x7 x8) k).
+Proof.
+  intros k Hk. corr_facts.
+  idx k; cbv [Zc_body3d on_corrected3d]; autounfold with errstate_meas; autounfold with body3d_db;
+  (auto_derive; [splits; try exact I; eexists; eassumption|]);
+  try derive_val FVN; try derive_val FVE; try derive_val FVD;
+  try derive_val Froll; try derive_val Fpitch; try derive_val Fheading;
+  rewrite ?VVN, ?VVE, ?VVD, ?Vroll, ?Vpitch, ?Vheading;
+  cbv [mvec sumN Tout3 Hm_body3d vec9];
+  autounfold with errstate_mat errstate_meas; autounfold with to_output3d_db body3d_db;
+  trig_abbrev roll pitch heading;
+  first [ ring [Hr Hp Hh] | field_simplify_eq; [ring [Hr Hp Hh] | try split; try assumption; lra] ].
+Qed.
+
+Lemma H_is_jacobian_body3d_rate : forall k, (k < 3)%nat ->
+  is_derive (Zc_body3d_rate lat lon alt VN VE VD roll pitch heading rate_x rate_y rate_z mVX mVY mVZ sd x0 x1 x2 x3 x4 x5 x6 x7 x8 k) 0
+    (- mvec 9 (Hm_body3d_rate lat lon alt VN VE VD roll pitch heading rate_x rate_y rate_z mVX mVY mVZ sd) (vec9 x0 x1 x2 x3 x4 x5 x6 x7 x8) k).
+Proof.
+  intros k Hk. corr_facts.
+  idx k; cbv [Zc_body3d_rate on_corrected3d]; autounfold with errstate_meas; autounfold with body3d_rate_db;
+  (auto_derive; [splits; try exact I; eexists; eassumption|]);
+  try derive_val FVN; try derive_val FVE; try derive_val FVD;
+  try derive_val Froll; try derive_val Fpitch; try derive_val Fheading;
+  rewrite ?VVN, ?VVE, ?VVD, ?Vroll, ?Vpitch, ?Vheading;
+  cbv [mvec sumN Tout3 Hm_body3d_rate vec9];
+  autounfold with errstate_mat errstate_meas; autounfold with to_output3d_db body3d_rate_db;
+  trig_abbrev roll pitch heading;
+  first [ ring [Hr Hp Hh] | field_simplify_eq; [ring [Hr Hp Hh] | try split; try assumption; lra] ].
+Qed.
+
+End Meas3D.
+
+Section Meas2D.
+Variables lat lon alt VN VE VD roll pitch heading : R.
+Variables x0 x1 x2 x3 x4 x5 x6 : R.
+Variables rate_x rate_y rate_z l0 l1 l2 sd mlat mlon malt mVN mVE mVD mVX mVY mVZ : R.
+Hypothesis Hroll : -180 < roll < 180.
+Hypothesis Hpitch : -90 < pitch < 90.
+Hypothesis Hheading : -180 < heading < 180.
+
+Ltac corr_facts :=
+  pose proof (corr2_VN lat lon alt VN VE VD roll pitch heading x0 x1 x2 x3 x4 x5 x6) as FVN;
+  pose proof (corr2_VE lat lon alt VN VE VD roll pitch heading x0 x1 x2 x3 x4 x5 x6) as FVE;
+  pose proof (corr2_VD lat lon alt VN VE VD roll pitch heading x0 x1 x2 x3 x4 x5 x6) as FVD;
+  pose proof (corr2_roll lat lon alt VN VE VD roll pitch heading x0 x1 x2 x3 x4 x5 x6 Hroll Hpitch) as Froll;
+  pose proof (corr2_pitch lat lon alt VN VE VD roll pitch heading x0 x1 x2 x3 x4 x5 x6 Hpitch) as Fpitch;
+  pose proof (corr2_heading lat lon alt VN VE VD roll pitch heading x0 x1 x2 x3 x4 x5 x6 Hpitch Hheading) as Fheading;
+  destruct (corr2_at0 lat lon alt VN VE VD roll pitch heading x0 x1 x2 x3 x4 x5 x6 Hroll Hpitch Hheading)
+    as [Vlat [Vlon [Valt [VVN [VVE [VVD [Vroll [Vpitch Vheading]]]]]]]];
+  cbv beta in *;
+  pose proof (cos_d2r_pos pitch Hpitch) as Hcp; pose proof PI_neq0 as Hpi.
+
+Lemma H_is_jacobian_ned2d : forall k, (k < 2)%nat ->
+  is_derive (Zc_ned2d lat lon alt VN VE VD roll pitch heading mVN mVE mVD sd x0 x1 x2 x3 x4 x5 x6 k) 0
+    (- mvec 7 (Hm_ned2d lat lon alt VN VE VD roll pitch heading mVN mVE mVD sd) (vec7 x0 x1 x2 x3 x4 x5 x6) k).
+Proof.
+  intros k Hk. corr_facts.
+  idx k; cbv [Zc_ned2d on_corrected2d]; autounfold with errstate_meas; autounfold with ned2d_db;
+  (auto_derive; [splits; try exact I; eexists; eassumption|]);
+  try derive_val FVN; try derive_val FVE; try derive_val FVD;
+  try derive_val Froll; try derive_val Fpitch; try derive_val Fheading;
+  rewrite ?VVN, ?VVE, ?VVD, ?Vroll, ?Vpitch, ?Vheading;
+  cbv [mvec sumN Tout2 Hm_ned2d vec7];
+  autounfold with errstate_mat errstate_meas; autounfold with to_output2d_db ned2d_db;
+  trig_abbrev roll pitch heading;
+  first [ ring [Hr Hp Hh] | field_simplify_eq; [ring [Hr Hp Hh] | try split; try assumption; lra] ].
+Qed.
+
+Lemma H_is_jacobian_ned2d_rate : forall k, (k < 2)%nat ->
+  is_derive (Zc_ned2d_rate lat lon alt VN VE VD roll pitch heading rate_x rate_y rate_z mVN mVE mVD sd x0 x1 x2 x3 x4 x5 x6 k) 0
+    (- mvec 7 (Hm_ned2d_rate lat lon alt VN VE VD roll pitch heading rate_x rate_y rate_z mVN mVE mVD sd) (vec7 x0 x1 x2 x3 x4 x5 x6) k).
+Proof.
+  intros k Hk. corr_facts.
+  idx k; cbv [Zc_ned2d_rate on_corrected2d]; autounfold with errstate_meas; autounfold with ned2d_rate_db;
+  (auto_derive; [splits; try exact I; eexists; eassumption|]);
+  try derive_val FVN; try derive_val FVE; try derive_val FVD;
+  try derive_val Froll; try derive_val Fpitch; try derive_val Fheading;
+  rewrite ?VVN, ?VVE, ?VVD, ?Vroll, ?Vpitch, ?Vheading;
+  cbv [mvec sumN Tout2 Hm_ned2d_rate vec7];
+  autounfold with errstate_mat errstate_meas; autounfold with to_output2d_db ned2d_rate_db;
+  trig_abbrev roll pitch heading;
+  first [ ring [Hr Hp Hh] | field_simplify_eq; [ring [Hr Hp Hh] | try split; try assumption; lra] ].
+Qed.
+
+Lemma H_is_jacobian_ned2d_l : forall k, (k < 2)%nat ->
+  is_derive (Zc_ned2d_l lat lon alt VN VE VD roll pitch heading rate_x rate_y rate_z mVN mVE mVD l0 l1 l2 sd x0 x1 x2 x3 x4 x5 x6 k) 0
+    (- mvec 7 (Hm_ned2d_l lat lon alt VN VE VD roll pitch heading rate_x rate_y rate_z mVN mVE mVD l0 l1 l2 sd) (vec7 x0 x1 x2 x3 x4 x5 x6) k).
+Proof.
+  intros k Hk. corr_facts.
+  idx k; cbv [Zc_ned2d_l on_corrected2d]; autounfold with errstate_meas; autounfold with ned2d_l_db;
+  (auto_derive; [splits; try exact I; eexists; eassumption|]);
+  try derive_val FVN; try derive_val FVE; try derive_val FVD;
+  try derive_val Froll; try derive_val Fpitch; try derive_val Fheading;
+  rewrite ?VVN, ?VVE, ?VVD, ?Vroll, ?Vpitch, ?Vheading;
+  cbv [mvec sumN Tout2 Hm_ned2d_l vec7];
+  autounfold with errstate_mat errstate_meas; autounfold with to_output2d_db ned2d_l_db;
+  trig_abbrev roll pitch heading;
+  first [ ring [Hr Hp Hh] | field_simplify_eq; [ring [Hr Hp Hh] | try split; try assumption; lra] ].
+Qed.
+
+Lemma H_is_jacobian_ned2d_l_norate : forall k, (k < 2)%nat ->
+  is_derive (Zc_ned2d_l_norate lat lon alt VN VE VD roll pitch heading mVN mVE mVD l0 l1 l2 sd x0 x1 x2 x3 x4 x5 x6 k) 0
+    (- mvec 7 (Hm_ned2d_l_norate lat lon alt VN VE VD roll pitch heading mVN mVE mVD l0 l1 l2 sd) (vec7 x0 x1 x2 x3 x4 x5 x6) k).
+Proof.
+  intros k Hk. corr_facts.
+  idx k; cbv [Zc_ned2d_l_norate on_corrected2d]; autounfold with errstate_meas; autounfold with ned2d_l_norate_db;
+  (auto_derive; [splits; try exact I; eexists; eassumption|]);
+  try derive_val FVN; try derive_val FVE; try derive_val FVD;
+  try derive_val Froll; try derive_val Fpitch; try derive_val Fheading;
+  rewrite ?VVN, ?VVE, ?VVD, ?Vroll, ?Vpitch, ?Vheading;
+  cbv [mvec sumN Tout2 Hm_ned2d_l_norate vec7];
+  autounfold with errstate_mat errstate_meas; autounfold with to_output2d_db ned2d_l_norate_db;
+  trig_abbrev roll pitch heading;
+  first [ ring [Hr Hp Hh] | field_simplify_eq; [ring [Hr Hp Hh] | try split; try assumption; lra] ].
+Qed.
+
+Lemma H_is_jacobian_body2d : forall k, (k < 3)%nat ->
+  is_derive (Zc_body2d lat lon alt VN VE VD roll pitch heading mVX mVY mVZ sd x0 x1 x2 x3 x4 x5 x6 k) 0
+    (- mvec 7 (Hm_body2d lat lon alt VN VE VD roll pitch heading mVX mVY mVZ sd) (vec7 x0 x1 x2 x3 x4 x5 x6) k).
+Proof.
+  intros k Hk. corr_facts.
+  idx k; cbv [Zc_body2d on_corrected2d]; autounfold with errstate_meas; autounfold with body2d_db;
+  (auto_derive; [splits; try exact I; eexists; eassumption|]);
+  try derive_val FVN; try derive_val FVE; try derive_val FVD;
+  try derive_val Froll; try derive_val Fpitch; try derive_val Fheading;
+  rewrite ?VVN, ?VVE, ?VVD, ?Vroll, ?Vpitch, ?Vheading;
+  cbv [mvec sumN Tout2 Hm_body2d vec7];
+  autounfold with errstate_mat errstate_meas; autounfold with to_output2d_db body2d_db;
+  trig_abbrev roll pitch heading;
+  first [ ring [Hr Hp Hh] | field_simplify_eq; [ring [Hr Hp Hh] | try split; try assumption; lra] ].
+Qed.
+
+Lemma H_is_jacobian_body2d_rate : forall k, (k < 3)%nat ->
+  is_derive (Zc_body2d_rate lat lon alt VN VE VD roll pitch heading rate_x rate_y rate_z mVX mVY mVZ sd x0 x1 x2 x3 x4 x5 x6 k) 0
+    (- mvec 7 (Hm_body2d_rate lat lon alt VN VE VD roll pitch heading rate_x rate_y rate_z mVX mVY mVZ sd) (vec7 x0 x1 x2 x3 x4 x5 x6) k).
+Proof.
+  intros k Hk. corr_facts.
+  idx k; cbv [Zc_body2d_rate on_corrected2d]; autounfold with errstate_meas; autounfold with body2d_rate_db;
+  (auto_derive; [splits; try exact I; eexists; eassumption|]);
+  try derive_val FVN; try derive_val FVE; try derive_val FVD;
+  try derive_val Froll; try derive_val Fpitch; try derive_val Fheading;
+  rewrite ?VVN, ?VVE, ?VVD, ?Vroll, ?Vpitch, ?Vheading;
+  cbv [mvec sumN Tout2 Hm_body2d_rate vec7];
+  autounfold with errstate_mat errstate_meas; autounfold with to_output2d_db body2d_rate_db;
+  trig_abbrev roll pitch heading;
+  first [ ring [Hr Hp Hh] | field_simplify_eq; [ring [Hr Hp Hh] | try split; try assumption; lra] ].
+Qed.
+
+End Meas2D.
+
+(** ** D.2  Position class.  The residual uses compute_lla_difference with the radii at the MID point of
+    predicted and measured position, so H is the exact Jacobian at the linearisation point
+    "measured position = predicted position" (the three measured arguments are lat lon alt below);
+    away from it the two differ by a relative O(|z| / Earth radius) -- see tools/props/C06.py. *)
+Section Pos3D.
+Variables lat lon alt VN VE VD roll pitch heading : R.
+Variables x0 x1 x2 x3 x4 x5 x6 x7 x8 : R.
+Variables l0 l1 l2 sd : R.
+Hypothesis Hlat : -90 < lat < 90.
+Hypothesis Halt : -1000000 <= alt.
+Hypothesis Hroll : -180 < roll < 180.
+Hypothesis Hpitch : -90 < pitch < 90.
+Hypothesis Hheading : -180 < heading < 180.
+
+Ltac corr_facts :=
+  pose proof (corr3_alt lat lon alt VN VE VD roll pitch heading x0 x1 x2 x3 x4 x5 x6 x7 x8) as Falt;
+  pose proof (corr3_roll lat lon alt VN VE VD roll pitch heading x0 x1 x2 x3 x4 x5 x6 x7 x8 Hroll Hpitch) as Froll;
+  pose proof (corr3_pitch lat lon alt VN VE VD roll pitch heading x0 x1 x2 x3 x4 x5 x6 x7 x8 Hpitch) as Fpitch;
+  pose proof (corr3_heading lat lon alt VN VE VD roll pitch heading x0 x1 x2 x3 x4 x5 x6 x7 x8 Hpitch Hheading) as Fheading;
+  destruct (corr3_at0 lat lon alt VN VE VD roll pitch heading x0 x1 x2 x3 x4 x5 x6 x7 x8 Hroll Hpitch Hheading)
+    as [Vlat [Vlon [Valt [VVN [VVE [VVD [Vroll [Vpitch Vheading]]]]]]]];
+  cbv beta in *;
+  pose proof (cos_d2r_pos pitch Hpitch) as Hcp; pose proof PI_neq0 as Hpi;
+  pose proof (rn_pos (lat * (PI/180)) alt Halt) as Hrn;
+  pose proof (re_pos (lat * (PI/180)) alt Halt) as Hre;
+  pose proof (cos_d2r_pos lat Hlat) as Hcos;
+  assert (Hs : sqrt (1 - sin (lat * (PI/180)) * sin (lat * (PI/180))) = cos (lat * (PI/180)))
+    by (apply sqrt_1msin2; lra).
+
+Ltac clean0 :=
+  repeat match goal with |- context [lat + - (0 * x0) / ?K0 * (180 / PI)] =>
+    replace (lat + - (0 * x0) / K0 * (180 / PI)) with lat by (unfold Rdiv; ring) end;
+  repeat match goal with |- context [lat + - (0 * x0) * / ?K0 * (180 / PI)] =>
+    replace (lat + - (0 * x0) * / K0 * (180 / PI)) with lat by (unfold Rdiv; ring) end;
+  try replace (alt - - (0 * x2)) with alt by ring.
+Ltac clean_mid2 :=
+  replace (1 / 2 * (lat + lat)) with lat by field;
+  try replace (1 / 2 * (alt + alt)) with alt by field.
+
+Lemma H_is_jacobian_pos3d_0 :
+  is_derive (Zc_pos3d lat lon alt VN VE VD roll pitch heading lat lon alt sd x0 x1 x2 x3 x4 x5 x6 x7 x8 0) 0
+    (- mvec 9 (Hm_pos3d lat lon alt VN VE VD roll pitch heading lat lon alt sd) (vec9 x0 x1 x2 x3 x4 x5 x6 x7 x8) 0).
+Proof.
+  corr_facts. cbv [Zc_pos3d on_corrected3d]. unfold pos3d_z0.
+  evar_last.
+  - idtac.
+      unfold along3. unfold correct3d_lat, correct3d_lon, correct3d_alt.
+      match goal with |- is_derive (fun e => (lat + - (e * x0) / ?K * (180 / PI) - lat) * (PI / 180) * _) 0 _ =>
+        set (k := K) in * end.
+      match goal with |- is_derive (fun e => (lat + - (e * x0) / k * (180 / PI) - lat) * (PI / 180) * @?Q e) 0 _ =>
+        apply (is_derive_ext (fun e => e * (- x0 * / k * (180 / PI) * (PI / 180) * Q e)));
+        [ intro e; cbv beta; unfold Rdiv; eqR; ring | apply is_derive_e_times; [|reflexivity] ]
+      end.
+      autounfold with pos3d_db; auto_derive; clean0; clean_mid2;
+      splits; try exact I; try (apply Rgt_not_eq); try (exact (W_pos' _)); try (exact (sqrtW_pos _));
+      pose proof (sc1 (lat * (PI / 180))); nra.
+  - cbv beta. clean0;
+    autounfold with pos3d_db; clean_mid2; autounfold with correct3d_db;
+    cbv [mvec sumN Tout3 Hm_pos3d vec9];
+    autounfold with errstate_mat errstate_meas; autounfold with to_output3d_db pos3d_db;
+    rewrite ?Hs;
+    match type of Hrn with 0 < ?r + alt => set (rn := r) in * end;
+    match type of Hre with 0 < ?r + alt => set (re := r) in * end;
+    trig_abbrev roll pitch heading;
+    first [ ring [Hr Hp Hh] | field_simplify_eq; [ring [Hr Hp Hh] | splits; try assumption; lra] ].
+Qed.
+
+Lemma H_is_jacobian_pos3d_1 :
+  is_derive (Zc_pos3d lat lon alt VN VE VD roll pitch heading lat lon alt sd x0 x1 x2 x3 x4 x5 x6 x7 x8 1) 0
+    (- mvec 9 (Hm_pos3d lat lon alt VN VE VD roll pitch heading lat lon alt sd) (vec9 x0 x1 x2 x3 x4 x5 x6 x7 x8) 1).
+Proof.
+  corr_facts. cbv [Zc_pos3d on_corrected3d]. unfold pos3d_z1.
+  evar_last.
+  - idtac.
+      unfold along3. unfold correct3d_lat, correct3d_lon, correct3d_alt.
+      match goal with |- is_derive (fun e => (lon + - (e * x1) / ?K * (180 / PI) - lon) * (PI / 180) * _) 0 _ =>
+        set (k := K) in * end.
+      match goal with |- is_derive (fun e => (lon + - (e * x1) / k * (180 / PI) - lon) * (PI / 180) * @?Q e) 0 _ =>
+        apply (is_derive_ext (fun e => e * (- x1 * / k * (180 / PI) * (PI / 180) * Q e)));
+        [ intro e; cbv beta; unfold Rdiv; eqR; ring | apply is_derive_e_times; [|reflexivity] ]
+      end.
+      autounfold with pos3d_db; auto_derive; clean0; clean_mid2;
+      splits; try exact I; try (apply Rgt_not_eq); try (exact (W_pos' _)); try (exact (sqrtW_pos _));
+      pose proof (sc1 (lat * (PI / 180))); nra.
+  - cbv beta. clean0;
+    autounfold with pos3d_db; clean_mid2; autounfold with correct3d_db;
+    cbv [mvec sumN Tout3 Hm_pos3d vec9];
+    autounfold with errstate_mat errstate_meas; autounfold with to_output3d_db pos3d_db;
+    rewrite ?Hs;
+    match type of Hrn with 0 < ?r + alt => set (rn := r) in * end;
+    match type of Hre with 0 < ?r + alt => set (re := r) in * end;
+    trig_abbrev roll pitch heading;
+    first [ ring [Hr Hp Hh] | field_simplify_eq; [ring [Hr Hp Hh] | splits; try assumption; lra] ].
+Qed.
+
+Lemma H_is_jacobian_pos3d_2 :
+  is_derive (Zc_pos3d lat lon alt VN VE VD roll pitch heading lat lon alt sd x0 x1 x2 x3 x4 x5 x6 x7 x8 2) 0
+    (- mvec 9 (Hm_pos3d lat lon alt VN VE VD roll pitch heading lat lon alt sd) (vec9 x0 x1 x2 x3 x4 x5 x6 x7 x8) 2).
+Proof.
+  corr_facts. cbv [Zc_pos3d on_corrected3d]. unfold pos3d_z2.
+  autounfold with pos3d_db.
+  auto_derive; [splits; try exact I; eexists; eassumption|].
+  derive_val Falt. try derive_val Froll. try derive_val Fpitch. try derive_val Fheading.
+  rewrite ?Valt, ?Vroll, ?Vpitch, ?Vheading.
+  cbv [mvec sumN Tout3 Hm_pos3d vec9];
+  autounfold with errstate_mat errstate_meas; autounfold with to_output3d_db pos3d_db;
+  trig_abbrev roll pitch heading;
+  first [ ring [Hr Hp Hh] | field_simplify_eq; [ring [Hr Hp Hh] | splits; try assumption; lra] ].
+Qed.
+
+Lemma H_is_jacobian_pos3d_l_0 :
+  is_derive (Zc_pos3d_l lat lon alt VN VE VD roll pitch heading lat lon alt l0 l1 l2 sd x0 x1 x2 x3 x4 x5 x6 x7 x8 0) 0
+    (- mvec 9 (Hm_pos3d_l lat lon alt VN VE VD roll pitch heading lat lon alt l0 l1 l2 sd) (vec9 x0 x1 x2 x3 x4 x5 x6 x7 x8) 0).
+Proof.
+  corr_facts. cbv [Zc_pos3d_l on_corrected3d]. unfold pos3d_l_z0.
+  evar_last.
+  - apply (is_derive_plus (V := R_NormedModule)).
+    + idtac.
+      unfold along3. unfold correct3d_lat, correct3d_lon, correct3d_alt.
+      match goal with |- is_derive (fun e => (lat + - (e * x0) / ?K * (180 / PI) - lat) * (PI / 180) * _) 0 _ =>
+        set (k := K) in * end.
+      match goal with |- is_derive (fun e => (lat + - (e * x0) / k * (180 / PI) - lat) * (PI / 180) * @?Q e) 0 _ =>
+        apply (is_derive_ext (fun e => e * (- x0 * / k * (180 / PI) * (PI / 180) * Q e)));
+        [ intro e; cbv beta; unfold Rdiv; eqR; ring | apply is_derive_e_times; [|reflexivity] ]
+      end.
+      autounfold with pos3d_l_db; auto_derive; clean0; clean_mid2;
+      splits; try exact I; try (apply Rgt_not_eq); try (exact (W_pos' _)); try (exact (sqrtW_pos _));
+      pose proof (sc1 (lat * (PI / 180))); nra.
+    + autounfold with pos3d_l_db. auto_derive; [splits; try exact I; eexists; eassumption|]. reflexivity.
+  - cbv beta. unfold plus; simpl.
+    derive_val Froll. derive_val Fpitch. derive_val Fheading. rewrite ?Vroll, ?Vpitch, ?Vheading.
+    clean0;
+    autounfold with pos3d_l_db; clean_mid2; autounfold with correct3d_db;
+    cbv [mvec sumN Tout3 Hm_pos3d_l vec9];
+    autounfold with errstate_mat errstate_meas; autounfold with to_output3d_db pos3d_l_db;
+    rewrite ?Hs;
+    match type of Hrn with 0 < ?r + alt => set (rn := r) in * end;
+    match type of Hre with 0 < ?r + alt => set (re := r) in * end;
+    trig_abbrev roll pitch heading;
+    first [ ring [Hr Hp Hh] | field_simplify_eq; [ring [Hr Hp Hh] | splits; try assumption; lra] ].
+Qed.
+
+Lemma H_is_jacobian_pos3d_l_1 :
+  is_derive (Zc_pos3d_l lat lon alt VN VE VD roll pitch heading lat lon alt l0 l1 l2 sd x0 x1 x2 x3 x4 x5 x6 x7 x8 1) 0
+    (- mvec 9 (Hm_pos3d_l lat lon alt VN VE VD roll pitch heading lat lon alt l0 l1 l2 sd) (vec9 x0 x1 x2 x3 x4 x5 x6 x7 x8) 1).
+Proof.
+  corr_facts. cbv [Zc_pos3d_l on_corrected3d]. unfold pos3d_l_z1.
+  evar_last.
+  - apply (is_derive_plus (V := R_NormedModule)).
+    + idtac.
+      unfold along3. unfold correct3d_lat, correct3d_lon, correct3d_alt.
+      match goal with |- is_derive (fun e => (lon + - (e * x1) / ?K * (180 / PI) - lon) * (PI / 180) * _) 0 _ =>
+        set (k := K) in * end.
+      match goal with |- is_derive (fun e => (lon + - (e * x1) / k * (180 / PI) - lon) * (PI / 180) * @?Q e) 0 _ =>
+        apply (is_derive_ext (fun e => e * (- x1 * / k * (180 / PI) * (PI / 180) * Q e)));
+        [ intro e; cbv beta; unfold Rdiv; eqR; ring | apply is_derive_e_times; [|reflexivity] ]
+      end.
+      autounfold with pos3d_l_db; auto_derive; clean0; clean_mid2;
+      splits; try exact I; try (apply Rgt_not_eq); try (exact (W_pos' _)); try (exact (sqrtW_pos _));
+      pose proof (sc1 (lat * (PI / 180))); nra.
+    + autounfold with pos3d_l_db. auto_derive; [splits; try exact I; eexists; eassumption|]. reflexivity.
+  - cbv beta. unfold plus; simpl.
+    derive_val Froll. derive_val Fpitch. derive_val Fheading. rewrite ?Vroll, ?Vpitch, ?Vheading.
+    clean0;
+    autounfold with pos3d_l_db; clean_mid2; autounfold with correct3d_db;
+    cbv [mvec sumN Tout3 Hm_pos3d_l vec9];
+    autounfold with errstate_mat errstate_meas; autounfold with to_output3d_db pos3d_l_db;
+    rewrite ?Hs;
+    match type of Hrn with 0 < ?r + alt => set (rn := r) in * end;
+    match type of Hre with 0 < ?r + alt => set (re := r) in * end;
+    trig_abbrev roll pitch heading;
+    first [ ring [Hr Hp Hh] | field_simplify_eq; [ring [Hr Hp Hh] | splits; try assumption; lra] ].
+Qed.
+
+Lemma H_is_jacobian_pos3d_l_2 :
+  is_derive (Zc_pos3d_l lat lon alt VN VE VD roll pitch heading lat lon alt l0 l1 l2 sd x0 x1 x2 x3 x4 x5 x6 x7 x8 2) 0
+    (- mvec 9 (Hm_pos3d_l lat lon alt VN VE VD roll pitch heading lat lon alt l0 l1 l2 sd) (vec9 x0 x1 x2 x3 x4 x5 x6 x7 x8) 2).
+Proof.
+  corr_facts. cbv [Zc_pos3d_l on_corrected3d]. unfold pos3d_l_z2.
+  autounfold with pos3d_l_db.
+  auto_derive; [splits; try exact I; eexists; eassumption|].
+  derive_val Falt. try derive_val Froll. try derive_val Fpitch. try derive_val Fheading.
+  rewrite ?Valt, ?Vroll, ?Vpitch, ?Vheading.
+  cbv [mvec sumN Tout3 Hm_pos3d_l vec9];
+  autounfold with errstate_mat errstate_meas; autounfold with to_output3d_db pos3d_l_db;
+  trig_abbrev roll pitch heading;
+  first [ ring [Hr Hp Hh] | field_simplify_eq; [ring [Hr Hp Hh] | splits; try assumption; lra] ].
+Qed.
+
+End Pos3D.
+
+Section Pos2D.
+Variables lat lon alt VN VE VD roll pitch heading : R.
+Variables x0 x1 x2 x3 x4 x5 x6 : R.
+Variables l0 l1 l2 sd : R.
+Hypothesis Hlat : -90 < lat < 90.
+Hypothesis Halt : -1000000 <= alt.
+Hypothesis Hroll : -180 < roll < 180.
+Hypothesis Hpitch : -90 < pitch < 90.
+Hypothesis Hheading : -180 < heading < 180.
+
+Ltac corr_facts :=
+  pose proof (corr2_alt lat lon alt VN VE VD roll pitch heading x0 x1 x2 x3 x4 x5 x6) as Falt;
+  pose proof (corr2_roll lat lon alt VN VE VD roll pitch heading x0 x1 x2 x3 x4 x5 x6 Hroll Hpitch) as Froll;
+  pose proof (corr2_pitch lat lon alt VN VE VD roll pitch heading x0 x1 x2 x3 x4 x5 x6 Hpitch) as Fpitch;
+  pose proof (corr2_heading lat lon alt VN VE VD roll pitch heading x0 x1 x2 x3 x4 x5 x6 Hpitch Hheading) as Fheading;
+  destruct (corr2_at0 lat lon alt VN VE VD roll pitch heading x0 x1 x2 x3 x4 x5 x6 Hroll Hpitch Hheading)
+    as [Vlat [Vlon [Valt [VVN [VVE [VVD [Vroll [Vpitch Vheading]]]]]]]];
+  cbv beta in *;
+  pose proof (cos_d2r_pos pitch Hpitch) as Hcp; pose proof PI_neq0 as Hpi;
+  pose proof (rn_pos (lat * (PI/180)) alt Halt) as Hrn;
+  pose proof (re_pos (lat * (PI/180)) alt Halt) as Hre;
+  pose proof (cos_d2r_pos lat Hlat) as Hcos;
+  assert (Hs : sqrt (1 - sin (lat * (PI/180)) * sin (lat * (PI/180))) = cos (lat * (PI/180)))
+    by (apply sqrt_1msin2; lra).
+
+Ltac clean0 :=
+  repeat match goal with |- context [lat + - (0 * x0) / ?K0 * (180 / PI)] =>
+    replace (lat + - (0 * x0) / K0 * (180 / PI)) with lat by (unfold Rdiv; ring) end;
+  repeat match goal with |- context [lat + - (0 * x0) * / ?K0 * (180 / PI)] =>
+    replace (lat + - (0 * x0) * / K0 * (180 / PI)) with lat by (unfold Rdiv; ring) end;
+  try replace (alt - - (0 * x2)) with alt by ring.
+Ltac clean_mid2 :=
+  replace (1 / 2 * (lat + lat)) with lat by field;
+  try replace (1 / 2 * (alt + alt)) with alt by field.
+
+Lemma H_is_jacobian_pos2d_0 :
+  is_derive (Zc_pos2d lat lon alt VN VE VD roll pitch heading lat lon alt sd x0 x1 x2 x3 x4 x5 x6 0) 0
+    (- mvec 7 (Hm_pos2d lat lon alt VN VE VD roll pitch heading lat lon alt sd) (vec7 x0 x1 x2 x3 x4 x5 x6) 0).
+Proof.
+  corr_facts. cbv [Zc_pos2d on_corrected2d]. unfold pos2d_z0.
+  evar_last.
+  - idtac.
+      unfold along2. unfold correct2d_lat, correct2d_lon, correct2d_alt.
+      match goal with |- is_derive (fun e => (lat + - (e * x0) / ?K * (180 / PI) - lat) * (PI / 180) * _) 0 _ =>
+        set (k := K) in * end.
+      match goal with |- is_derive (fun e => (lat + - (e * x0) / k * (180 / PI) - lat) * (PI / 180) * @?Q e) 0 _ =>
+        apply (is_derive_ext (fun e => e * (- x0 * / k * (180 / PI) * (PI / 180) * Q e)));
+        [ intro e; cbv beta; unfold Rdiv; eqR; ring | apply is_derive_e_times; [|reflexivity] ]
+      end.
+      autounfold with pos2d_db; auto_derive; clean0; clean_mid2;
+      splits; try exact I; try (apply Rgt_not_eq); try (exact (W_pos' _)); try (exact (sqrtW_pos _));
+      pose proof (sc1 (lat * (PI / 180))); nra.
+  - cbv beta. clean0;
+    autounfold with pos2d_db; clean_mid2; autounfold with correct2d_db;
+    cbv [mvec sumN Tout2 Hm_pos2d vec7];
+    autounfold with errstate_mat errstate_meas; autounfold with to_output2d_db pos2d_db;
+    rewrite ?Hs;
+    match type of Hrn with 0 < ?r + alt => set (rn := r) in * end;
+    match type of Hre with 0 < ?r + alt => set (re := r) in * end;
+    trig_abbrev roll pitch heading;
+    first [ ring [Hr Hp Hh] | field_simplify_eq; [ring [Hr Hp Hh] | splits; try assumption; lra] ].
+Qed.
+
+Lemma H_is_jacobian_pos2d_1 :
+  is_derive (Zc_pos2d lat lon alt VN VE VD roll pitch heading lat lon alt sd x0 x1 x2 x3 x4 x5 x6 1) 0
+    (- mvec 7 (Hm_pos2d lat lon alt VN VE VD roll pitch heading lat lon alt sd) (vec7 x0 x1 x2 x3 x4 x5 x6) 1).
+Proof.
+  corr_facts. cbv [Zc_pos2d on_corrected2d]. unfold pos2d_z1.
+  evar_last.
+  - idtac.
+      unfold along2. unfold correct2d_lat, correct2d_lon, correct2d_alt.
+      match goal with |- is_derive (fun e => (lon + - (e * x1) / ?K * (180 / PI) - lon) * (PI / 180) * _) 0 _ =>
+        set (k := K) in * end.
+      match goal with |- is_derive (fun e => (lon + - (e * x1) / k * (180 / PI) - lon) * (PI / 180) * @?Q e) 0 _ =>
+        apply (is_derive_ext (fun e => e * (- x1 * / k * (180 / PI) * (PI / 180) * Q e)));
+        [ intro e; cbv beta; unfold Rdiv; eqR; ring | apply is_derive_e_times; [|reflexivity] ]
+      end.
+      autounfold with pos2d_db; auto_derive; clean0; clean_mid2;
+      splits; try exact I; try (apply Rgt_not_eq); try (exact (W_pos' _)); try (exact (sqrtW_pos _));
+      pose proof (sc1 (lat * (PI / 180))); nra.
+  - cbv beta. clean0;
+    autounfold with pos2d_db; clean_mid2; autounfold with correct2d_db;
+    cbv [mvec sumN Tout2 Hm_pos2d vec7];
+    autounfold with errstate_mat errstate_meas; autounfold with to_output2d_db pos2d_db;
+    rewrite ?Hs;
+    match type of Hrn with 0 < ?r + alt => set (rn := r) in * end;
+    match type of Hre with 0 < ?r + alt => set (re := r) in * end;
+    trig_abbrev roll pitch heading;
+    first [ ring [Hr Hp Hh] | field_simplify_eq; [ring [Hr Hp Hh] | splits; try assumption; lra] ].
+Qed.
+
+Lemma H_is_jacobian_pos2d_l_0 :
+  is_derive (Zc_pos2d_l lat lon alt VN VE VD roll pitch heading lat lon alt l0 l1 l2 sd x0 x1 x2 x3 x4 x5 x6 0) 0
+    (- mvec 7 (Hm_pos2d_l lat lon alt VN VE VD roll pitch heading lat lon alt l0 l1 l2 sd) (vec7 x0 x1 x2 x3 x4 x5 x6) 0).
+Proof.
+  corr_facts. cbv [Zc_pos2d_l on_corrected2d]. unfold pos2d_l_z0.
+  evar_last.
+  - apply (is_derive_plus (V := R_NormedModule)).
+    + idtac.
+      unfold along2. unfold correct2d_lat, correct2d_lon, correct2d_alt.
+      match goal with |- is_derive (fun e => (lat + - (e * x0) / ?K * (180 / PI) - lat) * (PI / 180) * _) 0 _ =>
+        set (k := K) in * end.
+      match goal with |- is_derive (fun e => (lat + - (e * x0) / k * (180 / PI) - lat) * (PI / 180) * @?Q e) 0 _ =>
+        apply (is_derive_ext (fun e => e * (- x0 * / k * (180 / PI) * (PI / 180) * Q e)));
+        [ intro e; cbv beta; unfold Rdiv; eqR; ring | apply is_derive_e_times; [|reflexivity] ]
+      end.
+      autounfold with pos2d_l_db; auto_derive; clean0; clean_mid2;
+      splits; try exact I; try (apply Rgt_not_eq); try (exact (W_pos' _)); try (exact (sqrtW_pos _));
+      pose proof (sc1 (lat * (PI / 180))); nra.
+    + autounfold with pos2d_l_db. auto_derive; [splits; try exact I; eexists; eassumption|]. reflexivity.
+  - cbv beta. unfold plus; simpl.
+    derive_val Froll. derive_val Fpitch. derive_val Fheading. rewrite ?Vroll, ?Vpitch, ?Vheading.
+    clean0;
+    autounfold with pos2d_l_db; clean_mid2; autounfold with correct2d_db;
+    cbv [mvec sumN Tout2 Hm_pos2d_l vec7];
+    autounfold with errstate_mat errstate_meas; autounfold with to_output2d_db pos2d_l_db;
+    rewrite ?Hs;
+    match type of Hrn with 0 < ?r + alt => set (rn := r) in * end;
+    match type of Hre with 0 < ?r + alt => set (re := r) in * end;
+    trig_abbrev roll pitch heading;
+    first [ ring [Hr Hp Hh] | field_simplify_eq; [ring [Hr Hp Hh] | splits; try assumption; lra] ].
+Qed.
+
+Lemma H_is_jacobian_pos2d_l_1 :
+  is_derive (Zc_pos2d_l lat lon alt VN VE VD roll pitch heading lat lon alt l0 l1 l2 sd x0 x1 x2 x3 x4 x5 x6 1) 0
+    (- mvec 7 (Hm_pos2d_l lat lon alt VN VE VD roll pitch heading lat lon alt l0 l1 l2 sd) (vec7 x0 x1 x2 x3 x4 x5 x6) 1).
+Proof.
+  corr_facts. cbv [Zc_pos2d_l on_corrected2d]. unfold pos2d_l_z1.
+  evar_last.
+  - apply (is_derive_plus (V := R_NormedModule)).
+    + idtac.
+      unfold along2. unfold correct2d_lat, correct2d_lon, correct2d_alt.
+      match goal with |- is_derive (fun e => (lon + - (e * x1) / ?K * (180 / PI) - lon) * (PI / 180) * _) 0 _ =>
+        set (k := K) in * end.
+      match goal with |- is_derive (fun e => (lon + - (e * x1) / k * (180 / PI) - lon) * (PI / 180) * @?Q e) 0 _ =>
+        apply (is_derive_ext (fun e => e * (- x1 * / k * (180 / PI) * (PI / 180) * Q e)));
+        [ intro e; cbv beta; unfold Rdiv; eqR; ring | apply is_derive_e_times; [|reflexivity] ]
+      end.
+      autounfold with pos2d_l_db; auto_derive; clean0; clean_mid2;
+      splits; try exact I; try (apply Rgt_not_eq); try (exact (W_pos' _)); try (exact (sqrtW_pos _));
+      pose proof (sc1 (lat * (PI / 180))); nra.
+    + autounfold with pos2d_l_db. auto_derive; [splits; try exact I; eexists; eassumption|]. reflexivity.
+  - cbv beta. unfold plus; simpl.
+    derive_val Froll. derive_val Fpitch. derive_val Fheading. rewrite ?Vroll, ?Vpitch, ?Vheading.
+    clean0;
+    autounfold with pos2d_l_db; clean_mid2; autounfold with correct2d_db;
+    cbv [mvec sumN Tout2 Hm_pos2d_l vec7];
+    autounfold with errstate_mat errstate_meas; autounfold with to_output2d_db pos2d_l_db;
+    rewrite ?Hs;
+    match type of Hrn with 0 < ?r + alt => set (rn := r) in * end;
+    match type of Hre with 0 < ?r + alt => set (re := r) in * end;
+    trig_abbrev roll pitch heading;
+    first [ ring [Hr Hp Hh] | field_simplify_eq; [ring [Hr Hp Hh] | splits; try assumption; lra] ].
+Qed.
+
+End Pos2D.
+
+(** ** D.3  noise matrix, residual form (sign and units), equal configurations *)
+
+(** predicted quantities, written with the GENERATED transform.mat_from_rph / compute_lla_difference *)
+Definition Cnb (roll pitch heading : R) (i j : nat) : R :=
+  match i, j with
+  | 0, 0 => mat_from_rph_m00 roll pitch heading | 0, 1 => mat_from_rph_m01 roll pitch heading | 0, 2 => mat_from_rph_m02 roll pitch heading
+  | 1, 0 => mat_from_rph_m10 roll pitch heading | 1, 1 => mat_from_rph_m11 roll pitch heading | 1, 2 => mat_from_rph_m12 roll pitch heading
+  | 2, 0 => mat_from_rph_m20 roll pitch heading | 2, 1 => mat_from_rph_m21 roll pitch heading | 2, 2 => mat_from_rph_m22 roll pitch heading
+  | _, _ => 0%R
+  end%nat.
+Definition vec3 (a b c : R) (k : nat) : R := match k with 0%nat => a | 1%nat => b | 2%nat => c | _ => 0 end.
+Definition cross3 (a b : nat -> R) (k : nat) : R :=
+  match k with
+  | 0%nat => a 1%nat * b 2%nat - a 2%nat * b 1%nat
+  | 1%nat => a 2%nat * b 0%nat - a 0%nat * b 2%nat
+  | 2%nat => a 0%nat * b 1%nat - a 1%nat * b 0%nat
+  | _ => 0 end.
+(** C_nb^T v *)
+Definition mtvec3 (A : mat) (v : nat -> R) (k : nat) : R := A 0%nat k * v 0%nat + A 1%nat k * v 1%nat + A 2%nat k * v 2%nat.
+Definition lla_diff (lat1 lon1 alt1 lat2 lon2 alt2 : R) (k : nat) : R :=
+  match k with
+  | 0%nat => compute_lla_difference_d0 lat1 lon1 alt1 lat2 lon2 alt2
+  | 1%nat => compute_lla_difference_d1 lat1 lon1 alt1 lat2 lon2 alt2
+  | 2%nat => compute_lla_difference_d2 lat1 lon1 alt1 lat2 lon2 alt2
+  | _ => 0 end.
+
+Ltac unf_pred :=
+  cbv [Cnb vec3 cross3 mtvec3 mvec sumN lla_diff];
+  unfold mat_from_rph_m00, mat_from_rph_m01, mat_from_rph_m02, mat_from_rph_m10, mat_from_rph_m11,
+    mat_from_rph_m12, mat_from_rph_m20, mat_from_rph_m21, mat_from_rph_m22,
+    compute_lla_difference_d0, compute_lla_difference_d1, compute_lla_difference_d2;
+  autounfold with mat_from_rph_db compute_lla_difference_db.
+
+Lemma R_matches_pos3d lat lon alt VN VE VD roll pitch heading mlat mlon malt sd :
+  meq 3 3 (Rm_pos3d lat lon alt VN VE VD roll pitch heading mlat mlon malt sd) (fun i j => if Nat.eqb i j then sd * sd else 0).
+Proof.
+  intros i j Hi Hj; idx i; idx j; cbv [Rm_pos3d Nat.eqb]; autounfold with errstate_meas; autounfold with pos3d_db; reflexivity.
+Qed.
+
+Lemma residual_form_pos3d lat lon alt VN VE VD roll pitch heading mlat mlon malt sd : forall k, (k < 3)%nat ->
+  (match k with | 0 => pos3d_z0 lat lon alt VN VE VD roll pitch heading mlat mlon malt sd | 1 => pos3d_z1 lat lon alt VN VE VD roll pitch heading mlat mlon malt sd | 2 => pos3d_z2 lat lon alt VN VE VD roll pitch heading mlat mlon malt sd | _ => 0%R end)%nat = lla_diff lat lon alt mlat mlon malt k.
+Proof.
+  intros k Hk; idx k; autounfold with errstate_meas; autounfold with pos3d_db; unf_pred; ring.
+Qed.
+
+Lemma R_matches_pos3d_l lat lon alt VN VE VD roll pitch heading mlat mlon malt l0 l1 l2 sd :
+  meq 3 3 (Rm_pos3d_l lat lon alt VN VE VD roll pitch heading mlat mlon malt l0 l1 l2 sd) (fun i j => if Nat.eqb i j then sd * sd else 0).
+Proof.
+  intros i j Hi Hj; idx i; idx j; cbv [Rm_pos3d_l Nat.eqb]; autounfold with errstate_meas; autounfold with pos3d_l_db; reflexivity.
+Qed.
+
+Lemma residual_form_pos3d_l lat lon alt VN VE VD roll pitch heading mlat mlon malt l0 l1 l2 sd : forall k, (k < 3)%nat ->
+  (match k with | 0 => pos3d_l_z0 lat lon alt VN VE VD roll pitch heading mlat mlon malt l0 l1 l2 sd | 1 => pos3d_l_z1 lat lon alt VN VE VD roll pitch heading mlat mlon malt l0 l1 l2 sd | 2 => pos3d_l_z2 lat lon alt VN VE VD roll pitch heading mlat mlon malt l0 l1 l2 sd | _ => 0%R end)%nat = lla_diff lat lon alt mlat mlon malt k + mvec 3 (Cnb roll pitch heading) (vec3 l0 l1 l2) k.
+Proof.
+  intros k Hk; idx k; autounfold with errstate_meas; autounfold with pos3d_l_db; unf_pred; ring.
+Qed.
+
+Lemma R_matches_ned3d lat lon alt VN VE VD roll pitch heading mVN mVE mVD sd :
+  meq 3 3 (Rm_ned3d lat lon alt VN VE VD roll pitch heading mVN mVE mVD sd) (fun i j => if Nat.eqb i j then sd * sd else 0).
+Proof.
+  intros i j Hi Hj; idx i; idx j; cbv [Rm_ned3d Nat.eqb]; autounfold with errstate_meas; autounfold with ned3d_db; reflexivity.
+Qed.
+
+Lemma residual_form_ned3d lat lon alt VN VE VD roll pitch heading mVN mVE mVD sd : forall k, (k < 3)%nat ->
+  (match k with | 0 => ned3d_z0 lat lon alt VN VE VD roll pitch heading mVN mVE mVD sd | 1 => ned3d_z1 lat lon alt VN VE VD roll pitch heading mVN mVE mVD sd | 2 => ned3d_z2 lat lon alt VN VE VD roll pitch heading mVN mVE mVD sd | _ => 0%R end)%nat = vec3 VN VE VD k - vec3 mVN mVE mVD k.
+Proof.
+  intros k Hk; idx k; autounfold with errstate_meas; autounfold with ned3d_db; unf_pred; ring.
+Qed.
+
+Lemma R_matches_ned3d_rate lat lon alt VN VE VD roll pitch heading rate_x rate_y rate_z mVN mVE mVD sd :
+  meq 3 3 (Rm_ned3d_rate lat lon alt VN VE VD roll pitch heading rate_x rate_y rate_z mVN mVE mVD sd) (fun i j => if Nat.eqb i j then sd * sd else 0).
+Proof.
+  intros i j Hi Hj; idx i; idx j; cbv [Rm_ned3d_rate Nat.eqb]; autounfold with errstate_meas; autounfold with ned3d_rate_db; reflexivity.
+Qed.
+
+Lemma residual_form_ned3d_rate lat lon alt VN VE VD roll pitch heading rate_x rate_y rate_z mVN mVE mVD sd : forall k, (k < 3)%nat ->
+  (match k with | 0 => ned3d_rate_z0 lat lon alt VN VE VD roll pitch heading rate_x rate_y rate_z mVN mVE mVD sd | 1 => ned3d_rate_z1 lat lon alt VN VE VD roll pitch heading rate_x rate_y rate_z mVN mVE mVD sd | 2 => ned3d_rate_z2 lat lon alt VN VE VD roll pitch heading rate_x rate_y rate_z mVN mVE mVD sd | _ => 0%R end)%nat = vec3 VN VE VD k - vec3 mVN mVE mVD k.
+Proof.
+  intros k Hk; idx k; autounfold with errstate_meas; autounfold with ned3d_rate_db; unf_pred; ring.
+Qed.
+
+Lemma R_matches_ned3d_l lat lon alt VN VE VD roll pitch heading rate_x rate_y rate_z mVN mVE mVD l0 l1 l2 sd :
+  meq 3 3 (Rm_ned3d_l lat lon alt VN VE VD roll pitch heading rate_x rate_y rate_z mVN mVE mVD l0 l1 l2 sd) (fun i j => if Nat.eqb i j then sd * sd else 0).
+Proof.
+  intros i j Hi Hj; idx i; idx j; cbv [Rm_ned3d_l Nat.eqb]; autounfold with errstate_meas; autounfold with ned3d_l_db; reflexivity.
+Qed.
+
+Lemma residual_form_ned3d_l lat lon alt VN VE VD roll pitch heading rate_x rate_y rate_z mVN mVE mVD l0 l1 l2 sd : forall k, (k < 3)%nat ->
+  (match k with | 0 => ned3d_l_z0 lat lon alt VN VE VD roll pitch heading rate_x rate_y rate_z mVN mVE mVD l0 l1 l2 sd | 1 => ned3d_l_z1 lat lon alt VN VE VD roll pitch heading rate_x rate_y rate_z mVN mVE mVD l0 l1 l2 sd | 2 => ned3d_l_z2 lat lon alt VN VE VD roll pitch heading rate_x rate_y rate_z mVN mVE mVD l0 l1 l2 sd | _ => 0%R end)%nat = vec3 VN VE VD k + mvec 3 (Cnb roll pitch heading) (cross3 (vec3 rate_x rate_y rate_z) (vec3 l0 l1 l2)) k - vec3 mVN mVE mVD k.
+Proof.
+  intros k Hk; idx k; autounfold with errstate_meas; autounfold with ned3d_l_db; unf_pred; ring.
+Qed.
+
+Lemma R_matches_ned3d_l_norate lat lon alt VN VE VD roll pitch heading mVN mVE mVD l0 l1 l2 sd :
+  meq 3 3 (Rm_ned3d_l_norate lat lon alt VN VE VD roll pitch heading mVN mVE mVD l0 l1 l2 sd) (fun i j => if Nat.eqb i j then sd * sd else 0).
+Proof.
+  intros i j Hi Hj; idx i; idx j; cbv [Rm_ned3d_l_norate Nat.eqb]; autounfold with errstate_meas; autounfold with ned3d_l_norate_db; reflexivity.
+Qed.
+
+Lemma residual_form_ned3d_l_norate lat lon alt VN VE VD roll pitch heading mVN mVE mVD l0 l1 l2 sd : forall k, (k < 3)%nat ->
+  (match k with | 0 => ned3d_l_norate_z0 lat lon alt VN VE VD roll pitch heading mVN mVE mVD l0 l1 l2 sd | 1 => ned3d_l_norate_z1 lat lon alt VN VE VD roll pitch heading mVN mVE mVD l0 l1 l2 sd | 2 => ned3d_l_norate_z2 lat lon alt VN VE VD roll pitch heading mVN mVE mVD l0 l1 l2 sd | _ => 0%R end)%nat = vec3 VN VE VD k - vec3 mVN mVE mVD k.
+Proof.
+  intros k Hk; idx k; autounfold with errstate_meas; autounfold with ned3d_l_norate_db; unf_pred; ring.
+Qed.
+
+Lemma R_matches_body3d lat lon alt VN VE VD roll pitch heading mVX mVY mVZ sd :
+  meq 3 3 (Rm_body3d lat lon alt VN VE VD roll pitch heading mVX mVY mVZ sd) (fun i j => if Nat.eqb i j then sd * sd else 0).
+Proof.
+  intros i j Hi Hj; idx i; idx j; cbv [Rm_body3d Nat.eqb]; autounfold with errstate_meas; autounfold with body3d_db; reflexivity.
+Qed.
+
+Lemma residual_form_body3d lat lon alt VN VE VD roll pitch heading mVX mVY mVZ sd : forall k, (k < 3)%nat ->
+  (match k with | 0 => body3d_z0 lat lon alt VN VE VD roll pitch heading mVX mVY mVZ sd | 1 => body3d_z1 lat lon alt VN VE VD roll pitch heading mVX mVY mVZ sd | 2 => body3d_z2 lat lon alt VN VE VD roll pitch heading mVX mVY mVZ sd | _ => 0%R end)%nat = mtvec3 (Cnb roll pitch heading) (vec3 VN VE VD) k - vec3 mVX mVY mVZ k.
+Proof.
+  intros k Hk; idx k; autounfold with errstate_meas; autounfold with body3d_db; unf_pred; ring.
+Qed.
+
+Lemma R_matches_body3d_rate lat lon alt VN VE VD roll pitch heading rate_x rate_y rate_z mVX mVY mVZ sd :
+  meq 3 3 (Rm_body3d_rate lat lon alt VN VE VD roll pitch heading rate_x rate_y rate_z mVX mVY mVZ sd) (fun i j => if Nat.eqb i j then sd * sd else 0).
+Proof.
+  intros i j Hi Hj; idx i; idx j; cbv [Rm_body3d_rate Nat.eqb]; autounfold with errstate_meas; autounfold with body3d_rate_db; reflexivity.
+Qed.
+
+Lemma residual_form_body3d_rate lat lon alt VN VE VD roll pitch heading rate_x rate_y rate_z mVX mVY mVZ sd : forall k, (k < 3)%nat ->
+  (match k with | 0 => body3d_rate_z0 lat lon alt VN VE VD roll pitch heading rate_x rate_y rate_z mVX mVY mVZ sd | 1 => body3d_rate_z1 lat lon alt VN VE VD roll pitch heading rate_x rate_y rate_z mVX mVY mVZ sd | 2 => body3d_rate_z2 lat lon alt VN VE VD roll pitch heading rate_x rate_y rate_z mVX mVY mVZ sd | _ => 0%R end)%nat = mtvec3 (Cnb roll pitch heading) (vec3 VN VE VD) k - vec3 mVX mVY mVZ k.
+Proof.
+  intros k Hk; idx k; autounfold with errstate_meas; autounfold with body3d_rate_db; unf_pred; ring.
+Qed.
+
+Lemma R_matches_pos2d lat lon alt VN VE VD roll pitch heading mlat mlon malt sd :
+  meq 2 2 (Rm_pos2d lat lon alt VN VE VD roll pitch heading mlat mlon malt sd) (fun i j => if Nat.eqb i j then sd * sd else 0).
+Proof.
+  intros i j Hi Hj; idx i; idx j; cbv [Rm_pos2d Nat.eqb]; autounfold with errstate_meas; autounfold with pos2d_db; reflexivity.
+Qed.
+
+Lemma residual_form_pos2d lat lon alt VN VE VD roll pitch heading mlat mlon malt sd : forall k, (k < 2)%nat ->
+  (match k with | 0 => pos2d_z0 lat lon alt VN VE VD roll pitch heading mlat mlon malt sd | 1 => pos2d_z1 lat lon alt VN VE VD roll pitch heading mlat mlon malt sd | _ => 0%R end)%nat = lla_diff lat lon alt mlat mlon malt k.
+Proof.
+  intros k Hk; idx k; autounfold with errstate_meas; autounfold with pos2d_db; unf_pred; ring.
+Qed.
+
+Lemma R_matches_pos2d_l lat lon alt VN VE VD roll pitch heading mlat mlon malt l0 l1 l2 sd :
+  meq 2 2 (Rm_pos2d_l lat lon alt VN VE VD roll pitch heading mlat mlon malt l0 l1 l2 sd) (fun i j => if Nat.eqb i j then sd * sd else 0).
+Proof.
+  intros i j Hi Hj; idx i; idx j; cbv [Rm_pos2d_l Nat.eqb]; autounfold with errstate_meas; autounfold with pos2d_l_db; reflexivity.
+Qed.
+
+Lemma residual_form_pos2d_l lat lon alt VN VE VD roll pitch heading mlat mlon malt l0 l1 l2 sd : forall k, (k < 2)%nat ->
+  (match k with | 0 => pos2d_l_z0 lat lon alt VN VE VD roll pitch heading mlat mlon malt l0 l1 l2 sd | 1 => pos2d_l_z1 lat lon alt VN VE VD roll pitch heading mlat mlon malt l0 l1 l2 sd | _ => 0%R end)%nat = lla_diff lat lon alt mlat mlon malt k + mvec 3 (Cnb roll pitch heading) (vec3 l0 l1 l2) k.
+Proof.
+  intros k Hk; idx k; autounfold with errstate_meas; autounfold with pos2d_l_db; unf_pred; ring.
+Qed.
+
+Lemma R_matches_ned2d lat lon alt VN VE VD roll pitch heading mVN mVE mVD sd :
+  meq 2 2 (Rm_ned2d lat lon alt VN VE VD roll pitch heading mVN mVE mVD sd) (fun i j => if Nat.eqb i j then sd * sd else 0).
+Proof.
+  intros i j Hi Hj; idx i; idx j; cbv [Rm_ned2d Nat.eqb]; autounfold with errstate_meas; autounfold with ned2d_db; reflexivity.
+Qed.
+
+Lemma residual_form_ned2d lat lon alt VN VE VD roll pitch heading mVN mVE mVD sd : forall k, (k < 2)%nat ->
+  (match k with | 0 => ned2d_z0 lat lon alt VN VE VD roll pitch heading mVN mVE mVD sd | 1 => ned2d_z1 lat lon alt VN VE VD roll pitch heading mVN mVE mVD sd | _ => 0%R end)%nat = vec3 VN VE VD k - vec3 mVN mVE mVD k.
+Proof.
+  intros k Hk; idx k; autounfold with errstate_meas; autounfold with ned2d_db; unf_pred; ring.
+Qed.
+
+Lemma R_matches_ned2d_rate lat lon alt VN VE VD roll pitch heading rate_x rate_y rate_z mVN mVE mVD sd :
+  meq 2 2 (Rm_ned2d_rate lat lon alt VN VE VD roll pitch heading rate_x rate_y rate_z mVN mVE mVD sd) (fun i j => if Nat.eqb i j then sd * sd else 0).
+Proof.
+  intros i j Hi Hj; idx i; idx j; cbv [Rm_ned2d_rate Nat.eqb]; autounfold with errstate_meas; autounfold with ned2d_rate_db; reflexivity.
+Qed.
+
+Lemma residual_form_ned2d_rate lat lon alt VN VE VD roll pitch heading rate_x rate_y rate_z mVN mVE mVD sd : forall k, (k < 2)%nat ->
+  (match k with | 0 => ned2d_rate_z0 lat lon alt VN VE VD roll pitch heading rate_x rate_y rate_z mVN mVE mVD sd | 1 => ned2d_rate_z1 lat lon alt VN VE VD roll pitch heading rate_x rate_y rate_z mVN mVE mVD sd | _ => 0%R end)%nat = vec3 VN VE VD k - vec3 mVN mVE mVD k.
+Proof.
+  intros k Hk; idx k; autounfold with errstate_meas; autounfold with ned2d_rate_db; unf_pred; ring.
+Qed.
+
+Lemma R_matches_ned2d_l lat lon alt VN VE VD roll pitch heading rate_x rate_y rate_z mVN mVE mVD l0 l1 l2 sd :
+  meq 2 2 (Rm_ned2d_l lat lon alt VN VE VD roll pitch heading rate_x rate_y rate_z mVN mVE mVD l0 l1 l2 sd) (fun i j => if Nat.eqb i j then sd * sd else 0).
+Proof.
+  intros i j Hi Hj; idx i; idx j; cbv [Rm_ned2d_l Nat.eqb]; autounfold with errstate_meas; autounfold with ned2d_l_db; reflexivity.
+Qed.
+
+Lemma residual_form_ned2d_l lat lon alt VN VE VD roll pitch heading rate_x rate_y rate_z mVN mVE mVD l0 l1 l2 sd : forall k, (k < 2)%nat ->
+  (match k with | 0 => ned2d_l_z0 lat lon alt VN VE VD roll pitch heading rate_x rate_y rate_z mVN mVE mVD l0 l1 l2 sd | 1 => ned2d_l_z1 lat lon alt VN VE VD roll pitch heading rate_x rate_y rate_z mVN mVE mVD l0 l1 l2 sd | _ => 0%R end)%nat = vec3 VN VE VD k + mvec 3 (Cnb roll pitch heading) (cross3 (vec3 rate_x rate_y rate_z) (vec3 l0 l1 l2)) k - vec3 mVN mVE mVD k.
+Proof.
+  intros k Hk; idx k; autounfold with errstate_meas; autounfold with ned2d_l_db; unf_pred; ring.
+Qed.
+
+Lemma R_matches_ned2d_l_norate lat lon alt VN VE VD roll pitch heading mVN mVE mVD l0 l1 l2 sd :
+  meq 2 2 (Rm_ned2d_l_norate lat lon alt VN VE VD roll pitch heading mVN mVE mVD l0 l1 l2 sd) (fun i j => if Nat.eqb i j then sd * sd else 0).
+Proof.
+  intros i j Hi Hj; idx i; idx j; cbv [Rm_ned2d_l_norate Nat.eqb]; autounfold with errstate_meas; autounfold with ned2d_l_norate_db; reflexivity.
+Qed.
+
+Lemma residual_form_ned2d_l_norate lat lon alt VN VE VD roll pitch heading mVN mVE mVD l0 l1 l2 sd : forall k, (k < 2)%nat ->
+  (match k with | 0 => ned2d_l_norate_z0 lat lon alt VN VE VD roll pitch heading mVN mVE mVD l0 l1 l2 sd | 1 => ned2d_l_norate_z1 lat lon alt VN VE VD roll pitch heading mVN mVE mVD l0 l1 l2 sd | _ => 0%R end)%nat = vec3 VN VE VD k - vec3 mVN mVE mVD k.
+Proof.
+  intros k Hk; idx k; autounfold with errstate_meas; autounfold with ned2d_l_norate_db; unf_pred; ring.
+Qed.
+
+Lemma R_matches_body2d lat lon alt VN VE VD roll pitch heading mVX mVY mVZ sd :
+  meq 3 3 (Rm_body2d lat lon alt VN VE VD roll pitch heading mVX mVY mVZ sd) (fun i j => if Nat.eqb i j then sd * sd else 0).
+Proof.
+  intros i j Hi Hj; idx i; idx j; cbv [Rm_body2d Nat.eqb]; autounfold with errstate_meas; autounfold with body2d_db; reflexivity.
+Qed.
+
+Lemma residual_form_body2d lat lon alt VN VE VD roll pitch heading mVX mVY mVZ sd : forall k, (k < 3)%nat ->
+  (match k with | 0 => body2d_z0 lat lon alt VN VE VD roll pitch heading mVX mVY mVZ sd | 1 => body2d_z1 lat lon alt VN VE VD roll pitch heading mVX mVY mVZ sd | 2 => body2d_z2 lat lon alt VN VE VD roll pitch heading mVX mVY mVZ sd | _ => 0%R end)%nat = mtvec3 (Cnb roll pitch heading) (vec3 VN VE VD) k - vec3 mVX mVY mVZ k.
+Proof.
+  intros k Hk; idx k; autounfold with errstate_meas; autounfold with body2d_db; unf_pred; ring.
+Qed.
+
+Lemma R_matches_body2d_rate lat lon alt VN VE VD roll pitch heading rate_x rate_y rate_z mVX mVY mVZ sd :
+  meq 3 3 (Rm_body2d_rate lat lon alt VN VE VD roll pitch heading rate_x rate_y rate_z mVX mVY mVZ sd) (fun i j => if Nat.eqb i j then sd * sd else 0).
+Proof.
+  intros i j Hi Hj; idx i; idx j; cbv [Rm_body2d_rate Nat.eqb]; autounfold with errstate_meas; autounfold with body2d_rate_db; reflexivity.
+Qed.
+
+Lemma residual_form_body2d_rate lat lon alt VN VE VD roll pitch heading rate_x rate_y rate_z mVX mVY mVZ sd : forall k, (k < 3)%nat ->
+  (match k with | 0 => body2d_rate_z0 lat lon alt VN VE VD roll pitch heading rate_x rate_y rate_z mVX mVY mVZ sd | 1 => body2d_rate_z1 lat lon alt VN VE VD roll pitch heading rate_x rate_y rate_z mVX mVY mVZ sd | 2 => body2d_rate_z2 lat lon alt VN VE VD roll pitch heading rate_x rate_y rate_z mVX mVY mVZ sd | _ => 0%R end)%nat = mtvec3 (Cnb roll pitch heading) (vec3 VN VE VD) k - vec3 mVX mVY mVZ k.
+Proof.
+  intros k Hk; idx k; autounfold with errstate_meas; autounfold with body2d_rate_db; unf_pred; ring.
+Qed.
+
+(** rates present but no lever arm / lever arm but no rates: the same model as without either *)
+Lemma same_model_ned3d_rate lat lon alt VN VE VD roll pitch heading rate_x rate_y rate_z mVN mVE mVD sd :
+  (forall k, (k < 3)%nat ->
+     (match k with | 0 => ned3d_rate_z0 lat lon alt VN VE VD roll pitch heading rate_x rate_y rate_z mVN mVE mVD sd | 1 => ned3d_rate_z1 lat lon alt VN VE VD roll pitch heading rate_x rate_y rate_z mVN mVE mVD sd | 2 => ned3d_rate_z2 lat lon alt VN VE VD roll pitch heading rate_x rate_y rate_z mVN mVE mVD sd | _ => 0%R end)%nat =
+     (match k with | 0 => ned3d_z0 lat lon alt VN VE VD roll pitch heading mVN mVE mVD sd | 1 => ned3d_z1 lat lon alt VN VE VD roll pitch heading mVN mVE mVD sd | 2 => ned3d_z2 lat lon alt VN VE VD roll pitch heading mVN mVE mVD sd | _ => 0%R end)%nat) /\
+  meq 3 9 (Hm_ned3d_rate lat lon alt VN VE VD roll pitch heading rate_x rate_y rate_z mVN mVE mVD sd) (Hm_ned3d lat lon alt VN VE VD roll pitch heading mVN mVE mVD sd).
+Proof.
+  split; [intros k Hk; idx k | intros i j Hi Hj; idx i; idx j; cbv [Hm_ned3d_rate Hm_ned3d]];
+    autounfold with errstate_meas; autounfold with ned3d_rate_db ned3d_db; ring.
+Qed.
+
+Lemma same_model_ned3d_l_norate lat lon alt VN VE VD roll pitch heading mVN mVE mVD l0 l1 l2 sd :
+  (forall k, (k < 3)%nat ->
+     (match k with | 0 => ned3d_l_norate_z0 lat lon alt VN VE VD roll pitch heading mVN mVE mVD l0 l1 l2 sd | 1 => ned3d_l_norate_z1 lat lon alt VN VE VD roll pitch heading mVN mVE mVD l0 l1 l2 sd | 2 => ned3d_l_norate_z2 lat lon alt VN VE VD roll pitch heading mVN mVE mVD l0 l1 l2 sd | _ => 0%R end)%nat =
+     (match k with | 0 => ned3d_z0 lat lon alt VN VE VD roll pitch heading mVN mVE mVD sd | 1 => ned3d_z1 lat lon alt VN VE VD roll pitch heading mVN mVE mVD sd | 2 => ned3d_z2 lat lon alt VN VE VD roll pitch heading mVN mVE mVD sd | _ => 0%R end)%nat) /\
+  meq 3 9 (Hm_ned3d_l_norate lat lon alt VN VE VD roll pitch heading mVN mVE mVD l0 l1 l2 sd) (Hm_ned3d lat lon alt VN VE VD roll pitch heading mVN mVE mVD sd).
+Proof.
+  split; [intros k Hk; idx k | intros i j Hi Hj; idx i; idx j; cbv [Hm_ned3d_l_norate Hm_ned3d]];
+    autounfold with errstate_meas; autounfold with ned3d_l_norate_db ned3d_db; ring.
+Qed.
+
+Lemma same_model_body3d_rate lat lon alt VN VE VD roll pitch heading rate_x rate_y rate_z mVX mVY mVZ sd :
+  (forall k, (k < 3)%nat ->
+     (match k with | 0 => body3d_rate_z0 lat lon alt VN VE VD roll pitch heading rate_x rate_y rate_z mVX mVY mVZ sd | 1 => body3d_rate_z1 lat lon alt VN VE VD roll pitch heading rate_x rate_y rate_z mVX mVY mVZ sd | 2 => body3d_rate_z2 lat lon alt VN VE VD roll pitch heading rate_x rate_y rate_z mVX mVY mVZ sd | _ => 0%R end)%nat =
+     (match k with | 0 => body3d_z0 lat lon alt VN VE VD roll pitch heading mVX mVY mVZ sd | 1 => body3d_z1 lat lon alt VN VE VD roll pitch heading mVX mVY mVZ sd | 2 => body3d_z2 lat lon alt VN VE VD roll pitch heading mVX mVY mVZ sd | _ => 0%R end)%nat) /\
+  meq 3 9 (Hm_body3d_rate lat lon alt VN VE VD roll pitch heading rate_x rate_y rate_z mVX mVY mVZ sd) (Hm_body3d lat lon alt VN VE VD roll pitch heading mVX mVY mVZ sd).
+Proof.
+  split; [intros k Hk; idx k | intros i j Hi Hj; idx i; idx j; cbv [Hm_body3d_rate Hm_body3d]];
+    autounfold with errstate_meas; autounfold with body3d_rate_db body3d_db; ring.
+Qed.
+
+Lemma same_model_ned2d_rate lat lon alt VN VE VD roll pitch heading rate_x rate_y rate_z mVN mVE mVD sd :
+  (forall k, (k < 2)%nat ->
+     (match k with | 0 => ned2d_rate_z0 lat lon alt VN VE VD roll pitch heading rate_x rate_y rate_z mVN mVE mVD sd | 1 => ned2d_rate_z1 lat lon alt VN VE VD roll pitch heading rate_x rate_y rate_z mVN mVE mVD sd | _ => 0%R end)%nat =
+     (match k with | 0 => ned2d_z0 lat lon alt VN VE VD roll pitch heading mVN mVE mVD sd | 1 => ned2d_z1 lat lon alt VN VE VD roll pitch heading mVN mVE mVD sd | _ => 0%R end)%nat) /\
+  meq 2 7 (Hm_ned2d_rate lat lon alt VN VE VD roll pitch heading rate_x rate_y rate_z mVN mVE mVD sd) (Hm_ned2d lat lon alt VN VE VD roll pitch heading mVN mVE mVD sd).
+Proof.
+  split; [intros k Hk; idx k | intros i j Hi Hj; idx i; idx j; cbv [Hm_ned2d_rate Hm_ned2d]];
+    autounfold with errstate_meas; autounfold with ned2d_rate_db ned2d_db; ring.
+Qed.
+
+Lemma same_model_ned2d_l_norate lat lon alt VN VE VD roll pitch heading mVN mVE mVD l0 l1 l2 sd :
+  (forall k, (k < 2)%nat ->
+     (match k with | 0 => ned2d_l_norate_z0 lat lon alt VN VE VD roll pitch heading mVN mVE mVD l0 l1 l2 sd | 1 => ned2d_l_norate_z1 lat lon alt VN VE VD roll pitch heading mVN mVE mVD l0 l1 l2 sd | _ => 0%R end)%nat =
+     (match k with | 0 => ned2d_z0 lat lon alt VN VE VD roll pitch heading mVN mVE mVD sd | 1 => ned2d_z1 lat lon alt VN VE VD roll pitch heading mVN mVE mVD sd | _ => 0%R end)%nat) /\
+  meq 2 7 (Hm_ned2d_l_norate lat lon alt VN VE VD roll pitch heading mVN mVE mVD l0 l1 l2 sd) (Hm_ned2d lat lon alt VN VE VD roll pitch heading mVN mVE mVD sd).
+Proof.
+  split; [intros k Hk; idx k | intros i j Hi Hj; idx i; idx j; cbv [Hm_ned2d_l_norate Hm_ned2d]];
+    autounfold with errstate_meas; autounfold with ned2d_l_norate_db ned2d_db; ring.
+Qed.
+
+Lemma same_model_body2d_rate lat lon alt VN VE VD roll pitch heading rate_x rate_y rate_z mVX mVY mVZ sd :
+  (forall k, (k < 3)%nat ->
+     (match k with | 0 => body2d_rate_z0 lat lon alt VN VE VD roll pitch heading rate_x rate_y rate_z mVX mVY mVZ sd | 1 => body2d_rate_z1 lat lon alt VN VE VD roll pitch heading rate_x rate_y rate_z mVX mVY mVZ sd | 2 => body2d_rate_z2 lat lon alt VN VE VD roll pitch heading rate_x rate_y rate_z mVX mVY mVZ sd | _ => 0%R end)%nat =
+     (match k with | 0 => body2d_z0 lat lon alt VN VE VD roll pitch heading mVX mVY mVZ sd | 1 => body2d_z1 lat lon alt VN VE VD roll pitch heading mVX mVY mVZ sd | 2 => body2d_z2 lat lon alt VN VE VD roll pitch heading mVX mVY mVZ sd | _ => 0%R end)%nat) /\
+  meq 3 7 (Hm_body2d_rate lat lon alt VN VE VD roll pitch heading rate_x rate_y rate_z mVX mVY mVZ sd) (Hm_body2d lat lon alt VN VE VD roll pitch heading mVX mVY mVZ sd).
+Proof.
+  split; [intros k Hk; idx k | intros i j Hi Hj; idx i; idx j; cbv [Hm_body2d_rate Hm_body2d]];
+    autounfold with errstate_meas; autounfold with body2d_rate_db body2d_db; ring.
+Qed.
+
+
+(** position class: all components of one configuration together *)
+Lemma H_is_jacobian_pos3d lat lon alt VN VE VD roll pitch heading x0 x1 x2 x3 x4 x5 x6 x7 x8 sd :
+  -90 < lat < 90 -> -1000000 <= alt -> -180 < roll < 180 -> -90 < pitch < 90 -> -180 < heading < 180 ->
+  forall k, (k < 3)%nat ->
+  is_derive (Zc_pos3d lat lon alt VN VE VD roll pitch heading lat lon alt sd x0 x1 x2 x3 x4 x5 x6 x7 x8 k) 0
+    (- mvec 9 (Hm_pos3d lat lon alt VN VE VD roll pitch heading lat lon alt sd) (vec9 x0 x1 x2 x3 x4 x5 x6 x7 x8) k).
+Proof.
+  intros Hlat Halt Hroll Hpitch Hheading k Hk. idx k.
+  - eapply H_is_jacobian_pos3d_0; eassumption.
+  - eapply H_is_jacobian_pos3d_1; eassumption.
+  - eapply H_is_jacobian_pos3d_2; eassumption.
+Qed.
+
+Lemma H_is_jacobian_pos3d_l lat lon alt VN VE VD roll pitch heading x0 x1 x2 x3 x4 x5 x6 x7 x8 l0 l1 l2 sd :
+  -90 < lat < 90 -> -1000000 <= alt -> -180 < roll < 180 -> -90 < pitch < 90 -> -180 < heading < 180 ->
+  forall k, (k < 3)%nat ->
+  is_derive (Zc_pos3d_l lat lon alt VN VE VD roll pitch heading lat lon alt l0 l1 l2 sd x0 x1 x2 x3 x4 x5 x6 x7 x8 k) 0
+    (- mvec 9 (Hm_pos3d_l lat lon alt VN VE VD roll pitch heading lat lon alt l0 l1 l2 sd) (vec9 x0 x1 x2 x3 x4 x5 x6 x7 x8) k).
+Proof.
+  intros Hlat Halt Hroll Hpitch Hheading k Hk. idx k.
+  - eapply H_is_jacobian_pos3d_l_0; eassumption.
+  - eapply H_is_jacobian_pos3d_l_1; eassumption.
+  - eapply H_is_jacobian_pos3d_l_2; eassumption.
+Qed.
+
+Lemma H_is_jacobian_pos2d lat lon alt VN VE VD roll pitch heading x0 x1 x2 x3 x4 x5 x6 sd :
+  -90 < lat < 90 -> -1000000 <= alt -> -180 < roll < 180 -> -90 < pitch < 90 -> -180 < heading < 180 ->
+  forall k, (k < 2)%nat ->
+  is_derive (Zc_pos2d lat lon alt VN VE VD roll pitch heading lat lon alt sd x0 x1 x2 x3 x4 x5 x6 k) 0
+    (- mvec 7 (Hm_pos2d lat lon alt VN VE VD roll pitch heading lat lon alt sd) (vec7 x0 x1 x2 x3 x4 x5 x6) k).
+Proof.
+  intros Hlat Halt Hroll Hpitch Hheading k Hk. idx k.
+  - eapply H_is_jacobian_pos2d_0; eassumption.
+  - eapply H_is_jacobian_pos2d_1; eassumption.
+Qed.
+
+Lemma H_is_jacobian_pos2d_l lat lon alt VN VE VD roll pitch heading x0 x1 x2 x3 x4 x5 x6 l0 l1 l2 sd :
+  -90 < lat < 90 -> -1000000 <= alt -> -180 < roll < 180 -> -90 < pitch < 90 -> -180 < heading < 180 ->
+  forall k, (k < 2)%nat ->
+  is_derive (Zc_pos2d_l lat lon alt VN VE VD roll pitch heading lat lon alt l0 l1 l2 sd x0 x1 x2 x3 x4 x5 x6 k) 0
+    (- mvec 7 (Hm_pos2d_l lat lon alt VN VE VD roll pitch heading lat lon alt l0 l1 l2 sd) (vec7 x0 x1 x2 x3 x4 x5 x6) k).
+Proof.
+  intros Hlat Halt Hroll Hpitch Hheading k Hk. idx k.
+  - eapply H_is_jacobian_pos2d_l_0; eassumption.
+  - eapply H_is_jacobian_pos2d_l_1; eassumption.
+Qed.
+
